@@ -94,6 +94,7 @@ variables
   rv = [t \in Procs |-> 0],
   rwb = [t \in Procs |-> << >>],
   rneed = [t \in Procs |-> FALSE],
+  stres = [t \in Procs |-> FALSE],
   dsl = [t \in Procs |-> << >>],
   atomic = [t \in Procs |-> FALSE],
   strong = [o \in Objs |-> 1],
@@ -173,7 +174,7 @@ st_join:     \* [join] despawn().join() of a finished (panicked) thread
 st_dormant:  \* [threads], or [busy] when blocked on a busy flag (FixD2)
   await (thrHeld = "" \/ thrHeld = self) /\ (thrHeld = self => ~busyLocked[pthreads[sti]]);
   with (r = FirstDormant(sti)) {
-    if (r.kind = "take") { busy[r.p] := TRUE; inbox[r.p] := inbox[r.p] + 1; thrHeld := ""; return; }
+    if (r.kind = "take") { busy[r.p] := TRUE; inbox[r.p] := inbox[r.p] + 1; thrHeld := ""; stres[self] := TRUE; return; }
     else if (r.kind = "block") { thrHeld := self; sti := r.i; goto st_dormant; }
     else { thrHeld := ""; sti := 1; }
   };
@@ -188,7 +189,7 @@ st_spawn:    \* [threads] spawn_thread_if_less_than_maximum
     nspawned := nspawned + 1;
     h := ObsSpawn(h, 1);
     goto st_reap;
-  } else { return; }
+  } else { stres[self] := FALSE; return; }
 }
 
 \* ---- core.reschedule_queue
@@ -401,7 +402,11 @@ z_dispatch:
     if (OpTab[bcur].g \in gfired) { goto rb_step; }
     else { gthreads[OpTab[bcur].g] := gthreads[OpTab[bcur].g] \cup {self}; goto rb_wait; }
   }
-  else if (K(bcur) = "set_max") { goto mx_set; }
+  else if (K(bcur) = "set_max") {
+    \* (the real set_max_threads counts from the call for the monitors: it goes on to wake and spawn threads under the new maximum)
+    if (OpTab[bcur].then = "real") { h := ObsSetMax(h, OpTab[bcur].n); };
+    goto mx_set;
+  }
   else if (K(bcur) = "despawn") { call Despawn(); goto rb_step; }
   else { rv[self] := 0; goto rb_step; };
 z_then:
@@ -428,11 +433,14 @@ rb_wait:     \* [park]
   parkTok[self] := FALSE;
   if (OpTab[bcur].g \in gfired) { goto rb_step; }
   else { gthreads[OpTab[bcur].g] := gthreads[OpTab[bcur].g] \cup {self}; goto rb_wait; };
-mx_set:      \* [maxt] verif_set_max_threads
+mx_set:      \* [maxt] set_max_threads (or the accessor that only stores the value)
   maxThreads := OpTab[bcur].n;
-  h := ObsSetMax(h, OpTab[bcur].n);
-  rv[self] := 0;
-  goto rb_step;
+  if (OpTab[bcur].then # "real") { h := ObsSetMax(h, OpTab[bcur].n); rv[self] := 0; goto rb_step; };
+z_mx_loop:   \* set_max_threads: "schedule as many threads as we can": while schedule_thread() {}
+  call ScheduleThread();
+z_mx_chk:
+  if (stres[self]) { goto z_mx_loop; }
+  else { rv[self] := 0; goto rb_step; };
 }
 
 \* ---- ScheduledJob::run of job jj of queue jq with waker jwk; rv: 0 = Ready, 5 = Pending, 9 = panicked
@@ -1081,8 +1089,8 @@ VARIABLES pc, qstate, qpoll, jobs, wakeBlocked, schedule, pthreads, nspawned,
           gwhist, dwSt, dwW, dblTaken, dblW1, dblW2, nextDW, ready, cwait, 
           cnotif, cvHeld, sdres, jpanic, sfst, slotSt, qrSent, qrWaker, 
           dnState, dnWaker, parkTok, barGen, myBar, cdone, rv, rwb, rneed, 
-          dsl, atomic, strong, ppPending, ppClosed, ppNotify, ppNC, ppBP, 
-          ppDepth, ppAlive, ppHeld, inItems, inClosed, inWaker, pollFn, 
+          stres, dsl, atomic, strong, ppPending, ppClosed, ppNotify, ppNC, 
+          ppBP, ppDepth, ppAlive, ppHeld, inItems, inClosed, inWaker, pollFn, 
           chuteFn, pwTaken, nextPoll, ppItem, pjLive, ppStage, h, stack
 
 (* define statement *)
@@ -1137,8 +1145,8 @@ vars == << pc, qstate, qpoll, jobs, wakeBlocked, schedule, pthreads, nspawned,
            gwhist, dwSt, dwW, dblTaken, dblW1, dblW2, nextDW, ready, cwait, 
            cnotif, cvHeld, sdres, jpanic, sfst, slotSt, qrSent, qrWaker, 
            dnState, dnWaker, parkTok, barGen, myBar, cdone, rv, rwb, rneed, 
-           dsl, atomic, strong, ppPending, ppClosed, ppNotify, ppNC, ppBP, 
-           ppDepth, ppAlive, ppHeld, inItems, inClosed, inWaker, pollFn, 
+           stres, dsl, atomic, strong, ppPending, ppClosed, ppNotify, ppNC, 
+           ppBP, ppDepth, ppAlive, ppHeld, inItems, inClosed, inWaker, pollFn, 
            chuteFn, pwTaken, nextPoll, ppItem, pjLive, ppStage, h, stack, 
            dead, sti, smax, rq, sq, sj, ww, rsq, bown, bwk, bi, bcur, bw, bsp, 
            jq, jj, jwk, fj, dq, dj, oq, oop, omode, oj, yq, yop, yclaimed, tq, 
@@ -1196,6 +1204,7 @@ Init == (* Global variables *)
         /\ rv = [t \in Procs |-> 0]
         /\ rwb = [t \in Procs |-> << >>]
         /\ rneed = [t \in Procs |-> FALSE]
+        /\ stres = [t \in Procs |-> FALSE]
         /\ dsl = [t \in Procs |-> << >>]
         /\ atomic = [t \in Procs |-> FALSE]
         /\ strong = [o \in Objs |-> 1]
@@ -1307,16 +1316,16 @@ st_reap(self) == /\ pc[self] = "st_reap"
                                  nextDW, ready, cwait, cnotif, cvHeld, sdres, 
                                  jpanic, sfst, slotSt, qrSent, qrWaker, 
                                  dnState, dnWaker, parkTok, barGen, myBar, 
-                                 cdone, rv, rwb, rneed, dsl, atomic, strong, 
-                                 ppPending, ppClosed, ppNotify, ppNC, ppBP, 
-                                 ppDepth, ppAlive, ppHeld, inItems, inClosed, 
-                                 inWaker, pollFn, chuteFn, pwTaken, nextPoll, 
-                                 ppItem, pjLive, ppStage, h, stack, sti, smax, 
-                                 rq, sq, sj, ww, rsq, bown, bwk, bi, bcur, bw, 
-                                 bsp, jq, jj, jwk, fj, dq, dj, oq, oop, omode, 
-                                 oj, yq, yop, yclaimed, tq, top, af, wf, wop, 
-                                 sf, sctx, xf, cop, kj, pp, pwk, np, nbp, nres, 
-                                 dp, pf, pctx, pq, pj, pd, nq >>
+                                 cdone, rv, rwb, rneed, stres, dsl, atomic, 
+                                 strong, ppPending, ppClosed, ppNotify, ppNC, 
+                                 ppBP, ppDepth, ppAlive, ppHeld, inItems, 
+                                 inClosed, inWaker, pollFn, chuteFn, pwTaken, 
+                                 nextPoll, ppItem, pjLive, ppStage, h, stack, 
+                                 sti, smax, rq, sq, sj, ww, rsq, bown, bwk, bi, 
+                                 bcur, bw, bsp, jq, jj, jwk, fj, dq, dj, oq, 
+                                 oop, omode, oj, yq, yop, yclaimed, tq, top, 
+                                 af, wf, wop, sf, sctx, xf, cop, kj, pp, pwk, 
+                                 np, nbp, nres, dp, pf, pctx, pq, pj, pd, nq >>
 
 st_join(self) == /\ pc[self] = "st_join"
                  /\ dead' = [dead EXCEPT ![self] = Tail(dead[self])]
@@ -1331,16 +1340,16 @@ st_join(self) == /\ pc[self] = "st_join"
                                  dblW2, nextDW, ready, cwait, cnotif, cvHeld, 
                                  sdres, jpanic, sfst, slotSt, qrSent, qrWaker, 
                                  dnState, dnWaker, parkTok, barGen, myBar, 
-                                 cdone, rv, rwb, rneed, dsl, atomic, strong, 
-                                 ppPending, ppClosed, ppNotify, ppNC, ppBP, 
-                                 ppDepth, ppAlive, ppHeld, inItems, inClosed, 
-                                 inWaker, pollFn, chuteFn, pwTaken, nextPoll, 
-                                 ppItem, pjLive, ppStage, h, stack, sti, smax, 
-                                 rq, sq, sj, ww, rsq, bown, bwk, bi, bcur, bw, 
-                                 bsp, jq, jj, jwk, fj, dq, dj, oq, oop, omode, 
-                                 oj, yq, yop, yclaimed, tq, top, af, wf, wop, 
-                                 sf, sctx, xf, cop, kj, pp, pwk, np, nbp, nres, 
-                                 dp, pf, pctx, pq, pj, pd, nq >>
+                                 cdone, rv, rwb, rneed, stres, dsl, atomic, 
+                                 strong, ppPending, ppClosed, ppNotify, ppNC, 
+                                 ppBP, ppDepth, ppAlive, ppHeld, inItems, 
+                                 inClosed, inWaker, pollFn, chuteFn, pwTaken, 
+                                 nextPoll, ppItem, pjLive, ppStage, h, stack, 
+                                 sti, smax, rq, sq, sj, ww, rsq, bown, bwk, bi, 
+                                 bcur, bw, bsp, jq, jj, jwk, fj, dq, dj, oq, 
+                                 oop, omode, oj, yq, yop, yclaimed, tq, top, 
+                                 af, wf, wop, sf, sctx, xf, cop, kj, pp, pwk, 
+                                 np, nbp, nres, dp, pf, pctx, pq, pj, pd, nq >>
 
 st_dormant(self) == /\ pc[self] = "st_dormant"
                     /\ (thrHeld = "" \/ thrHeld = self) /\ (thrHeld = self => ~busyLocked[pthreads[sti[self]]])
@@ -1349,6 +1358,7 @@ st_dormant(self) == /\ pc[self] = "st_dormant"
                             THEN /\ busy' = [busy EXCEPT ![r.p] = TRUE]
                                  /\ inbox' = [inbox EXCEPT ![r.p] = inbox[r.p] + 1]
                                  /\ thrHeld' = ""
+                                 /\ stres' = [stres EXCEPT ![self] = TRUE]
                                  /\ pc' = [pc EXCEPT ![self] = Head(stack[self]).pc]
                                  /\ dead' = [dead EXCEPT ![self] = Head(stack[self]).dead]
                                  /\ sti' = [sti EXCEPT ![self] = Head(stack[self]).sti]
@@ -1361,8 +1371,8 @@ st_dormant(self) == /\ pc[self] = "st_dormant"
                                        ELSE /\ thrHeld' = ""
                                             /\ sti' = [sti EXCEPT ![self] = 1]
                                             /\ pc' = [pc EXCEPT ![self] = "st_max"]
-                                 /\ UNCHANGED << busy, inbox, stack, dead, 
-                                                 smax >>
+                                 /\ UNCHANGED << busy, inbox, stres, stack, 
+                                                 dead, smax >>
                     /\ UNCHANGED << qstate, qpoll, jobs, wakeBlocked, schedule, 
                                     pthreads, nspawned, palive, busyLocked, 
                                     chanOpen, pfin, maxThreads, jkind, jaw, 
@@ -1394,16 +1404,16 @@ st_max(self) == /\ pc[self] = "st_max"
                                 dblW2, nextDW, ready, cwait, cnotif, cvHeld, 
                                 sdres, jpanic, sfst, slotSt, qrSent, qrWaker, 
                                 dnState, dnWaker, parkTok, barGen, myBar, 
-                                cdone, rv, rwb, rneed, dsl, atomic, strong, 
-                                ppPending, ppClosed, ppNotify, ppNC, ppBP, 
-                                ppDepth, ppAlive, ppHeld, inItems, inClosed, 
-                                inWaker, pollFn, chuteFn, pwTaken, nextPoll, 
-                                ppItem, pjLive, ppStage, h, stack, dead, sti, 
-                                rq, sq, sj, ww, rsq, bown, bwk, bi, bcur, bw, 
-                                bsp, jq, jj, jwk, fj, dq, dj, oq, oop, omode, 
-                                oj, yq, yop, yclaimed, tq, top, af, wf, wop, 
-                                sf, sctx, xf, cop, kj, pp, pwk, np, nbp, nres, 
-                                dp, pf, pctx, pq, pj, pd, nq >>
+                                cdone, rv, rwb, rneed, stres, dsl, atomic, 
+                                strong, ppPending, ppClosed, ppNotify, ppNC, 
+                                ppBP, ppDepth, ppAlive, ppHeld, inItems, 
+                                inClosed, inWaker, pollFn, chuteFn, pwTaken, 
+                                nextPoll, ppItem, pjLive, ppStage, h, stack, 
+                                dead, sti, rq, sq, sj, ww, rsq, bown, bwk, bi, 
+                                bcur, bw, bsp, jq, jj, jwk, fj, dq, dj, oq, 
+                                oop, omode, oj, yq, yop, yclaimed, tq, top, af, 
+                                wf, wop, sf, sctx, xf, cop, kj, pp, pwk, np, 
+                                nbp, nres, dp, pf, pctx, pq, pj, pd, nq >>
 
 st_spawn(self) == /\ pc[self] = "st_spawn"
                   /\ thrHeld = ""
@@ -1414,8 +1424,9 @@ st_spawn(self) == /\ pc[self] = "st_spawn"
                              /\ nspawned' = nspawned + 1
                              /\ h' = ObsSpawn(h, 1)
                              /\ pc' = [pc EXCEPT ![self] = "st_reap"]
-                             /\ UNCHANGED << stack, dead, sti, smax >>
-                        ELSE /\ pc' = [pc EXCEPT ![self] = Head(stack[self]).pc]
+                             /\ UNCHANGED << stres, stack, dead, sti, smax >>
+                        ELSE /\ stres' = [stres EXCEPT ![self] = FALSE]
+                             /\ pc' = [pc EXCEPT ![self] = Head(stack[self]).pc]
                              /\ dead' = [dead EXCEPT ![self] = Head(stack[self]).dead]
                              /\ sti' = [sti EXCEPT ![self] = Head(stack[self]).sti]
                              /\ smax' = [smax EXCEPT ![self] = Head(stack[self]).smax]
@@ -1473,7 +1484,7 @@ rq_core(self) == /\ pc[self] = "rq_core"
                                  dwSt, dwW, dblTaken, dblW1, dblW2, nextDW, 
                                  ready, cwait, cvHeld, sdres, jpanic, sfst, 
                                  slotSt, qrSent, qrWaker, dnState, dnWaker, 
-                                 parkTok, barGen, myBar, cdone, rv, dsl, 
+                                 parkTok, barGen, myBar, cdone, rv, stres, dsl, 
                                  atomic, strong, ppPending, ppClosed, ppNotify, 
                                  ppNC, ppBP, ppDepth, ppAlive, ppHeld, inItems, 
                                  inClosed, inWaker, pollFn, chuteFn, pwTaken, 
@@ -1504,7 +1515,7 @@ rq_notify(self) == /\ pc[self] = "rq_notify"
                                    dblTaken, dblW1, dblW2, nextDW, ready, 
                                    cwait, cvHeld, sdres, jpanic, sfst, slotSt, 
                                    qrSent, qrWaker, dnState, dnWaker, parkTok, 
-                                   barGen, myBar, cdone, rv, rneed, dsl, 
+                                   barGen, myBar, cdone, rv, rneed, stres, dsl, 
                                    atomic, strong, ppPending, ppClosed, 
                                    ppNotify, ppNC, ppBP, ppDepth, ppAlive, 
                                    ppHeld, inItems, inClosed, inWaker, pollFn, 
@@ -1536,16 +1547,16 @@ rq_sched(self) == /\ pc[self] = "rq_sched"
                                   nextDW, ready, cwait, cnotif, cvHeld, sdres, 
                                   jpanic, sfst, slotSt, qrSent, qrWaker, 
                                   dnState, dnWaker, parkTok, barGen, myBar, 
-                                  cdone, rv, rwb, rneed, dsl, atomic, strong, 
-                                  ppPending, ppClosed, ppNotify, ppNC, ppBP, 
-                                  ppDepth, ppAlive, ppHeld, inItems, inClosed, 
-                                  inWaker, pollFn, chuteFn, pwTaken, nextPoll, 
-                                  ppItem, pjLive, ppStage, h, rq, sq, sj, ww, 
-                                  rsq, bown, bwk, bi, bcur, bw, bsp, jq, jj, 
-                                  jwk, fj, dq, dj, oq, oop, omode, oj, yq, yop, 
-                                  yclaimed, tq, top, af, wf, wop, sf, sctx, xf, 
-                                  cop, kj, pp, pwk, np, nbp, nres, dp, pf, 
-                                  pctx, pq, pj, pd, nq >>
+                                  cdone, rv, rwb, rneed, stres, dsl, atomic, 
+                                  strong, ppPending, ppClosed, ppNotify, ppNC, 
+                                  ppBP, ppDepth, ppAlive, ppHeld, inItems, 
+                                  inClosed, inWaker, pollFn, chuteFn, pwTaken, 
+                                  nextPoll, ppItem, pjLive, ppStage, h, rq, sq, 
+                                  sj, ww, rsq, bown, bwk, bi, bcur, bw, bsp, 
+                                  jq, jj, jwk, fj, dq, dj, oq, oop, omode, oj, 
+                                  yq, yop, yclaimed, tq, top, af, wf, wop, sf, 
+                                  sctx, xf, cop, kj, pp, pwk, np, nbp, nres, 
+                                  dp, pf, pctx, pq, pj, pd, nq >>
 
 Reschedule(self) == rq_core(self) \/ rq_notify(self) \/ rq_sched(self)
 
@@ -1575,7 +1586,7 @@ sj_push(self) == /\ pc[self] = "sj_push"
                                  nextDW, ready, cwait, cnotif, cvHeld, sdres, 
                                  jpanic, sfst, slotSt, qrSent, qrWaker, 
                                  dnState, dnWaker, parkTok, barGen, myBar, 
-                                 cdone, rwb, rneed, dsl, atomic, strong, 
+                                 cdone, rwb, rneed, stres, dsl, atomic, strong, 
                                  ppPending, ppClosed, ppNotify, ppNC, ppBP, 
                                  ppDepth, ppAlive, ppHeld, inItems, inClosed, 
                                  inWaker, pollFn, chuteFn, pwTaken, nextPoll, 
@@ -1606,16 +1617,16 @@ sj_sched(self) == /\ pc[self] = "sj_sched"
                                   nextDW, ready, cwait, cnotif, cvHeld, sdres, 
                                   jpanic, sfst, slotSt, qrSent, qrWaker, 
                                   dnState, dnWaker, parkTok, barGen, myBar, 
-                                  cdone, rv, rwb, rneed, dsl, atomic, strong, 
-                                  ppPending, ppClosed, ppNotify, ppNC, ppBP, 
-                                  ppDepth, ppAlive, ppHeld, inItems, inClosed, 
-                                  inWaker, pollFn, chuteFn, pwTaken, nextPoll, 
-                                  ppItem, pjLive, ppStage, h, rq, sq, sj, ww, 
-                                  rsq, bown, bwk, bi, bcur, bw, bsp, jq, jj, 
-                                  jwk, fj, dq, dj, oq, oop, omode, oj, yq, yop, 
-                                  yclaimed, tq, top, af, wf, wop, sf, sctx, xf, 
-                                  cop, kj, pp, pwk, np, nbp, nres, dp, pf, 
-                                  pctx, pq, pj, pd, nq >>
+                                  cdone, rv, rwb, rneed, stres, dsl, atomic, 
+                                  strong, ppPending, ppClosed, ppNotify, ppNC, 
+                                  ppBP, ppDepth, ppAlive, ppHeld, inItems, 
+                                  inClosed, inWaker, pollFn, chuteFn, pwTaken, 
+                                  nextPoll, ppItem, pjLive, ppStage, h, rq, sq, 
+                                  sj, ww, rsq, bown, bwk, bi, bcur, bw, bsp, 
+                                  jq, jj, jwk, fj, dq, dj, oq, oop, omode, oj, 
+                                  yq, yop, yclaimed, tq, top, af, wf, wop, sf, 
+                                  sctx, xf, cop, kj, pp, pwk, np, nbp, nres, 
+                                  dp, pf, pctx, pq, pj, pd, nq >>
 
 z_sj_ret(self) == /\ pc[self] = "z_sj_ret"
                   /\ rv' = [rv EXCEPT ![self] = 0]
@@ -1631,16 +1642,16 @@ z_sj_ret(self) == /\ pc[self] = "z_sj_ret"
                                   dblW2, nextDW, ready, cwait, cnotif, cvHeld, 
                                   sdres, jpanic, sfst, slotSt, qrSent, qrWaker, 
                                   dnState, dnWaker, parkTok, barGen, myBar, 
-                                  cdone, rwb, rneed, dsl, atomic, strong, 
-                                  ppPending, ppClosed, ppNotify, ppNC, ppBP, 
-                                  ppDepth, ppAlive, ppHeld, inItems, inClosed, 
-                                  inWaker, pollFn, chuteFn, pwTaken, nextPoll, 
-                                  ppItem, pjLive, ppStage, h, dead, sti, smax, 
-                                  rq, ww, rsq, bown, bwk, bi, bcur, bw, bsp, 
-                                  jq, jj, jwk, fj, dq, dj, oq, oop, omode, oj, 
-                                  yq, yop, yclaimed, tq, top, af, wf, wop, sf, 
-                                  sctx, xf, cop, kj, pp, pwk, np, nbp, nres, 
-                                  dp, pf, pctx, pq, pj, pd, nq >>
+                                  cdone, rwb, rneed, stres, dsl, atomic, 
+                                  strong, ppPending, ppClosed, ppNotify, ppNC, 
+                                  ppBP, ppDepth, ppAlive, ppHeld, inItems, 
+                                  inClosed, inWaker, pollFn, chuteFn, pwTaken, 
+                                  nextPoll, ppItem, pjLive, ppStage, h, dead, 
+                                  sti, smax, rq, ww, rsq, bown, bwk, bi, bcur, 
+                                  bw, bsp, jq, jj, jwk, fj, dq, dj, oq, oop, 
+                                  omode, oj, yq, yop, yclaimed, tq, top, af, 
+                                  wf, wop, sf, sctx, xf, cop, kj, pp, pwk, np, 
+                                  nbp, nres, dp, pf, pctx, pq, pj, pd, nq >>
 
 ScheduleJob(self) == sj_push(self) \/ sj_sched(self) \/ z_sj_ret(self)
 
@@ -1773,15 +1784,16 @@ wk_lock(self) == /\ pc[self] = "wk_lock"
                                  gwhist, dblW1, dblW2, nextDW, ready, cwait, 
                                  cnotif, cvHeld, sdres, jpanic, sfst, slotSt, 
                                  qrSent, qrWaker, dnState, dnWaker, barGen, 
-                                 myBar, cdone, rv, rwb, rneed, dsl, atomic, 
-                                 ppPending, ppClosed, ppNotify, ppNC, ppBP, 
-                                 ppDepth, ppAlive, ppHeld, inItems, inClosed, 
-                                 inWaker, pollFn, chuteFn, ppItem, ppStage, h, 
-                                 dead, sti, smax, rsq, bown, bwk, bi, bcur, bw, 
-                                 bsp, jq, jj, jwk, fj, dq, dj, oq, oop, omode, 
-                                 oj, yq, yop, yclaimed, tq, top, af, wf, wop, 
-                                 sf, sctx, xf, cop, kj, pp, pwk, np, nbp, nres, 
-                                 dp, pf, pctx, pq, pj, pd, nq >>
+                                 myBar, cdone, rv, rwb, rneed, stres, dsl, 
+                                 atomic, ppPending, ppClosed, ppNotify, ppNC, 
+                                 ppBP, ppDepth, ppAlive, ppHeld, inItems, 
+                                 inClosed, inWaker, pollFn, chuteFn, ppItem, 
+                                 ppStage, h, dead, sti, smax, rsq, bown, bwk, 
+                                 bi, bcur, bw, bsp, jq, jj, jwk, fj, dq, dj, 
+                                 oq, oop, omode, oj, yq, yop, yclaimed, tq, 
+                                 top, af, wf, wop, sf, sctx, xf, cop, kj, pp, 
+                                 pwk, np, nbp, nres, dp, pf, pctx, pq, pj, pd, 
+                                 nq >>
 
 z_wk_second(self) == /\ pc[self] = "z_wk_second"
                      /\ IF IsLocking(dblW2[ww[self].d])
@@ -1801,17 +1813,17 @@ z_wk_second(self) == /\ pc[self] = "z_wk_second"
                                      ready, cwait, cnotif, cvHeld, sdres, 
                                      jpanic, sfst, slotSt, qrSent, qrWaker, 
                                      dnState, dnWaker, barGen, myBar, cdone, 
-                                     rv, rwb, rneed, dsl, atomic, strong, 
-                                     ppPending, ppClosed, ppNotify, ppNC, ppBP, 
-                                     ppDepth, ppAlive, ppHeld, inItems, 
-                                     inClosed, inWaker, pollFn, chuteFn, 
-                                     pwTaken, nextPoll, ppItem, pjLive, 
-                                     ppStage, h, dead, sti, smax, rq, sq, sj, 
-                                     rsq, bown, bwk, bi, bcur, bw, bsp, jq, jj, 
-                                     jwk, fj, dq, dj, oq, oop, omode, oj, yq, 
-                                     yop, yclaimed, tq, top, af, wf, wop, sf, 
-                                     sctx, xf, cop, kj, pp, pwk, np, nbp, nres, 
-                                     dp, pf, pctx, pq, pj, pd, nq >>
+                                     rv, rwb, rneed, stres, dsl, atomic, 
+                                     strong, ppPending, ppClosed, ppNotify, 
+                                     ppNC, ppBP, ppDepth, ppAlive, ppHeld, 
+                                     inItems, inClosed, inWaker, pollFn, 
+                                     chuteFn, pwTaken, nextPoll, ppItem, 
+                                     pjLive, ppStage, h, dead, sti, smax, rq, 
+                                     sq, sj, rsq, bown, bwk, bi, bcur, bw, bsp, 
+                                     jq, jj, jwk, fj, dq, dj, oq, oop, omode, 
+                                     oj, yq, yop, yclaimed, tq, top, af, wf, 
+                                     wop, sf, sctx, xf, cop, kj, pp, pwk, np, 
+                                     nbp, nres, dp, pf, pctx, pq, pj, pd, nq >>
 
 z_pw_after(self) == /\ pc[self] = "z_pw_after"
                     /\ strong' = [strong EXCEPT ![O(ww[self].d)] = strong[O(ww[self].d)] - 1]
@@ -1840,16 +1852,16 @@ z_pw_after(self) == /\ pc[self] = "z_pw_after"
                                     cwait, cnotif, cvHeld, sdres, jpanic, sfst, 
                                     slotSt, qrSent, qrWaker, dnState, dnWaker, 
                                     parkTok, barGen, myBar, cdone, rv, rwb, 
-                                    rneed, dsl, atomic, ppPending, ppClosed, 
-                                    ppNotify, ppNC, ppBP, ppDepth, ppAlive, 
-                                    ppHeld, inItems, inClosed, inWaker, pollFn, 
-                                    chuteFn, pwTaken, nextPoll, ppItem, pjLive, 
-                                    ppStage, h, dead, sti, smax, rq, sq, sj, 
-                                    rsq, bown, bwk, bi, bcur, bw, bsp, jq, jj, 
-                                    jwk, fj, dq, dj, oq, oop, omode, oj, tq, 
-                                    top, af, wf, wop, sf, sctx, xf, cop, kj, 
-                                    pp, pwk, np, nbp, nres, dp, pf, pctx, pq, 
-                                    pj, pd, nq >>
+                                    rneed, stres, dsl, atomic, ppPending, 
+                                    ppClosed, ppNotify, ppNC, ppBP, ppDepth, 
+                                    ppAlive, ppHeld, inItems, inClosed, 
+                                    inWaker, pollFn, chuteFn, pwTaken, 
+                                    nextPoll, ppItem, pjLive, ppStage, h, dead, 
+                                    sti, smax, rq, sq, sj, rsq, bown, bwk, bi, 
+                                    bcur, bw, bsp, jq, jj, jwk, fj, dq, dj, oq, 
+                                    oop, omode, oj, tq, top, af, wf, wop, sf, 
+                                    sctx, xf, cop, kj, pp, pwk, np, nbp, nres, 
+                                    dp, pf, pctx, pq, pj, pd, nq >>
 
 pw_take(self) == /\ pc[self] = "pw_take"
                  /\ chuteFn' = [chuteFn EXCEPT ![OpTab[ww[self].d].p] = pollFn[OpTab[ww[self].d].p]]
@@ -1871,16 +1883,16 @@ pw_take(self) == /\ pc[self] = "pw_take"
                                  nextDW, ready, cwait, cnotif, cvHeld, sdres, 
                                  jpanic, sfst, slotSt, qrSent, qrWaker, 
                                  dnState, dnWaker, parkTok, barGen, myBar, 
-                                 cdone, rv, rwb, rneed, dsl, atomic, strong, 
-                                 ppPending, ppClosed, ppNotify, ppNC, ppBP, 
-                                 ppDepth, ppAlive, ppHeld, inItems, inClosed, 
-                                 inWaker, pwTaken, nextPoll, ppItem, pjLive, 
-                                 ppStage, h, dead, sti, smax, rq, ww, rsq, 
-                                 bown, bwk, bi, bcur, bw, bsp, jq, jj, jwk, fj, 
-                                 dq, dj, oq, oop, omode, oj, yq, yop, yclaimed, 
-                                 tq, top, af, wf, wop, sf, sctx, xf, cop, kj, 
-                                 pp, pwk, np, nbp, nres, dp, pf, pctx, pq, pj, 
-                                 pd, nq >>
+                                 cdone, rv, rwb, rneed, stres, dsl, atomic, 
+                                 strong, ppPending, ppClosed, ppNotify, ppNC, 
+                                 ppBP, ppDepth, ppAlive, ppHeld, inItems, 
+                                 inClosed, inWaker, pwTaken, nextPoll, ppItem, 
+                                 pjLive, ppStage, h, dead, sti, smax, rq, ww, 
+                                 rsq, bown, bwk, bi, bcur, bw, bsp, jq, jj, 
+                                 jwk, fj, dq, dj, oq, oop, omode, oj, yq, yop, 
+                                 yclaimed, tq, top, af, wf, wop, sf, sctx, xf, 
+                                 cop, kj, pp, pwk, np, nbp, nres, dp, pf, pctx, 
+                                 pq, pj, pd, nq >>
 
 z_wk_ret(self) == /\ pc[self] = "z_wk_ret"
                   /\ pc' = [pc EXCEPT ![self] = Head(stack[self]).pc]
@@ -1894,16 +1906,16 @@ z_wk_ret(self) == /\ pc[self] = "z_wk_ret"
                                   dblW2, nextDW, ready, cwait, cnotif, cvHeld, 
                                   sdres, jpanic, sfst, slotSt, qrSent, qrWaker, 
                                   dnState, dnWaker, parkTok, barGen, myBar, 
-                                  cdone, rv, rwb, rneed, dsl, atomic, strong, 
-                                  ppPending, ppClosed, ppNotify, ppNC, ppBP, 
-                                  ppDepth, ppAlive, ppHeld, inItems, inClosed, 
-                                  inWaker, pollFn, chuteFn, pwTaken, nextPoll, 
-                                  ppItem, pjLive, ppStage, h, dead, sti, smax, 
-                                  rq, sq, sj, rsq, bown, bwk, bi, bcur, bw, 
-                                  bsp, jq, jj, jwk, fj, dq, dj, oq, oop, omode, 
-                                  oj, yq, yop, yclaimed, tq, top, af, wf, wop, 
-                                  sf, sctx, xf, cop, kj, pp, pwk, np, nbp, 
-                                  nres, dp, pf, pctx, pq, pj, pd, nq >>
+                                  cdone, rv, rwb, rneed, stres, dsl, atomic, 
+                                  strong, ppPending, ppClosed, ppNotify, ppNC, 
+                                  ppBP, ppDepth, ppAlive, ppHeld, inItems, 
+                                  inClosed, inWaker, pollFn, chuteFn, pwTaken, 
+                                  nextPoll, ppItem, pjLive, ppStage, h, dead, 
+                                  sti, smax, rq, sq, sj, rsq, bown, bwk, bi, 
+                                  bcur, bw, bsp, jq, jj, jwk, fj, dq, dj, oq, 
+                                  oop, omode, oj, yq, yop, yclaimed, tq, top, 
+                                  af, wf, wop, sf, sctx, xf, cop, kj, pp, pwk, 
+                                  np, nbp, nres, dp, pf, pctx, pq, pj, pd, nq >>
 
 Wake(self) == wk_lock(self) \/ z_wk_second(self) \/ z_pw_after(self)
                  \/ pw_take(self) \/ z_wk_ret(self)
@@ -1934,16 +1946,16 @@ rb_step(self) == /\ pc[self] = "rb_step"
                                  dblW2, nextDW, ready, cwait, cnotif, cvHeld, 
                                  sdres, jpanic, sfst, slotSt, qrSent, qrWaker, 
                                  dnState, dnWaker, parkTok, barGen, myBar, 
-                                 cdone, rv, rwb, rneed, dsl, atomic, strong, 
-                                 ppPending, ppClosed, ppNotify, ppNC, ppBP, 
-                                 ppDepth, ppAlive, ppHeld, inItems, inClosed, 
-                                 inWaker, pollFn, chuteFn, pwTaken, nextPoll, 
-                                 ppItem, pjLive, ppStage, stack, dead, sti, 
-                                 smax, rq, sq, sj, ww, rsq, bown, bwk, bw, bsp, 
-                                 jq, jj, jwk, fj, dq, dj, oq, oop, omode, oj, 
-                                 yq, yop, yclaimed, tq, top, af, wf, wop, sf, 
-                                 sctx, xf, cop, kj, pp, pwk, np, nbp, nres, dp, 
-                                 pf, pctx, pq, pj, pd, nq >>
+                                 cdone, rv, rwb, rneed, stres, dsl, atomic, 
+                                 strong, ppPending, ppClosed, ppNotify, ppNC, 
+                                 ppBP, ppDepth, ppAlive, ppHeld, inItems, 
+                                 inClosed, inWaker, pollFn, chuteFn, pwTaken, 
+                                 nextPoll, ppItem, pjLive, ppStage, stack, 
+                                 dead, sti, smax, rq, sq, sj, ww, rsq, bown, 
+                                 bwk, bw, bsp, jq, jj, jwk, fj, dq, dj, oq, 
+                                 oop, omode, oj, yq, yop, yclaimed, tq, top, 
+                                 af, wf, wop, sf, sctx, xf, cop, kj, pp, pwk, 
+                                 np, nbp, nres, dp, pf, pctx, pq, pj, pd, nq >>
 
 z_finish(self) == /\ pc[self] = "z_finish"
                   /\ IF bown[self] = 0
@@ -2035,7 +2047,7 @@ z_finish(self) == /\ pc[self] = "z_finish"
                                   dblTaken, dblW1, dblW2, nextDW, ready, cwait, 
                                   cnotif, cvHeld, sfst, slotSt, qrSent, 
                                   qrWaker, dnState, dnWaker, parkTok, barGen, 
-                                  myBar, cdone, rwb, rneed, dsl, atomic, 
+                                  myBar, cdone, rwb, rneed, stres, dsl, atomic, 
                                   strong, ppPending, ppClosed, ppNotify, ppNC, 
                                   ppBP, ppDepth, ppAlive, ppHeld, inItems, 
                                   inClosed, inWaker, pollFn, chuteFn, pwTaken, 
@@ -2080,15 +2092,16 @@ z_pollaw(self) == /\ pc[self] = "z_pollaw"
                                   dblW2, nextDW, ready, cwait, cnotif, cvHeld, 
                                   sdres, jpanic, sfst, slotSt, qrSent, qrWaker, 
                                   dnState, dnWaker, parkTok, barGen, myBar, 
-                                  cdone, rv, rwb, rneed, dsl, atomic, strong, 
-                                  ppPending, ppClosed, ppNotify, ppNC, ppBP, 
-                                  ppDepth, ppAlive, ppHeld, inItems, inClosed, 
-                                  inWaker, pollFn, chuteFn, pwTaken, nextPoll, 
-                                  ppItem, pjLive, ppStage, h, dead, sti, smax, 
-                                  rq, sq, sj, ww, rsq, bown, bwk, bi, bcur, bw, 
-                                  bsp, jq, jj, jwk, fj, dq, dj, oq, oop, omode, 
-                                  oj, yq, yop, yclaimed, tq, top, af, wf, wop, 
-                                  xf, cop, kj, pp, pwk, np, nbp, nres, dp, nq >>
+                                  cdone, rv, rwb, rneed, stres, dsl, atomic, 
+                                  strong, ppPending, ppClosed, ppNotify, ppNC, 
+                                  ppBP, ppDepth, ppAlive, ppHeld, inItems, 
+                                  inClosed, inWaker, pollFn, chuteFn, pwTaken, 
+                                  nextPoll, ppItem, pjLive, ppStage, h, dead, 
+                                  sti, smax, rq, sq, sj, ww, rsq, bown, bwk, 
+                                  bi, bcur, bw, bsp, jq, jj, jwk, fj, dq, dj, 
+                                  oq, oop, omode, oj, yq, yop, yclaimed, tq, 
+                                  top, af, wf, wop, xf, cop, kj, pp, pwk, np, 
+                                  nbp, nres, dp, nq >>
 
 z_pollaw_after(self) == /\ pc[self] = "z_pollaw_after"
                         /\ IF rv[self] = 5
@@ -2119,17 +2132,17 @@ z_pollaw_after(self) == /\ pc[self] = "z_pollaw_after"
                                         cvHeld, sdres, jpanic, sfst, slotSt, 
                                         qrSent, qrWaker, dnState, dnWaker, 
                                         parkTok, barGen, myBar, cdone, rv, rwb, 
-                                        rneed, dsl, atomic, strong, ppPending, 
-                                        ppClosed, ppNotify, ppNC, ppBP, 
-                                        ppDepth, ppAlive, ppHeld, inItems, 
-                                        inClosed, inWaker, pollFn, chuteFn, 
-                                        pwTaken, nextPoll, ppItem, pjLive, 
-                                        ppStage, dead, sti, smax, rq, sq, sj, 
-                                        ww, jq, jj, jwk, fj, dq, dj, oq, oop, 
-                                        omode, oj, yq, yop, yclaimed, tq, top, 
-                                        af, wf, wop, sf, sctx, xf, cop, kj, pp, 
-                                        pwk, np, nbp, nres, dp, pf, pctx, pq, 
-                                        pj, pd, nq >>
+                                        rneed, stres, dsl, atomic, strong, 
+                                        ppPending, ppClosed, ppNotify, ppNC, 
+                                        ppBP, ppDepth, ppAlive, ppHeld, 
+                                        inItems, inClosed, inWaker, pollFn, 
+                                        chuteFn, pwTaken, nextPoll, ppItem, 
+                                        pjLive, ppStage, dead, sti, smax, rq, 
+                                        sq, sj, ww, jq, jj, jwk, fj, dq, dj, 
+                                        oq, oop, omode, oj, yq, yop, yclaimed, 
+                                        tq, top, af, wf, wop, sf, sctx, xf, 
+                                        cop, kj, pp, pwk, np, nbp, nres, dp, 
+                                        pf, pctx, pq, pj, pd, nq >>
 
 z_drop_ret(self) == /\ pc[self] = "z_drop_ret"
                     /\ IF rv[self] = 2 /\ OpTab[bcur[self]].then = "unwinding"
@@ -2146,16 +2159,17 @@ z_drop_ret(self) == /\ pc[self] = "z_drop_ret"
                                     cwait, cnotif, cvHeld, sdres, jpanic, sfst, 
                                     slotSt, qrSent, qrWaker, dnState, dnWaker, 
                                     parkTok, barGen, myBar, cdone, rwb, rneed, 
-                                    dsl, atomic, strong, ppPending, ppClosed, 
-                                    ppNotify, ppNC, ppBP, ppDepth, ppAlive, 
-                                    ppHeld, inItems, inClosed, inWaker, pollFn, 
-                                    chuteFn, pwTaken, nextPoll, ppItem, pjLive, 
-                                    ppStage, h, stack, dead, sti, smax, rq, sq, 
-                                    sj, ww, rsq, bown, bwk, bi, bcur, bw, bsp, 
-                                    jq, jj, jwk, fj, dq, dj, oq, oop, omode, 
-                                    oj, yq, yop, yclaimed, tq, top, af, wf, 
-                                    wop, sf, sctx, xf, cop, kj, pp, pwk, np, 
-                                    nbp, nres, dp, pf, pctx, pq, pj, pd, nq >>
+                                    stres, dsl, atomic, strong, ppPending, 
+                                    ppClosed, ppNotify, ppNC, ppBP, ppDepth, 
+                                    ppAlive, ppHeld, inItems, inClosed, 
+                                    inWaker, pollFn, chuteFn, pwTaken, 
+                                    nextPoll, ppItem, pjLive, ppStage, h, 
+                                    stack, dead, sti, smax, rq, sq, sj, ww, 
+                                    rsq, bown, bwk, bi, bcur, bw, bsp, jq, jj, 
+                                    jwk, fj, dq, dj, oq, oop, omode, oj, yq, 
+                                    yop, yclaimed, tq, top, af, wf, wop, sf, 
+                                    sctx, xf, cop, kj, pp, pwk, np, nbp, nres, 
+                                    dp, pf, pctx, pq, pj, pd, nq >>
 
 rb_bar(self) == /\ pc[self] = "rb_bar"
                 /\ myBar[self] < barGen \/ BarrierReady(self)
@@ -2173,7 +2187,7 @@ rb_bar(self) == /\ pc[self] = "rb_bar"
                                 dblW2, nextDW, ready, cwait, cnotif, cvHeld, 
                                 sdres, jpanic, sfst, slotSt, qrSent, qrWaker, 
                                 dnState, dnWaker, parkTok, myBar, cdone, rwb, 
-                                rneed, dsl, atomic, strong, ppPending, 
+                                rneed, stres, dsl, atomic, strong, ppPending, 
                                 ppClosed, ppNotify, ppNC, ppBP, ppDepth, 
                                 ppAlive, ppHeld, inItems, inClosed, inWaker, 
                                 pollFn, chuteFn, pwTaken, nextPoll, ppItem, 
@@ -2196,16 +2210,16 @@ rb_block(self) == /\ pc[self] = "rb_block"
                                   dblW2, nextDW, ready, cwait, cnotif, cvHeld, 
                                   sdres, jpanic, sfst, slotSt, qrSent, qrWaker, 
                                   dnState, dnWaker, barGen, myBar, cdone, rv, 
-                                  rwb, rneed, dsl, atomic, strong, ppPending, 
-                                  ppClosed, ppNotify, ppNC, ppBP, ppDepth, 
-                                  ppAlive, ppHeld, inItems, inClosed, inWaker, 
-                                  pollFn, chuteFn, pwTaken, nextPoll, ppItem, 
-                                  pjLive, ppStage, h, stack, dead, sti, smax, 
-                                  rq, sq, sj, ww, rsq, bown, bwk, bi, bcur, bw, 
-                                  bsp, jq, jj, jwk, fj, dq, dj, oq, oop, omode, 
-                                  oj, yq, yop, yclaimed, tq, top, af, wf, wop, 
-                                  sf, sctx, xf, cop, kj, pp, pwk, np, nbp, 
-                                  nres, dp, pf, pctx, pq, pj, pd, nq >>
+                                  rwb, rneed, stres, dsl, atomic, strong, 
+                                  ppPending, ppClosed, ppNotify, ppNC, ppBP, 
+                                  ppDepth, ppAlive, ppHeld, inItems, inClosed, 
+                                  inWaker, pollFn, chuteFn, pwTaken, nextPoll, 
+                                  ppItem, pjLive, ppStage, h, stack, dead, sti, 
+                                  smax, rq, sq, sj, ww, rsq, bown, bwk, bi, 
+                                  bcur, bw, bsp, jq, jj, jwk, fj, dq, dj, oq, 
+                                  oop, omode, oj, yq, yop, yclaimed, tq, top, 
+                                  af, wf, wop, sf, sctx, xf, cop, kj, pp, pwk, 
+                                  np, nbp, nres, dp, pf, pctx, pq, pj, pd, nq >>
 
 z_dispatch(self) == /\ pc[self] = "z_dispatch"
                     /\ IF K(bcur[self]) = "desync"
@@ -2687,6 +2701,7 @@ z_dispatch(self) == /\ pc[self] = "z_dispatch"
                                                                                                                                                                                                     /\ pc' = [pc EXCEPT ![self] = "z_aw_poll"]
                                                                                                                                                                                                     /\ UNCHANGED << gthreads, 
                                                                                                                                                                                                                     rv, 
+                                                                                                                                                                                                                    h, 
                                                                                                                                                                                                                     bsp, 
                                                                                                                                                                                                                     wf, 
                                                                                                                                                                                                                     wop, 
@@ -2730,6 +2745,7 @@ z_dispatch(self) == /\ pc[self] = "z_dispatch"
                                                                                                                                                                                                                                           sctx >>
                                                                                                                                                                                                                /\ UNCHANGED << gthreads, 
                                                                                                                                                                                                                                rv, 
+                                                                                                                                                                                                                               h, 
                                                                                                                                                                                                                                bsp, 
                                                                                                                                                                                                                                wf, 
                                                                                                                                                                                                                                wop >>
@@ -2744,12 +2760,14 @@ z_dispatch(self) == /\ pc[self] = "z_dispatch"
                                                                                                                                                                                                                           /\ pc' = [pc EXCEPT ![self] = "fs_take"]
                                                                                                                                                                                                                           /\ UNCHANGED << gthreads, 
                                                                                                                                                                                                                                           rv, 
+                                                                                                                                                                                                                                          h, 
                                                                                                                                                                                                                                           bsp >>
                                                                                                                                                                                                                      ELSE /\ IF K(bcur[self]) = "spur"
                                                                                                                                                                                                                                 THEN /\ bsp' = [bsp EXCEPT ![self] = gwhist[OpTab[bcur[self]].g]]
                                                                                                                                                                                                                                      /\ rv' = [rv EXCEPT ![self] = 0]
                                                                                                                                                                                                                                      /\ pc' = [pc EXCEPT ![self] = "z_spur"]
                                                                                                                                                                                                                                      /\ UNCHANGED << gthreads, 
+                                                                                                                                                                                                                                                     h, 
                                                                                                                                                                                                                                                      stack >>
                                                                                                                                                                                                                                 ELSE /\ IF K(bcur[self]) = "block_on"
                                                                                                                                                                                                                                            THEN /\ rv' = [rv EXCEPT ![self] = 0]
@@ -2758,9 +2776,14 @@ z_dispatch(self) == /\ pc[self] = "z_dispatch"
                                                                                                                                                                                                                                                            /\ UNCHANGED gthreads
                                                                                                                                                                                                                                                       ELSE /\ gthreads' = [gthreads EXCEPT ![OpTab[bcur[self]].g] = gthreads[OpTab[bcur[self]].g] \cup {self}]
                                                                                                                                                                                                                                                            /\ pc' = [pc EXCEPT ![self] = "rb_wait"]
-                                                                                                                                                                                                                                                /\ stack' = stack
+                                                                                                                                                                                                                                                /\ UNCHANGED << h, 
+                                                                                                                                                                                                                                                                stack >>
                                                                                                                                                                                                                                            ELSE /\ IF K(bcur[self]) = "set_max"
-                                                                                                                                                                                                                                                      THEN /\ pc' = [pc EXCEPT ![self] = "mx_set"]
+                                                                                                                                                                                                                                                      THEN /\ IF OpTab[bcur[self]].then = "real"
+                                                                                                                                                                                                                                                                 THEN /\ h' = ObsSetMax(h, OpTab[bcur[self]].n)
+                                                                                                                                                                                                                                                                 ELSE /\ TRUE
+                                                                                                                                                                                                                                                                      /\ h' = h
+                                                                                                                                                                                                                                                           /\ pc' = [pc EXCEPT ![self] = "mx_set"]
                                                                                                                                                                                                                                                            /\ UNCHANGED << rv, 
                                                                                                                                                                                                                                                                            stack >>
                                                                                                                                                                                                                                                       ELSE /\ IF K(bcur[self]) = "despawn"
@@ -2772,6 +2795,7 @@ z_dispatch(self) == /\ pc[self] = "z_dispatch"
                                                                                                                                                                                                                                                                  ELSE /\ rv' = [rv EXCEPT ![self] = 0]
                                                                                                                                                                                                                                                                       /\ pc' = [pc EXCEPT ![self] = "rb_step"]
                                                                                                                                                                                                                                                                       /\ stack' = stack
+                                                                                                                                                                                                                                                           /\ h' = h
                                                                                                                                                                                                                                                 /\ UNCHANGED gthreads
                                                                                                                                                                                                                                      /\ bsp' = bsp
                                                                                                                                                                                                                           /\ UNCHANGED << wf, 
@@ -2787,7 +2811,6 @@ z_dispatch(self) == /\ pc[self] = "z_dispatch"
                                                                                                                                                                                          /\ UNCHANGED << gfired, 
                                                                                                                                                                                                          gwaker, 
                                                                                                                                                                                                          parkTok, 
-                                                                                                                                                                                                         h, 
                                                                                                                                                                                                          ww, 
                                                                                                                                                                                                          bw >>
                                                                                                                                                                               /\ myBar' = myBar
@@ -2816,13 +2839,13 @@ z_dispatch(self) == /\ pc[self] = "z_dispatch"
                                     ready, cwait, cnotif, cvHeld, sdres, 
                                     jpanic, sfst, slotSt, qrSent, qrWaker, 
                                     dnState, dnWaker, barGen, cdone, rwb, 
-                                    rneed, dsl, atomic, ppPending, ppClosed, 
-                                    ppNotify, ppNC, ppBP, ppDepth, ppAlive, 
-                                    ppHeld, pollFn, chuteFn, pwTaken, nextPoll, 
-                                    ppItem, pjLive, ppStage, dead, sti, smax, 
-                                    rq, rsq, bown, bwk, bi, bcur, jq, jj, jwk, 
-                                    fj, dq, dj, oq, oop, omode, oj, kj, pp, 
-                                    pwk, nq >>
+                                    rneed, stres, dsl, atomic, ppPending, 
+                                    ppClosed, ppNotify, ppNC, ppBP, ppDepth, 
+                                    ppAlive, ppHeld, pollFn, chuteFn, pwTaken, 
+                                    nextPoll, ppItem, pjLive, ppStage, dead, 
+                                    sti, smax, rq, rsq, bown, bwk, bi, bcur, 
+                                    jq, jj, jwk, fj, dq, dj, oq, oop, omode, 
+                                    oj, kj, pp, pwk, nq >>
 
 z_then(self) == /\ pc[self] = "z_then"
                 /\ IF rv[self] = 0 /\ OpTab[bcur[self]].then = "await"
@@ -2851,16 +2874,16 @@ z_then(self) == /\ pc[self] = "z_then"
                                 dblW2, nextDW, ready, cwait, cnotif, cvHeld, 
                                 sdres, jpanic, sfst, slotSt, qrSent, qrWaker, 
                                 dnState, dnWaker, parkTok, barGen, myBar, 
-                                cdone, rv, rwb, rneed, dsl, atomic, strong, 
-                                ppPending, ppClosed, ppNotify, ppNC, ppBP, 
-                                ppDepth, ppAlive, ppHeld, inItems, inClosed, 
-                                inWaker, pollFn, chuteFn, pwTaken, nextPoll, 
-                                ppItem, pjLive, ppStage, h, dead, sti, smax, 
-                                rq, sq, sj, ww, rsq, bown, bwk, bi, bcur, bw, 
-                                bsp, jq, jj, jwk, fj, dq, dj, oq, oop, omode, 
-                                oj, yq, yop, yclaimed, tq, top, wf, wop, sf, 
-                                sctx, cop, kj, pp, pwk, np, nbp, nres, dp, pf, 
-                                pctx, pq, pj, pd, nq >>
+                                cdone, rv, rwb, rneed, stres, dsl, atomic, 
+                                strong, ppPending, ppClosed, ppNotify, ppNC, 
+                                ppBP, ppDepth, ppAlive, ppHeld, inItems, 
+                                inClosed, inWaker, pollFn, chuteFn, pwTaken, 
+                                nextPoll, ppItem, pjLive, ppStage, h, dead, 
+                                sti, smax, rq, sq, sj, ww, rsq, bown, bwk, bi, 
+                                bcur, bw, bsp, jq, jj, jwk, fj, dq, dj, oq, 
+                                oop, omode, oj, yq, yop, yclaimed, tq, top, wf, 
+                                wop, sf, sctx, cop, kj, pp, pwk, np, nbp, nres, 
+                                dp, pf, pctx, pq, pj, pd, nq >>
 
 z_polled(self) == /\ pc[self] = "z_polled"
                   /\ IF rv[self] \in {0, 3, 4}
@@ -2876,16 +2899,17 @@ z_polled(self) == /\ pc[self] = "z_polled"
                                   dblW2, nextDW, ready, cwait, cnotif, cvHeld, 
                                   sdres, jpanic, sfst, slotSt, qrSent, qrWaker, 
                                   dnState, dnWaker, parkTok, barGen, myBar, 
-                                  cdone, rv, rwb, rneed, dsl, atomic, strong, 
-                                  ppPending, ppClosed, ppNotify, ppNC, ppBP, 
-                                  ppDepth, ppAlive, ppHeld, inItems, inClosed, 
-                                  inWaker, pollFn, chuteFn, pwTaken, nextPoll, 
-                                  ppItem, pjLive, ppStage, stack, dead, sti, 
-                                  smax, rq, sq, sj, ww, rsq, bown, bwk, bi, 
-                                  bcur, bw, bsp, jq, jj, jwk, fj, dq, dj, oq, 
-                                  oop, omode, oj, yq, yop, yclaimed, tq, top, 
-                                  af, wf, wop, sf, sctx, xf, cop, kj, pp, pwk, 
-                                  np, nbp, nres, dp, pf, pctx, pq, pj, pd, nq >>
+                                  cdone, rv, rwb, rneed, stres, dsl, atomic, 
+                                  strong, ppPending, ppClosed, ppNotify, ppNC, 
+                                  ppBP, ppDepth, ppAlive, ppHeld, inItems, 
+                                  inClosed, inWaker, pollFn, chuteFn, pwTaken, 
+                                  nextPoll, ppItem, pjLive, ppStage, stack, 
+                                  dead, sti, smax, rq, sq, sj, ww, rsq, bown, 
+                                  bwk, bi, bcur, bw, bsp, jq, jj, jwk, fj, dq, 
+                                  dj, oq, oop, omode, oj, yq, yop, yclaimed, 
+                                  tq, top, af, wf, wop, sf, sctx, xf, cop, kj, 
+                                  pp, pwk, np, nbp, nres, dp, pf, pctx, pq, pj, 
+                                  pd, nq >>
 
 pp_setdepth(self) == /\ pc[self] = "pp_setdepth"
                      /\ ppDepth' = [ppDepth EXCEPT ![OpTab[bcur[self]].p] = OpTab[bcur[self]].n]
@@ -2900,17 +2924,18 @@ pp_setdepth(self) == /\ pc[self] = "pp_setdepth"
                                      ready, cwait, cnotif, cvHeld, sdres, 
                                      jpanic, sfst, slotSt, qrSent, qrWaker, 
                                      dnState, dnWaker, parkTok, barGen, myBar, 
-                                     cdone, rwb, rneed, dsl, atomic, strong, 
-                                     ppPending, ppClosed, ppNotify, ppNC, ppBP, 
-                                     ppAlive, ppHeld, inItems, inClosed, 
-                                     inWaker, pollFn, chuteFn, pwTaken, 
-                                     nextPoll, ppItem, pjLive, ppStage, h, 
-                                     stack, dead, sti, smax, rq, sq, sj, ww, 
-                                     rsq, bown, bwk, bi, bcur, bw, bsp, jq, jj, 
-                                     jwk, fj, dq, dj, oq, oop, omode, oj, yq, 
-                                     yop, yclaimed, tq, top, af, wf, wop, sf, 
-                                     sctx, xf, cop, kj, pp, pwk, np, nbp, nres, 
-                                     dp, pf, pctx, pq, pj, pd, nq >>
+                                     cdone, rwb, rneed, stres, dsl, atomic, 
+                                     strong, ppPending, ppClosed, ppNotify, 
+                                     ppNC, ppBP, ppAlive, ppHeld, inItems, 
+                                     inClosed, inWaker, pollFn, chuteFn, 
+                                     pwTaken, nextPoll, ppItem, pjLive, 
+                                     ppStage, h, stack, dead, sti, smax, rq, 
+                                     sq, sj, ww, rsq, bown, bwk, bi, bcur, bw, 
+                                     bsp, jq, jj, jwk, fj, dq, dj, oq, oop, 
+                                     omode, oj, yq, yop, yclaimed, tq, top, af, 
+                                     wf, wop, sf, sctx, xf, cop, kj, pp, pwk, 
+                                     np, nbp, nres, dp, pf, pctx, pq, pj, pd, 
+                                     nq >>
 
 z_spur(self) == /\ pc[self] = "z_spur"
                 /\ IF bsp[self] = << >>
@@ -2937,16 +2962,16 @@ z_spur(self) == /\ pc[self] = "z_spur"
                                 dblW2, nextDW, ready, cwait, cnotif, cvHeld, 
                                 sdres, jpanic, sfst, slotSt, qrSent, qrWaker, 
                                 dnState, dnWaker, barGen, myBar, cdone, rv, 
-                                rwb, rneed, dsl, atomic, strong, ppPending, 
-                                ppClosed, ppNotify, ppNC, ppBP, ppDepth, 
-                                ppAlive, ppHeld, inItems, inClosed, inWaker, 
-                                pollFn, chuteFn, pwTaken, nextPoll, ppItem, 
-                                pjLive, ppStage, h, dead, sti, smax, rq, sq, 
-                                sj, rsq, bown, bwk, bi, bcur, jq, jj, jwk, fj, 
-                                dq, dj, oq, oop, omode, oj, yq, yop, yclaimed, 
-                                tq, top, af, wf, wop, sf, sctx, xf, cop, kj, 
-                                pp, pwk, np, nbp, nres, dp, pf, pctx, pq, pj, 
-                                pd, nq >>
+                                rwb, rneed, stres, dsl, atomic, strong, 
+                                ppPending, ppClosed, ppNotify, ppNC, ppBP, 
+                                ppDepth, ppAlive, ppHeld, inItems, inClosed, 
+                                inWaker, pollFn, chuteFn, pwTaken, nextPoll, 
+                                ppItem, pjLive, ppStage, h, dead, sti, smax, 
+                                rq, sq, sj, rsq, bown, bwk, bi, bcur, jq, jj, 
+                                jwk, fj, dq, dj, oq, oop, omode, oj, yq, yop, 
+                                yclaimed, tq, top, af, wf, wop, sf, sctx, xf, 
+                                cop, kj, pp, pwk, np, nbp, nres, dp, pf, pctx, 
+                                pq, pj, pd, nq >>
 
 rb_wait(self) == /\ pc[self] = "rb_wait"
                  /\ parkTok[self]
@@ -2964,22 +2989,25 @@ rb_wait(self) == /\ pc[self] = "rb_wait"
                                  nextDW, ready, cwait, cnotif, cvHeld, sdres, 
                                  jpanic, sfst, slotSt, qrSent, qrWaker, 
                                  dnState, dnWaker, barGen, myBar, cdone, rv, 
-                                 rwb, rneed, dsl, atomic, strong, ppPending, 
-                                 ppClosed, ppNotify, ppNC, ppBP, ppDepth, 
-                                 ppAlive, ppHeld, inItems, inClosed, inWaker, 
-                                 pollFn, chuteFn, pwTaken, nextPoll, ppItem, 
-                                 pjLive, ppStage, h, stack, dead, sti, smax, 
-                                 rq, sq, sj, ww, rsq, bown, bwk, bi, bcur, bw, 
-                                 bsp, jq, jj, jwk, fj, dq, dj, oq, oop, omode, 
-                                 oj, yq, yop, yclaimed, tq, top, af, wf, wop, 
-                                 sf, sctx, xf, cop, kj, pp, pwk, np, nbp, nres, 
-                                 dp, pf, pctx, pq, pj, pd, nq >>
+                                 rwb, rneed, stres, dsl, atomic, strong, 
+                                 ppPending, ppClosed, ppNotify, ppNC, ppBP, 
+                                 ppDepth, ppAlive, ppHeld, inItems, inClosed, 
+                                 inWaker, pollFn, chuteFn, pwTaken, nextPoll, 
+                                 ppItem, pjLive, ppStage, h, stack, dead, sti, 
+                                 smax, rq, sq, sj, ww, rsq, bown, bwk, bi, 
+                                 bcur, bw, bsp, jq, jj, jwk, fj, dq, dj, oq, 
+                                 oop, omode, oj, yq, yop, yclaimed, tq, top, 
+                                 af, wf, wop, sf, sctx, xf, cop, kj, pp, pwk, 
+                                 np, nbp, nres, dp, pf, pctx, pq, pj, pd, nq >>
 
 mx_set(self) == /\ pc[self] = "mx_set"
                 /\ maxThreads' = OpTab[bcur[self]].n
-                /\ h' = ObsSetMax(h, OpTab[bcur[self]].n)
-                /\ rv' = [rv EXCEPT ![self] = 0]
-                /\ pc' = [pc EXCEPT ![self] = "rb_step"]
+                /\ IF OpTab[bcur[self]].then # "real"
+                      THEN /\ h' = ObsSetMax(h, OpTab[bcur[self]].n)
+                           /\ rv' = [rv EXCEPT ![self] = 0]
+                           /\ pc' = [pc EXCEPT ![self] = "rb_step"]
+                      ELSE /\ pc' = [pc EXCEPT ![self] = "z_mx_loop"]
+                           /\ UNCHANGED << rv, h >>
                 /\ UNCHANGED << qstate, qpoll, jobs, wakeBlocked, schedule, 
                                 pthreads, nspawned, palive, busy, busyLocked, 
                                 inbox, chanOpen, pfin, thrHeld, jkind, jaw, 
@@ -2988,7 +3016,7 @@ mx_set(self) == /\ pc[self] = "mx_set"
                                 ready, cwait, cnotif, cvHeld, sdres, jpanic, 
                                 sfst, slotSt, qrSent, qrWaker, dnState, 
                                 dnWaker, parkTok, barGen, myBar, cdone, rwb, 
-                                rneed, dsl, atomic, strong, ppPending, 
+                                rneed, stres, dsl, atomic, strong, ppPending, 
                                 ppClosed, ppNotify, ppNC, ppBP, ppDepth, 
                                 ppAlive, ppHeld, inItems, inClosed, inWaker, 
                                 pollFn, chuteFn, pwTaken, nextPoll, ppItem, 
@@ -2999,11 +3027,69 @@ mx_set(self) == /\ pc[self] = "mx_set"
                                 sctx, xf, cop, kj, pp, pwk, np, nbp, nres, dp, 
                                 pf, pctx, pq, pj, pd, nq >>
 
+z_mx_loop(self) == /\ pc[self] = "z_mx_loop"
+                   /\ stack' = [stack EXCEPT ![self] = << [ procedure |->  "ScheduleThread",
+                                                            pc        |->  "z_mx_chk",
+                                                            dead      |->  dead[self],
+                                                            sti       |->  sti[self],
+                                                            smax      |->  smax[self] ] >>
+                                                        \o stack[self]]
+                   /\ dead' = [dead EXCEPT ![self] = << >>]
+                   /\ sti' = [sti EXCEPT ![self] = 1]
+                   /\ smax' = [smax EXCEPT ![self] = 0]
+                   /\ pc' = [pc EXCEPT ![self] = "st_reap"]
+                   /\ UNCHANGED << qstate, qpoll, jobs, wakeBlocked, schedule, 
+                                   pthreads, nspawned, palive, busy, 
+                                   busyLocked, inbox, chanOpen, pfin, thrHeld, 
+                                   maxThreads, jkind, jaw, fres, fwaker, 
+                                   gfired, gwaker, gthreads, gwhist, dwSt, dwW, 
+                                   dblTaken, dblW1, dblW2, nextDW, ready, 
+                                   cwait, cnotif, cvHeld, sdres, jpanic, sfst, 
+                                   slotSt, qrSent, qrWaker, dnState, dnWaker, 
+                                   parkTok, barGen, myBar, cdone, rv, rwb, 
+                                   rneed, stres, dsl, atomic, strong, 
+                                   ppPending, ppClosed, ppNotify, ppNC, ppBP, 
+                                   ppDepth, ppAlive, ppHeld, inItems, inClosed, 
+                                   inWaker, pollFn, chuteFn, pwTaken, nextPoll, 
+                                   ppItem, pjLive, ppStage, h, rq, sq, sj, ww, 
+                                   rsq, bown, bwk, bi, bcur, bw, bsp, jq, jj, 
+                                   jwk, fj, dq, dj, oq, oop, omode, oj, yq, 
+                                   yop, yclaimed, tq, top, af, wf, wop, sf, 
+                                   sctx, xf, cop, kj, pp, pwk, np, nbp, nres, 
+                                   dp, pf, pctx, pq, pj, pd, nq >>
+
+z_mx_chk(self) == /\ pc[self] = "z_mx_chk"
+                  /\ IF stres[self]
+                        THEN /\ pc' = [pc EXCEPT ![self] = "z_mx_loop"]
+                             /\ rv' = rv
+                        ELSE /\ rv' = [rv EXCEPT ![self] = 0]
+                             /\ pc' = [pc EXCEPT ![self] = "rb_step"]
+                  /\ UNCHANGED << qstate, qpoll, jobs, wakeBlocked, schedule, 
+                                  pthreads, nspawned, palive, busy, busyLocked, 
+                                  inbox, chanOpen, pfin, thrHeld, maxThreads, 
+                                  jkind, jaw, fres, fwaker, gfired, gwaker, 
+                                  gthreads, gwhist, dwSt, dwW, dblTaken, dblW1, 
+                                  dblW2, nextDW, ready, cwait, cnotif, cvHeld, 
+                                  sdres, jpanic, sfst, slotSt, qrSent, qrWaker, 
+                                  dnState, dnWaker, parkTok, barGen, myBar, 
+                                  cdone, rwb, rneed, stres, dsl, atomic, 
+                                  strong, ppPending, ppClosed, ppNotify, ppNC, 
+                                  ppBP, ppDepth, ppAlive, ppHeld, inItems, 
+                                  inClosed, inWaker, pollFn, chuteFn, pwTaken, 
+                                  nextPoll, ppItem, pjLive, ppStage, h, stack, 
+                                  dead, sti, smax, rq, sq, sj, ww, rsq, bown, 
+                                  bwk, bi, bcur, bw, bsp, jq, jj, jwk, fj, dq, 
+                                  dj, oq, oop, omode, oj, yq, yop, yclaimed, 
+                                  tq, top, af, wf, wop, sf, sctx, xf, cop, kj, 
+                                  pp, pwk, np, nbp, nres, dp, pf, pctx, pq, pj, 
+                                  pd, nq >>
+
 RunOps(self) == rb_step(self) \/ z_finish(self) \/ z_pollaw(self)
                    \/ z_pollaw_after(self) \/ z_drop_ret(self)
                    \/ rb_bar(self) \/ rb_block(self) \/ z_dispatch(self)
                    \/ z_then(self) \/ z_polled(self) \/ pp_setdepth(self)
                    \/ z_spur(self) \/ rb_wait(self) \/ mx_set(self)
+                   \/ z_mx_loop(self) \/ z_mx_chk(self)
 
 z_rj(self) == /\ pc[self] = "z_rj"
               /\ IF K(jj[self]) \in {"desync", "sync", "try_sync"}
@@ -3373,7 +3459,7 @@ z_rj(self) == /\ pc[self] = "z_rj"
                               dwW, dblTaken, dblW1, dblW2, nextDW, ready, 
                               cwait, cnotif, cvHeld, jpanic, sfst, qrWaker, 
                               dnState, dnWaker, barGen, myBar, cdone, rwb, 
-                              rneed, dsl, atomic, ppPending, ppClosed, 
+                              rneed, stres, dsl, atomic, ppPending, ppClosed, 
                               ppNotify, ppNC, ppBP, ppDepth, ppAlive, ppHeld, 
                               inItems, inClosed, inWaker, pollFn, pwTaken, 
                               nextPoll, ppItem, pjLive, ppStage, dead, sti, 
@@ -3395,16 +3481,16 @@ z_rj_ret(self) == /\ pc[self] = "z_rj_ret"
                                   dblW2, nextDW, ready, cwait, cnotif, cvHeld, 
                                   sdres, jpanic, sfst, slotSt, qrSent, qrWaker, 
                                   dnState, dnWaker, parkTok, barGen, myBar, 
-                                  cdone, rv, rwb, rneed, dsl, atomic, strong, 
-                                  ppPending, ppClosed, ppNotify, ppNC, ppBP, 
-                                  ppDepth, ppAlive, ppHeld, inItems, inClosed, 
-                                  inWaker, pollFn, chuteFn, pwTaken, nextPoll, 
-                                  ppItem, pjLive, ppStage, h, dead, sti, smax, 
-                                  rq, sq, sj, ww, rsq, bown, bwk, bi, bcur, bw, 
-                                  bsp, fj, dq, dj, oq, oop, omode, oj, yq, yop, 
-                                  yclaimed, tq, top, af, wf, wop, sf, sctx, xf, 
-                                  cop, kj, pp, pwk, np, nbp, nres, dp, pf, 
-                                  pctx, pq, pj, pd, nq >>
+                                  cdone, rv, rwb, rneed, stres, dsl, atomic, 
+                                  strong, ppPending, ppClosed, ppNotify, ppNC, 
+                                  ppBP, ppDepth, ppAlive, ppHeld, inItems, 
+                                  inClosed, inWaker, pollFn, chuteFn, pwTaken, 
+                                  nextPoll, ppItem, pjLive, ppStage, h, dead, 
+                                  sti, smax, rq, sq, sj, ww, rsq, bown, bwk, 
+                                  bi, bcur, bw, bsp, fj, dq, dj, oq, oop, 
+                                  omode, oj, yq, yop, yclaimed, tq, top, af, 
+                                  wf, wop, sf, sctx, xf, cop, kj, pp, pwk, np, 
+                                  nbp, nres, dp, pf, pctx, pq, pj, pd, nq >>
 
 z_rj_ok(self) == /\ pc[self] = "z_rj_ok"
                  /\ rv' = [rv EXCEPT ![self] = 0]
@@ -3421,7 +3507,7 @@ z_rj_ok(self) == /\ pc[self] = "z_rj_ok"
                                  dblW2, nextDW, ready, cwait, cnotif, cvHeld, 
                                  sdres, jpanic, sfst, slotSt, qrSent, qrWaker, 
                                  dnState, dnWaker, parkTok, barGen, myBar, 
-                                 cdone, rwb, rneed, dsl, atomic, strong, 
+                                 cdone, rwb, rneed, stres, dsl, atomic, strong, 
                                  ppPending, ppClosed, ppNotify, ppNC, ppBP, 
                                  ppDepth, ppAlive, ppHeld, inItems, inClosed, 
                                  inWaker, pollFn, chuteFn, pwTaken, nextPoll, 
@@ -3457,15 +3543,16 @@ z_pp_gc(self) == /\ pc[self] = "z_pp_gc"
                                  dblW2, nextDW, ready, cwait, cnotif, cvHeld, 
                                  sdres, jpanic, sfst, slotSt, qrSent, qrWaker, 
                                  dnState, dnWaker, parkTok, barGen, myBar, 
-                                 cdone, rv, rwb, rneed, dsl, atomic, strong, 
-                                 ppPending, ppClosed, ppNotify, ppNC, ppBP, 
-                                 ppDepth, ppAlive, ppHeld, inItems, inClosed, 
-                                 inWaker, chuteFn, pwTaken, nextPoll, ppItem, 
-                                 ppStage, dead, sti, smax, rq, sq, sj, ww, rsq, 
-                                 bown, bwk, bi, bcur, bw, bsp, fj, dq, dj, oq, 
-                                 oop, omode, oj, yq, yop, yclaimed, tq, top, 
-                                 af, wf, wop, sf, sctx, xf, cop, kj, pp, pwk, 
-                                 np, nbp, nres, dp, pf, pctx, pq, pj, pd, nq >>
+                                 cdone, rv, rwb, rneed, stres, dsl, atomic, 
+                                 strong, ppPending, ppClosed, ppNotify, ppNC, 
+                                 ppBP, ppDepth, ppAlive, ppHeld, inItems, 
+                                 inClosed, inWaker, chuteFn, pwTaken, nextPoll, 
+                                 ppItem, ppStage, dead, sti, smax, rq, sq, sj, 
+                                 ww, rsq, bown, bwk, bi, bcur, bw, bsp, fj, dq, 
+                                 dj, oq, oop, omode, oj, yq, yop, yclaimed, tq, 
+                                 top, af, wf, wop, sf, sctx, xf, cop, kj, pp, 
+                                 pwk, np, nbp, nres, dp, pf, pctx, pq, pj, pd, 
+                                 nq >>
 
 z_slot2(self) == /\ pc[self] = "z_slot2"
                  /\ IF dnState[jj[self]] # "open"
@@ -3491,7 +3578,7 @@ z_slot2(self) == /\ pc[self] = "z_slot2"
                                  dblW2, nextDW, ready, cwait, cnotif, cvHeld, 
                                  sdres, jpanic, sfst, slotSt, qrSent, qrWaker, 
                                  dnState, parkTok, barGen, myBar, cdone, rwb, 
-                                 rneed, dsl, atomic, strong, ppPending, 
+                                 rneed, stres, dsl, atomic, strong, ppPending, 
                                  ppClosed, ppNotify, ppNC, ppBP, ppDepth, 
                                  ppAlive, ppHeld, inItems, inClosed, inWaker, 
                                  pollFn, chuteFn, pwTaken, nextPoll, ppItem, 
@@ -3525,10 +3612,10 @@ sus_signal(self) == /\ pc[self] = "sus_signal"
                                     dblW1, dblW2, nextDW, ready, cwait, cnotif, 
                                     cvHeld, sdres, jpanic, sfst, slotSt, 
                                     qrSent, qrWaker, dnState, dnWaker, barGen, 
-                                    myBar, cdone, rv, rwb, rneed, dsl, atomic, 
-                                    strong, ppPending, ppClosed, ppNotify, 
-                                    ppNC, ppBP, ppDepth, ppAlive, ppHeld, 
-                                    inItems, inClosed, inWaker, pollFn, 
+                                    myBar, cdone, rv, rwb, rneed, stres, dsl, 
+                                    atomic, strong, ppPending, ppClosed, 
+                                    ppNotify, ppNC, ppBP, ppDepth, ppAlive, 
+                                    ppHeld, inItems, inClosed, inWaker, pollFn, 
                                     chuteFn, pwTaken, nextPoll, ppItem, pjLive, 
                                     ppStage, h, dead, sti, smax, rq, sq, sj, 
                                     rsq, bown, bwk, bi, bcur, bw, bsp, jq, jj, 
@@ -3558,7 +3645,7 @@ sus_sigdrop(self) == /\ pc[self] = "sus_sigdrop"
                                      cwait, cnotif, cvHeld, sdres, jpanic, 
                                      sfst, slotSt, qrSent, qrWaker, dnState, 
                                      dnWaker, parkTok, barGen, myBar, cdone, 
-                                     rwb, rneed, dsl, atomic, strong, 
+                                     rwb, rneed, stres, dsl, atomic, strong, 
                                      ppPending, ppClosed, ppNotify, ppNC, ppBP, 
                                      ppDepth, ppAlive, ppHeld, inItems, 
                                      inClosed, inWaker, pollFn, chuteFn, 
@@ -3582,16 +3669,17 @@ sus_inner(self) == /\ pc[self] = "sus_inner"
                                    cwait, cnotif, cvHeld, sdres, jpanic, sfst, 
                                    slotSt, qrSent, qrWaker, dnState, dnWaker, 
                                    parkTok, barGen, myBar, cdone, rv, rwb, 
-                                   rneed, dsl, atomic, strong, ppPending, 
-                                   ppClosed, ppNotify, ppNC, ppBP, ppDepth, 
-                                   ppAlive, ppHeld, inItems, inClosed, inWaker, 
-                                   pollFn, chuteFn, pwTaken, nextPoll, ppItem, 
-                                   pjLive, ppStage, h, stack, dead, sti, smax, 
-                                   rq, sq, sj, ww, rsq, bown, bwk, bi, bcur, 
-                                   bw, bsp, jq, jj, jwk, fj, dq, dj, oq, oop, 
-                                   omode, oj, yq, yop, yclaimed, tq, top, af, 
-                                   wf, wop, sf, sctx, xf, cop, kj, pp, pwk, np, 
-                                   nbp, nres, dp, pf, pctx, pq, pj, pd, nq >>
+                                   rneed, stres, dsl, atomic, strong, 
+                                   ppPending, ppClosed, ppNotify, ppNC, ppBP, 
+                                   ppDepth, ppAlive, ppHeld, inItems, inClosed, 
+                                   inWaker, pollFn, chuteFn, pwTaken, nextPoll, 
+                                   ppItem, pjLive, ppStage, h, stack, dead, 
+                                   sti, smax, rq, sq, sj, ww, rsq, bown, bwk, 
+                                   bi, bcur, bw, bsp, jq, jj, jwk, fj, dq, dj, 
+                                   oq, oop, omode, oj, yq, yop, yclaimed, tq, 
+                                   top, af, wf, wop, sf, sctx, xf, cop, kj, pp, 
+                                   pwk, np, nbp, nres, dp, pf, pctx, pq, pj, 
+                                   pd, nq >>
 
 sus_innerdrop(self) == /\ pc[self] = "sus_innerdrop"
                        /\ rv' = [rv EXCEPT ![self] = 0]
@@ -3610,14 +3698,14 @@ sus_innerdrop(self) == /\ pc[self] = "sus_innerdrop"
                                        cvHeld, sdres, jpanic, sfst, slotSt, 
                                        qrSent, qrWaker, dnState, dnWaker, 
                                        parkTok, barGen, myBar, cdone, rwb, 
-                                       rneed, dsl, atomic, strong, ppPending, 
-                                       ppClosed, ppNotify, ppNC, ppBP, ppDepth, 
-                                       ppAlive, ppHeld, inItems, inClosed, 
-                                       inWaker, pollFn, chuteFn, pwTaken, 
-                                       nextPoll, ppItem, pjLive, ppStage, h, 
-                                       dead, sti, smax, rq, sq, sj, ww, rsq, 
-                                       bown, bwk, bi, bcur, bw, bsp, fj, dq, 
-                                       dj, oq, oop, omode, oj, yq, yop, 
+                                       rneed, stres, dsl, atomic, strong, 
+                                       ppPending, ppClosed, ppNotify, ppNC, 
+                                       ppBP, ppDepth, ppAlive, ppHeld, inItems, 
+                                       inClosed, inWaker, pollFn, chuteFn, 
+                                       pwTaken, nextPoll, ppItem, pjLive, 
+                                       ppStage, h, dead, sti, smax, rq, sq, sj, 
+                                       ww, rsq, bown, bwk, bi, bcur, bw, bsp, 
+                                       fj, dq, dj, oq, oop, omode, oj, yq, yop, 
                                        yclaimed, tq, top, af, wf, wop, sf, 
                                        sctx, xf, cop, kj, pp, pwk, np, nbp, 
                                        nres, dp, pf, pctx, pq, pj, pd, nq >>
@@ -3648,7 +3736,7 @@ ws_take(self) == /\ pc[self] = "ws_take"
                                  nextDW, ready, cwait, cnotif, cvHeld, jpanic, 
                                  sfst, slotSt, qrSent, qrWaker, dnState, 
                                  dnWaker, parkTok, barGen, myBar, cdone, rwb, 
-                                 rneed, dsl, atomic, strong, ppPending, 
+                                 rneed, stres, dsl, atomic, strong, ppPending, 
                                  ppClosed, ppNotify, ppNC, ppBP, ppDepth, 
                                  ppAlive, ppHeld, inItems, inClosed, inWaker, 
                                  pollFn, chuteFn, pwTaken, nextPoll, ppItem, 
@@ -3694,9 +3782,9 @@ fj_lock(self) == /\ pc[self] = "fj_lock"
                                  dwSt, dwW, dblTaken, dblW1, dblW2, nextDW, 
                                  cwait, cvHeld, sdres, jpanic, sfst, slotSt, 
                                  qrSent, qrWaker, dnState, dnWaker, barGen, 
-                                 myBar, cdone, rv, rwb, rneed, dsl, atomic, 
-                                 strong, ppPending, ppClosed, ppNotify, ppNC, 
-                                 ppBP, ppDepth, ppAlive, ppHeld, inItems, 
+                                 myBar, cdone, rv, rwb, rneed, stres, dsl, 
+                                 atomic, strong, ppPending, ppClosed, ppNotify, 
+                                 ppNC, ppBP, ppDepth, ppAlive, ppHeld, inItems, 
                                  inClosed, inWaker, pollFn, chuteFn, pwTaken, 
                                  nextPoll, ppItem, pjLive, ppStage, h, dead, 
                                  sti, smax, rq, sq, sj, rsq, bown, bwk, bi, 
@@ -3720,16 +3808,16 @@ z_fj_chk(self) == /\ pc[self] = "z_fj_chk"
                                   dblW2, nextDW, ready, cwait, cnotif, cvHeld, 
                                   sdres, jpanic, sfst, slotSt, qrSent, qrWaker, 
                                   dnState, dnWaker, parkTok, barGen, myBar, 
-                                  cdone, rv, rwb, rneed, dsl, atomic, strong, 
-                                  ppPending, ppClosed, ppNotify, ppNC, ppBP, 
-                                  ppDepth, ppAlive, ppHeld, inItems, inClosed, 
-                                  inWaker, pollFn, chuteFn, pwTaken, nextPoll, 
-                                  ppItem, pjLive, ppStage, h, dead, sti, smax, 
-                                  rq, sq, sj, ww, rsq, bown, bwk, bi, bcur, bw, 
-                                  bsp, jq, jj, jwk, dq, dj, oq, oop, omode, oj, 
-                                  yq, yop, yclaimed, tq, top, af, wf, wop, sf, 
-                                  sctx, xf, cop, kj, pp, pwk, np, nbp, nres, 
-                                  dp, pf, pctx, pq, pj, pd, nq >>
+                                  cdone, rv, rwb, rneed, stres, dsl, atomic, 
+                                  strong, ppPending, ppClosed, ppNotify, ppNC, 
+                                  ppBP, ppDepth, ppAlive, ppHeld, inItems, 
+                                  inClosed, inWaker, pollFn, chuteFn, pwTaken, 
+                                  nextPoll, ppItem, pjLive, ppStage, h, dead, 
+                                  sti, smax, rq, sq, sj, ww, rsq, bown, bwk, 
+                                  bi, bcur, bw, bsp, jq, jj, jwk, dq, dj, oq, 
+                                  oop, omode, oj, yq, yop, yclaimed, tq, top, 
+                                  af, wf, wop, sf, sctx, xf, cop, kj, pp, pwk, 
+                                  np, nbp, nres, dp, pf, pctx, pq, pj, pd, nq >>
 
 fj_sigdrop(self) == /\ pc[self] = "fj_sigdrop"
                     /\ pc' = [pc EXCEPT ![self] = Head(stack[self]).pc]
@@ -3744,17 +3832,17 @@ fj_sigdrop(self) == /\ pc[self] = "fj_sigdrop"
                                     cwait, cnotif, cvHeld, sdres, jpanic, sfst, 
                                     slotSt, qrSent, qrWaker, dnState, dnWaker, 
                                     parkTok, barGen, myBar, cdone, rv, rwb, 
-                                    rneed, dsl, atomic, strong, ppPending, 
-                                    ppClosed, ppNotify, ppNC, ppBP, ppDepth, 
-                                    ppAlive, ppHeld, inItems, inClosed, 
-                                    inWaker, pollFn, chuteFn, pwTaken, 
-                                    nextPoll, ppItem, pjLive, ppStage, h, dead, 
-                                    sti, smax, rq, sq, sj, ww, rsq, bown, bwk, 
-                                    bi, bcur, bw, bsp, jq, jj, jwk, dq, dj, oq, 
-                                    oop, omode, oj, yq, yop, yclaimed, tq, top, 
-                                    af, wf, wop, sf, sctx, xf, cop, kj, pp, 
-                                    pwk, np, nbp, nres, dp, pf, pctx, pq, pj, 
-                                    pd, nq >>
+                                    rneed, stres, dsl, atomic, strong, 
+                                    ppPending, ppClosed, ppNotify, ppNC, ppBP, 
+                                    ppDepth, ppAlive, ppHeld, inItems, 
+                                    inClosed, inWaker, pollFn, chuteFn, 
+                                    pwTaken, nextPoll, ppItem, pjLive, ppStage, 
+                                    h, dead, sti, smax, rq, sq, sj, ww, rsq, 
+                                    bown, bwk, bi, bcur, bw, bsp, jq, jj, jwk, 
+                                    dq, dj, oq, oop, omode, oj, yq, yop, 
+                                    yclaimed, tq, top, af, wf, wop, sf, sctx, 
+                                    xf, cop, kj, pp, pwk, np, nbp, nres, dp, 
+                                    pf, pctx, pq, pj, pd, nq >>
 
 FinishJob(self) == fj_lock(self) \/ z_fj_chk(self) \/ fj_sigdrop(self)
 
@@ -3782,16 +3870,16 @@ pd_deq(self) == /\ pc[self] = "pd_deq"
                                 nextDW, ready, cwait, cnotif, cvHeld, sdres, 
                                 jpanic, sfst, slotSt, qrSent, qrWaker, dnState, 
                                 dnWaker, parkTok, barGen, myBar, cdone, rv, 
-                                rwb, rneed, dsl, atomic, strong, ppPending, 
-                                ppClosed, ppNotify, ppNC, ppBP, ppDepth, 
-                                ppAlive, ppHeld, inItems, inClosed, inWaker, 
-                                pollFn, chuteFn, pwTaken, nextPoll, ppItem, 
-                                pjLive, ppStage, h, dead, sti, smax, rq, sq, 
-                                sj, ww, rsq, bown, bwk, bi, bcur, bw, bsp, fj, 
-                                dq, oq, oop, omode, oj, yq, yop, yclaimed, tq, 
-                                top, af, wf, wop, sf, sctx, xf, cop, kj, pp, 
-                                pwk, np, nbp, nres, dp, pf, pctx, pq, pj, pd, 
-                                nq >>
+                                rwb, rneed, stres, dsl, atomic, strong, 
+                                ppPending, ppClosed, ppNotify, ppNC, ppBP, 
+                                ppDepth, ppAlive, ppHeld, inItems, inClosed, 
+                                inWaker, pollFn, chuteFn, pwTaken, nextPoll, 
+                                ppItem, pjLive, ppStage, h, dead, sti, smax, 
+                                rq, sq, sj, ww, rsq, bown, bwk, bi, bcur, bw, 
+                                bsp, fj, dq, oq, oop, omode, oj, yq, yop, 
+                                yclaimed, tq, top, af, wf, wop, sf, sctx, xf, 
+                                cop, kj, pp, pwk, np, nbp, nres, dp, pf, pctx, 
+                                pq, pj, pd, nq >>
 
 z_pd_after(self) == /\ pc[self] = "z_pd_after"
                     /\ IF rv[self] = 5
@@ -3825,17 +3913,17 @@ z_pd_after(self) == /\ pc[self] = "z_pd_after"
                                     cwait, cnotif, cvHeld, sdres, jpanic, sfst, 
                                     slotSt, qrSent, qrWaker, dnState, dnWaker, 
                                     parkTok, barGen, myBar, cdone, rv, rwb, 
-                                    rneed, dsl, atomic, strong, ppPending, 
-                                    ppClosed, ppNotify, ppNC, ppBP, ppDepth, 
-                                    ppAlive, ppHeld, inItems, inClosed, 
-                                    inWaker, pollFn, chuteFn, pwTaken, 
-                                    nextPoll, ppItem, pjLive, ppStage, h, dead, 
-                                    sti, smax, rq, sq, sj, ww, rsq, bown, bwk, 
-                                    bi, bcur, bw, bsp, jq, jj, jwk, dq, dj, oq, 
-                                    oop, omode, oj, yq, yop, yclaimed, tq, top, 
-                                    af, wf, wop, sf, sctx, xf, cop, kj, pp, 
-                                    pwk, np, nbp, nres, dp, pf, pctx, pq, pj, 
-                                    pd, nq >>
+                                    rneed, stres, dsl, atomic, strong, 
+                                    ppPending, ppClosed, ppNotify, ppNC, ppBP, 
+                                    ppDepth, ppAlive, ppHeld, inItems, 
+                                    inClosed, inWaker, pollFn, chuteFn, 
+                                    pwTaken, nextPoll, ppItem, pjLive, ppStage, 
+                                    h, dead, sti, smax, rq, sq, sj, ww, rsq, 
+                                    bown, bwk, bi, bcur, bw, bsp, jq, jj, jwk, 
+                                    dq, dj, oq, oop, omode, oj, yq, yop, 
+                                    yclaimed, tq, top, af, wf, wop, sf, sctx, 
+                                    xf, cop, kj, pp, pwk, np, nbp, nres, dp, 
+                                    pf, pctx, pq, pj, pd, nq >>
 
 pd_requeue(self) == /\ pc[self] = "pd_requeue"
                     /\ jobs' = [jobs EXCEPT ![dq[self]] = << dj[self] >> \o jobs[dq[self]]]
@@ -3849,12 +3937,12 @@ pd_requeue(self) == /\ pc[self] = "pd_requeue"
                                     cwait, cnotif, cvHeld, sdres, jpanic, sfst, 
                                     slotSt, qrSent, qrWaker, dnState, dnWaker, 
                                     parkTok, barGen, myBar, cdone, rv, rwb, 
-                                    rneed, dsl, atomic, strong, ppPending, 
-                                    ppClosed, ppNotify, ppNC, ppBP, ppDepth, 
-                                    ppAlive, ppHeld, inItems, inClosed, 
-                                    inWaker, pollFn, chuteFn, pwTaken, 
-                                    nextPoll, ppItem, pjLive, ppStage, h, 
-                                    stack, dead, sti, smax, rq, sq, sj, ww, 
+                                    rneed, stres, dsl, atomic, strong, 
+                                    ppPending, ppClosed, ppNotify, ppNC, ppBP, 
+                                    ppDepth, ppAlive, ppHeld, inItems, 
+                                    inClosed, inWaker, pollFn, chuteFn, 
+                                    pwTaken, nextPoll, ppItem, pjLive, ppStage, 
+                                    h, stack, dead, sti, smax, rq, sq, sj, ww, 
                                     rsq, bown, bwk, bi, bcur, bw, bsp, jq, jj, 
                                     jwk, fj, dq, dj, oq, oop, omode, oj, yq, 
                                     yop, yclaimed, tq, top, af, wf, wop, sf, 
@@ -3883,7 +3971,7 @@ pd_park(self) == /\ pc[self] = "pd_park"
                                  nextDW, ready, cwait, cnotif, cvHeld, sdres, 
                                  jpanic, sfst, slotSt, qrSent, qrWaker, 
                                  dnState, dnWaker, parkTok, barGen, myBar, 
-                                 cdone, rwb, rneed, dsl, atomic, strong, 
+                                 cdone, rwb, rneed, stres, dsl, atomic, strong, 
                                  ppPending, ppClosed, ppNotify, ppNC, ppBP, 
                                  ppDepth, ppAlive, ppHeld, inItems, inClosed, 
                                  inWaker, pollFn, chuteFn, pwTaken, nextPoll, 
@@ -3922,7 +4010,7 @@ pd_end(self) == /\ pc[self] = "pd_end"
                                 nextDW, ready, cwait, cnotif, cvHeld, sdres, 
                                 jpanic, sfst, slotSt, qrSent, qrWaker, dnState, 
                                 dnWaker, parkTok, barGen, myBar, cdone, rwb, 
-                                rneed, dsl, atomic, strong, ppPending, 
+                                rneed, stres, dsl, atomic, strong, ppPending, 
                                 ppClosed, ppNotify, ppNC, ppBP, ppDepth, 
                                 ppAlive, ppHeld, inItems, inClosed, inWaker, 
                                 pollFn, chuteFn, pwTaken, nextPoll, ppItem, 
@@ -3948,16 +4036,16 @@ pd_panic(self) == /\ pc[self] = "pd_panic"
                                   nextDW, ready, cwait, cnotif, cvHeld, sdres, 
                                   jpanic, sfst, slotSt, qrSent, qrWaker, 
                                   dnState, dnWaker, parkTok, barGen, myBar, 
-                                  cdone, rwb, rneed, dsl, atomic, strong, 
-                                  ppPending, ppClosed, ppNotify, ppNC, ppBP, 
-                                  ppDepth, ppAlive, ppHeld, inItems, inClosed, 
-                                  inWaker, pollFn, chuteFn, pwTaken, nextPoll, 
-                                  ppItem, pjLive, ppStage, h, dead, sti, smax, 
-                                  rq, sq, sj, ww, rsq, bown, bwk, bi, bcur, bw, 
-                                  bsp, jq, jj, jwk, fj, oq, oop, omode, oj, yq, 
-                                  yop, yclaimed, tq, top, af, wf, wop, sf, 
-                                  sctx, xf, cop, kj, pp, pwk, np, nbp, nres, 
-                                  dp, pf, pctx, pq, pj, pd, nq >>
+                                  cdone, rwb, rneed, stres, dsl, atomic, 
+                                  strong, ppPending, ppClosed, ppNotify, ppNC, 
+                                  ppBP, ppDepth, ppAlive, ppHeld, inItems, 
+                                  inClosed, inWaker, pollFn, chuteFn, pwTaken, 
+                                  nextPoll, ppItem, pjLive, ppStage, h, dead, 
+                                  sti, smax, rq, sq, sj, ww, rsq, bown, bwk, 
+                                  bi, bcur, bw, bsp, jq, jj, jwk, fj, oq, oop, 
+                                  omode, oj, yq, yop, yclaimed, tq, top, af, 
+                                  wf, wop, sf, sctx, xf, cop, kj, pp, pwk, np, 
+                                  nbp, nres, dp, pf, pctx, pq, pj, pd, nq >>
 
 PoolDrain(self) == pd_deq(self) \/ z_pd_after(self) \/ pd_requeue(self)
                       \/ pd_park(self) \/ pd_end(self) \/ pd_panic(self)
@@ -3997,7 +4085,7 @@ ro_deq(self) == /\ pc[self] = "ro_deq"
                                 nextDW, ready, cwait, cnotif, cvHeld, sdres, 
                                 jpanic, sfst, slotSt, qrSent, qrWaker, dnState, 
                                 dnWaker, parkTok, barGen, myBar, cdone, rwb, 
-                                rneed, dsl, atomic, strong, ppPending, 
+                                rneed, stres, dsl, atomic, strong, ppPending, 
                                 ppClosed, ppNotify, ppNC, ppBP, ppDepth, 
                                 ppAlive, ppHeld, inItems, inClosed, inWaker, 
                                 pollFn, chuteFn, pwTaken, nextPoll, ppItem, 
@@ -4039,17 +4127,17 @@ z_ro_after(self) == /\ pc[self] = "z_ro_after"
                                     cwait, cnotif, cvHeld, sdres, jpanic, sfst, 
                                     slotSt, qrSent, qrWaker, dnState, dnWaker, 
                                     parkTok, barGen, myBar, cdone, rv, rwb, 
-                                    rneed, dsl, atomic, strong, ppPending, 
-                                    ppClosed, ppNotify, ppNC, ppBP, ppDepth, 
-                                    ppAlive, ppHeld, inItems, inClosed, 
-                                    inWaker, pollFn, chuteFn, pwTaken, 
-                                    nextPoll, ppItem, pjLive, ppStage, h, dead, 
-                                    sti, smax, rq, sq, sj, ww, rsq, bown, bwk, 
-                                    bi, bcur, bw, bsp, jq, jj, jwk, dq, dj, oq, 
-                                    oop, omode, oj, yq, yop, yclaimed, tq, top, 
-                                    af, wf, wop, sf, sctx, xf, cop, kj, pp, 
-                                    pwk, np, nbp, nres, dp, pf, pctx, pq, pj, 
-                                    pd, nq >>
+                                    rneed, stres, dsl, atomic, strong, 
+                                    ppPending, ppClosed, ppNotify, ppNC, ppBP, 
+                                    ppDepth, ppAlive, ppHeld, inItems, 
+                                    inClosed, inWaker, pollFn, chuteFn, 
+                                    pwTaken, nextPoll, ppItem, pjLive, ppStage, 
+                                    h, dead, sti, smax, rq, sq, sj, ww, rsq, 
+                                    bown, bwk, bi, bcur, bw, bsp, jq, jj, jwk, 
+                                    dq, dj, oq, oop, omode, oj, yq, yop, 
+                                    yclaimed, tq, top, af, wf, wop, sf, sctx, 
+                                    xf, cop, kj, pp, pwk, np, nbp, nres, dp, 
+                                    pf, pctx, pq, pj, pd, nq >>
 
 z_ro_done(self) == /\ pc[self] = "z_ro_done"
                    /\ IF omode[self] = "sd" /\ ~sdres[oop[self]]
@@ -4071,15 +4159,16 @@ z_ro_done(self) == /\ pc[self] = "z_ro_done"
                                    cwait, cnotif, cvHeld, sdres, jpanic, sfst, 
                                    slotSt, qrSent, qrWaker, dnState, dnWaker, 
                                    parkTok, barGen, myBar, cdone, rwb, rneed, 
-                                   dsl, atomic, strong, ppPending, ppClosed, 
-                                   ppNotify, ppNC, ppBP, ppDepth, ppAlive, 
-                                   ppHeld, inItems, inClosed, inWaker, pollFn, 
-                                   chuteFn, pwTaken, nextPoll, ppItem, pjLive, 
-                                   ppStage, h, dead, sti, smax, rq, sq, sj, ww, 
-                                   rsq, bown, bwk, bi, bcur, bw, bsp, jq, jj, 
-                                   jwk, fj, dq, dj, yq, yop, yclaimed, tq, top, 
-                                   af, wf, wop, sf, sctx, xf, cop, kj, pp, pwk, 
-                                   np, nbp, nres, dp, pf, pctx, pq, pj, pd, nq >>
+                                   stres, dsl, atomic, strong, ppPending, 
+                                   ppClosed, ppNotify, ppNC, ppBP, ppDepth, 
+                                   ppAlive, ppHeld, inItems, inClosed, inWaker, 
+                                   pollFn, chuteFn, pwTaken, nextPoll, ppItem, 
+                                   pjLive, ppStage, h, dead, sti, smax, rq, sq, 
+                                   sj, ww, rsq, bown, bwk, bi, bcur, bw, bsp, 
+                                   jq, jj, jwk, fj, dq, dj, yq, yop, yclaimed, 
+                                   tq, top, af, wf, wop, sf, sctx, xf, cop, kj, 
+                                   pp, pwk, np, nbp, nres, dp, pf, pctx, pq, 
+                                   pj, pd, nq >>
 
 z_ro_panic(self) == /\ pc[self] = "z_ro_panic"
                     /\ rv' = [rv EXCEPT ![self] = 9]
@@ -4098,16 +4187,16 @@ z_ro_panic(self) == /\ pc[self] = "z_ro_panic"
                                     cwait, cnotif, cvHeld, sdres, jpanic, sfst, 
                                     slotSt, qrSent, qrWaker, dnState, dnWaker, 
                                     parkTok, barGen, myBar, cdone, rwb, rneed, 
-                                    dsl, atomic, strong, ppPending, ppClosed, 
-                                    ppNotify, ppNC, ppBP, ppDepth, ppAlive, 
-                                    ppHeld, inItems, inClosed, inWaker, pollFn, 
-                                    chuteFn, pwTaken, nextPoll, ppItem, pjLive, 
-                                    ppStage, h, dead, sti, smax, rq, sq, sj, 
-                                    ww, rsq, bown, bwk, bi, bcur, bw, bsp, jq, 
-                                    jj, jwk, fj, dq, dj, yq, yop, yclaimed, tq, 
-                                    top, af, wf, wop, sf, sctx, xf, cop, kj, 
-                                    pp, pwk, np, nbp, nres, dp, pf, pctx, pq, 
-                                    pj, pd, nq >>
+                                    stres, dsl, atomic, strong, ppPending, 
+                                    ppClosed, ppNotify, ppNC, ppBP, ppDepth, 
+                                    ppAlive, ppHeld, inItems, inClosed, 
+                                    inWaker, pollFn, chuteFn, pwTaken, 
+                                    nextPoll, ppItem, pjLive, ppStage, h, dead, 
+                                    sti, smax, rq, sq, sj, ww, rsq, bown, bwk, 
+                                    bi, bcur, bw, bsp, jq, jj, jwk, fj, dq, dj, 
+                                    yq, yop, yclaimed, tq, top, af, wf, wop, 
+                                    sf, sctx, xf, cop, kj, pp, pwk, np, nbp, 
+                                    nres, dp, pf, pctx, pq, pj, pd, nq >>
 
 ro_park(self) == /\ pc[self] = "ro_park"
                  /\ IF qstate[oq[self]] = "AwokenWhileRunning"
@@ -4123,7 +4212,7 @@ ro_park(self) == /\ pc[self] = "ro_park"
                                                                     \o stack[self]]
                             /\ pc' = [pc EXCEPT ![self] = "z_rj"]
                        ELSE /\ Assert(qstate[oq[self]] = "Running", 
-                                      "Failure of assertion at line 605, column 5.")
+                                      "Failure of assertion at line 613, column 5.")
                             /\ qstate' = [qstate EXCEPT ![oq[self]] = "WaitingForUnpark"]
                             /\ pc' = [pc EXCEPT ![self] = "ro_check"]
                             /\ UNCHANGED << stack, jq, jj, jwk >>
@@ -4135,16 +4224,16 @@ ro_park(self) == /\ pc[self] = "ro_park"
                                  nextDW, ready, cwait, cnotif, cvHeld, sdres, 
                                  jpanic, sfst, slotSt, qrSent, qrWaker, 
                                  dnState, dnWaker, parkTok, barGen, myBar, 
-                                 cdone, rv, rwb, rneed, dsl, atomic, strong, 
-                                 ppPending, ppClosed, ppNotify, ppNC, ppBP, 
-                                 ppDepth, ppAlive, ppHeld, inItems, inClosed, 
-                                 inWaker, pollFn, chuteFn, pwTaken, nextPoll, 
-                                 ppItem, pjLive, ppStage, h, dead, sti, smax, 
-                                 rq, sq, sj, ww, rsq, bown, bwk, bi, bcur, bw, 
-                                 bsp, fj, dq, dj, oq, oop, omode, oj, yq, yop, 
-                                 yclaimed, tq, top, af, wf, wop, sf, sctx, xf, 
-                                 cop, kj, pp, pwk, np, nbp, nres, dp, pf, pctx, 
-                                 pq, pj, pd, nq >>
+                                 cdone, rv, rwb, rneed, stres, dsl, atomic, 
+                                 strong, ppPending, ppClosed, ppNotify, ppNC, 
+                                 ppBP, ppDepth, ppAlive, ppHeld, inItems, 
+                                 inClosed, inWaker, pollFn, chuteFn, pwTaken, 
+                                 nextPoll, ppItem, pjLive, ppStage, h, dead, 
+                                 sti, smax, rq, sq, sj, ww, rsq, bown, bwk, bi, 
+                                 bcur, bw, bsp, fj, dq, dj, oq, oop, omode, oj, 
+                                 yq, yop, yclaimed, tq, top, af, wf, wop, sf, 
+                                 sctx, xf, cop, kj, pp, pwk, np, nbp, nres, dp, 
+                                 pf, pctx, pq, pj, pd, nq >>
 
 ro_check(self) == /\ pc[self] = "ro_check"
                   /\ IF qstate[oq[self]] \in {"Running", "AwokenWhileRunning"}
@@ -4159,7 +4248,7 @@ ro_check(self) == /\ pc[self] = "ro_check"
                                                                      \o stack[self]]
                              /\ pc' = [pc EXCEPT ![self] = "z_rj"]
                         ELSE /\ Assert(qstate[oq[self]] = "WaitingForUnpark", 
-                                       "Failure of assertion at line 612, column 12.")
+                                       "Failure of assertion at line 620, column 12.")
                              /\ pc' = [pc EXCEPT ![self] = "ro_parked"]
                              /\ UNCHANGED << stack, jq, jj, jwk >>
                   /\ UNCHANGED << qstate, qpoll, jobs, wakeBlocked, schedule, 
@@ -4170,16 +4259,16 @@ ro_check(self) == /\ pc[self] = "ro_check"
                                   dblW2, nextDW, ready, cwait, cnotif, cvHeld, 
                                   sdres, jpanic, sfst, slotSt, qrSent, qrWaker, 
                                   dnState, dnWaker, parkTok, barGen, myBar, 
-                                  cdone, rv, rwb, rneed, dsl, atomic, strong, 
-                                  ppPending, ppClosed, ppNotify, ppNC, ppBP, 
-                                  ppDepth, ppAlive, ppHeld, inItems, inClosed, 
-                                  inWaker, pollFn, chuteFn, pwTaken, nextPoll, 
-                                  ppItem, pjLive, ppStage, h, dead, sti, smax, 
-                                  rq, sq, sj, ww, rsq, bown, bwk, bi, bcur, bw, 
-                                  bsp, fj, dq, dj, oq, oop, omode, oj, yq, yop, 
-                                  yclaimed, tq, top, af, wf, wop, sf, sctx, xf, 
-                                  cop, kj, pp, pwk, np, nbp, nres, dp, pf, 
-                                  pctx, pq, pj, pd, nq >>
+                                  cdone, rv, rwb, rneed, stres, dsl, atomic, 
+                                  strong, ppPending, ppClosed, ppNotify, ppNC, 
+                                  ppBP, ppDepth, ppAlive, ppHeld, inItems, 
+                                  inClosed, inWaker, pollFn, chuteFn, pwTaken, 
+                                  nextPoll, ppItem, pjLive, ppStage, h, dead, 
+                                  sti, smax, rq, sq, sj, ww, rsq, bown, bwk, 
+                                  bi, bcur, bw, bsp, fj, dq, dj, oq, oop, 
+                                  omode, oj, yq, yop, yclaimed, tq, top, af, 
+                                  wf, wop, sf, sctx, xf, cop, kj, pp, pwk, np, 
+                                  nbp, nres, dp, pf, pctx, pq, pj, pd, nq >>
 
 ro_parked(self) == /\ pc[self] = "ro_parked"
                    /\ parkTok[self]
@@ -4194,8 +4283,8 @@ ro_parked(self) == /\ pc[self] = "ro_parked"
                                    dblTaken, dblW1, dblW2, nextDW, ready, 
                                    cwait, cnotif, cvHeld, sdres, jpanic, sfst, 
                                    slotSt, qrSent, qrWaker, dnState, dnWaker, 
-                                   barGen, myBar, cdone, rv, rwb, rneed, dsl, 
-                                   atomic, strong, ppPending, ppClosed, 
+                                   barGen, myBar, cdone, rv, rwb, rneed, stres, 
+                                   dsl, atomic, strong, ppPending, ppClosed, 
                                    ppNotify, ppNC, ppBP, ppDepth, ppAlive, 
                                    ppHeld, inItems, inClosed, inWaker, pollFn, 
                                    chuteFn, pwTaken, nextPoll, ppItem, pjLive, 
@@ -4259,14 +4348,14 @@ sy_decide(self) == /\ pc[self] = "sy_decide"
                                    cwait, cnotif, cvHeld, sdres, jpanic, sfst, 
                                    slotSt, qrSent, qrWaker, dnState, dnWaker, 
                                    parkTok, barGen, myBar, cdone, rwb, rneed, 
-                                   dsl, atomic, strong, ppPending, ppClosed, 
-                                   ppNotify, ppNC, ppBP, ppDepth, ppAlive, 
-                                   ppHeld, inItems, inClosed, inWaker, pollFn, 
-                                   chuteFn, pwTaken, nextPoll, ppItem, pjLive, 
-                                   ppStage, h, dead, sti, smax, rq, sq, sj, ww, 
-                                   rsq, bown, bwk, bi, bcur, bw, bsp, fj, dq, 
-                                   dj, oq, oop, omode, oj, tq, top, af, wf, 
-                                   wop, sf, sctx, xf, cop, kj, pp, pwk, np, 
+                                   stres, dsl, atomic, strong, ppPending, 
+                                   ppClosed, ppNotify, ppNC, ppBP, ppDepth, 
+                                   ppAlive, ppHeld, inItems, inClosed, inWaker, 
+                                   pollFn, chuteFn, pwTaken, nextPoll, ppItem, 
+                                   pjLive, ppStage, h, dead, sti, smax, rq, sq, 
+                                   sj, ww, rsq, bown, bwk, bi, bcur, bw, bsp, 
+                                   fj, dq, dj, oq, oop, omode, oj, tq, top, af, 
+                                   wf, wop, sf, sctx, xf, cop, kj, pp, pwk, np, 
                                    nbp, nres, dp, pf, pctx, pq, pj, pd, nq >>
 
 z_si_chk(self) == /\ pc[self] = "z_si_chk"
@@ -4281,16 +4370,17 @@ z_si_chk(self) == /\ pc[self] = "z_si_chk"
                                   dblW2, nextDW, ready, cwait, cnotif, cvHeld, 
                                   sdres, jpanic, sfst, slotSt, qrSent, qrWaker, 
                                   dnState, dnWaker, parkTok, barGen, myBar, 
-                                  cdone, rv, rwb, rneed, dsl, atomic, strong, 
-                                  ppPending, ppClosed, ppNotify, ppNC, ppBP, 
-                                  ppDepth, ppAlive, ppHeld, inItems, inClosed, 
-                                  inWaker, pollFn, chuteFn, pwTaken, nextPoll, 
-                                  ppItem, pjLive, ppStage, h, stack, dead, sti, 
-                                  smax, rq, sq, sj, ww, rsq, bown, bwk, bi, 
-                                  bcur, bw, bsp, jq, jj, jwk, fj, dq, dj, oq, 
-                                  oop, omode, oj, yq, yop, yclaimed, tq, top, 
-                                  af, wf, wop, sf, sctx, xf, cop, kj, pp, pwk, 
-                                  np, nbp, nres, dp, pf, pctx, pq, pj, pd, nq >>
+                                  cdone, rv, rwb, rneed, stres, dsl, atomic, 
+                                  strong, ppPending, ppClosed, ppNotify, ppNC, 
+                                  ppBP, ppDepth, ppAlive, ppHeld, inItems, 
+                                  inClosed, inWaker, pollFn, chuteFn, pwTaken, 
+                                  nextPoll, ppItem, pjLive, ppStage, h, stack, 
+                                  dead, sti, smax, rq, sq, sj, ww, rsq, bown, 
+                                  bwk, bi, bcur, bw, bsp, jq, jj, jwk, fj, dq, 
+                                  dj, oq, oop, omode, oj, yq, yop, yclaimed, 
+                                  tq, top, af, wf, wop, sf, sctx, xf, cop, kj, 
+                                  pp, pwk, np, nbp, nres, dp, pf, pctx, pq, pj, 
+                                  pd, nq >>
 
 si_idle(self) == /\ pc[self] = "si_idle"
                  /\ qstate' = [qstate EXCEPT ![yq[self]] = "Idle"]
@@ -4308,16 +4398,16 @@ si_idle(self) == /\ pc[self] = "si_idle"
                                  nextDW, ready, cwait, cnotif, cvHeld, sdres, 
                                  jpanic, sfst, slotSt, qrSent, qrWaker, 
                                  dnState, dnWaker, parkTok, barGen, myBar, 
-                                 cdone, rv, rwb, rneed, dsl, atomic, strong, 
-                                 ppPending, ppClosed, ppNotify, ppNC, ppBP, 
-                                 ppDepth, ppAlive, ppHeld, inItems, inClosed, 
-                                 inWaker, pollFn, chuteFn, pwTaken, nextPoll, 
-                                 ppItem, pjLive, ppStage, h, dead, sti, smax, 
-                                 sq, sj, ww, rsq, bown, bwk, bi, bcur, bw, bsp, 
-                                 jq, jj, jwk, fj, dq, dj, oq, oop, omode, oj, 
-                                 yq, yop, yclaimed, tq, top, af, wf, wop, sf, 
-                                 sctx, xf, cop, kj, pp, pwk, np, nbp, nres, dp, 
-                                 pf, pctx, pq, pj, pd, nq >>
+                                 cdone, rv, rwb, rneed, stres, dsl, atomic, 
+                                 strong, ppPending, ppClosed, ppNotify, ppNC, 
+                                 ppBP, ppDepth, ppAlive, ppHeld, inItems, 
+                                 inClosed, inWaker, pollFn, chuteFn, pwTaken, 
+                                 nextPoll, ppItem, pjLive, ppStage, h, dead, 
+                                 sti, smax, sq, sj, ww, rsq, bown, bwk, bi, 
+                                 bcur, bw, bsp, jq, jj, jwk, fj, dq, dj, oq, 
+                                 oop, omode, oj, yq, yop, yclaimed, tq, top, 
+                                 af, wf, wop, sf, sctx, xf, cop, kj, pp, pwk, 
+                                 np, nbp, nres, dp, pf, pctx, pq, pj, pd, nq >>
 
 z_si_ret(self) == /\ pc[self] = "z_si_ret"
                   /\ IF Unw(yop[self])
@@ -4337,16 +4427,16 @@ z_si_ret(self) == /\ pc[self] = "z_si_ret"
                                   dblW2, nextDW, ready, cwait, cnotif, cvHeld, 
                                   sdres, jpanic, sfst, slotSt, qrSent, qrWaker, 
                                   dnState, dnWaker, parkTok, barGen, myBar, 
-                                  cdone, rwb, rneed, dsl, atomic, strong, 
-                                  ppPending, ppClosed, ppNotify, ppNC, ppBP, 
-                                  ppDepth, ppAlive, ppHeld, inItems, inClosed, 
-                                  inWaker, pollFn, chuteFn, pwTaken, nextPoll, 
-                                  ppItem, pjLive, ppStage, h, dead, sti, smax, 
-                                  rq, sq, sj, ww, rsq, bown, bwk, bi, bcur, bw, 
-                                  bsp, jq, jj, jwk, fj, dq, dj, oq, oop, omode, 
-                                  oj, tq, top, af, wf, wop, sf, sctx, xf, cop, 
-                                  kj, pp, pwk, np, nbp, nres, dp, pf, pctx, pq, 
-                                  pj, pd, nq >>
+                                  cdone, rwb, rneed, stres, dsl, atomic, 
+                                  strong, ppPending, ppClosed, ppNotify, ppNC, 
+                                  ppBP, ppDepth, ppAlive, ppHeld, inItems, 
+                                  inClosed, inWaker, pollFn, chuteFn, pwTaken, 
+                                  nextPoll, ppItem, pjLive, ppStage, h, dead, 
+                                  sti, smax, rq, sq, sj, ww, rsq, bown, bwk, 
+                                  bi, bcur, bw, bsp, jq, jj, jwk, fj, dq, dj, 
+                                  oq, oop, omode, oj, tq, top, af, wf, wop, sf, 
+                                  sctx, xf, cop, kj, pp, pwk, np, nbp, nres, 
+                                  dp, pf, pctx, pq, pj, pd, nq >>
 
 sy_unw(self) == /\ pc[self] = "sy_unw"
                 /\ qstate' = [qstate EXCEPT ![yq[self]] = "Panicked"]
@@ -4364,7 +4454,7 @@ sy_unw(self) == /\ pc[self] = "sy_unw"
                                 nextDW, ready, cwait, cnotif, cvHeld, sdres, 
                                 jpanic, sfst, slotSt, qrSent, qrWaker, dnState, 
                                 dnWaker, parkTok, barGen, myBar, cdone, rwb, 
-                                rneed, dsl, atomic, strong, ppPending, 
+                                rneed, stres, dsl, atomic, strong, ppPending, 
                                 ppClosed, ppNotify, ppNC, ppBP, ppDepth, 
                                 ppAlive, ppHeld, inItems, inClosed, inWaker, 
                                 pollFn, chuteFn, pwTaken, nextPoll, ppItem, 
@@ -4398,16 +4488,16 @@ sd_push(self) == /\ pc[self] = "sd_push"
                                  nextDW, ready, cwait, cnotif, cvHeld, sdres, 
                                  jpanic, sfst, slotSt, qrSent, qrWaker, 
                                  dnState, dnWaker, parkTok, barGen, myBar, 
-                                 cdone, rv, rwb, rneed, dsl, atomic, strong, 
-                                 ppPending, ppClosed, ppNotify, ppNC, ppBP, 
-                                 ppDepth, ppAlive, ppHeld, inItems, inClosed, 
-                                 inWaker, pollFn, chuteFn, pwTaken, nextPoll, 
-                                 ppItem, pjLive, ppStage, h, dead, sti, smax, 
-                                 rq, sq, sj, ww, rsq, bown, bwk, bi, bcur, bw, 
-                                 bsp, jq, jj, jwk, fj, dq, dj, yq, yop, 
-                                 yclaimed, tq, top, af, wf, wop, sf, sctx, xf, 
-                                 cop, kj, pp, pwk, np, nbp, nres, dp, pf, pctx, 
-                                 pq, pj, pd, nq >>
+                                 cdone, rv, rwb, rneed, stres, dsl, atomic, 
+                                 strong, ppPending, ppClosed, ppNotify, ppNC, 
+                                 ppBP, ppDepth, ppAlive, ppHeld, inItems, 
+                                 inClosed, inWaker, pollFn, chuteFn, pwTaken, 
+                                 nextPoll, ppItem, pjLive, ppStage, h, dead, 
+                                 sti, smax, rq, sq, sj, ww, rsq, bown, bwk, bi, 
+                                 bcur, bw, bsp, jq, jj, jwk, fj, dq, dj, yq, 
+                                 yop, yclaimed, tq, top, af, wf, wop, sf, sctx, 
+                                 xf, cop, kj, pp, pwk, np, nbp, nres, dp, pf, 
+                                 pctx, pq, pj, pd, nq >>
 
 z_sd_chk(self) == /\ pc[self] = "z_sd_chk"
                   /\ IF rv[self] = 9
@@ -4421,16 +4511,17 @@ z_sd_chk(self) == /\ pc[self] = "z_sd_chk"
                                   dblW2, nextDW, ready, cwait, cnotif, cvHeld, 
                                   sdres, jpanic, sfst, slotSt, qrSent, qrWaker, 
                                   dnState, dnWaker, parkTok, barGen, myBar, 
-                                  cdone, rv, rwb, rneed, dsl, atomic, strong, 
-                                  ppPending, ppClosed, ppNotify, ppNC, ppBP, 
-                                  ppDepth, ppAlive, ppHeld, inItems, inClosed, 
-                                  inWaker, pollFn, chuteFn, pwTaken, nextPoll, 
-                                  ppItem, pjLive, ppStage, h, stack, dead, sti, 
-                                  smax, rq, sq, sj, ww, rsq, bown, bwk, bi, 
-                                  bcur, bw, bsp, jq, jj, jwk, fj, dq, dj, oq, 
-                                  oop, omode, oj, yq, yop, yclaimed, tq, top, 
-                                  af, wf, wop, sf, sctx, xf, cop, kj, pp, pwk, 
-                                  np, nbp, nres, dp, pf, pctx, pq, pj, pd, nq >>
+                                  cdone, rv, rwb, rneed, stres, dsl, atomic, 
+                                  strong, ppPending, ppClosed, ppNotify, ppNC, 
+                                  ppBP, ppDepth, ppAlive, ppHeld, inItems, 
+                                  inClosed, inWaker, pollFn, chuteFn, pwTaken, 
+                                  nextPoll, ppItem, pjLive, ppStage, h, stack, 
+                                  dead, sti, smax, rq, sq, sj, ww, rsq, bown, 
+                                  bwk, bi, bcur, bw, bsp, jq, jj, jwk, fj, dq, 
+                                  dj, oq, oop, omode, oj, yq, yop, yclaimed, 
+                                  tq, top, af, wf, wop, sf, sctx, xf, cop, kj, 
+                                  pp, pwk, np, nbp, nres, dp, pf, pctx, pq, pj, 
+                                  pd, nq >>
 
 sd_idle(self) == /\ pc[self] = "sd_idle"
                  /\ qstate' = [qstate EXCEPT ![yq[self]] = "Idle"]
@@ -4448,16 +4539,16 @@ sd_idle(self) == /\ pc[self] = "sd_idle"
                                  nextDW, ready, cwait, cnotif, cvHeld, sdres, 
                                  jpanic, sfst, slotSt, qrSent, qrWaker, 
                                  dnState, dnWaker, parkTok, barGen, myBar, 
-                                 cdone, rv, rwb, rneed, dsl, atomic, strong, 
-                                 ppPending, ppClosed, ppNotify, ppNC, ppBP, 
-                                 ppDepth, ppAlive, ppHeld, inItems, inClosed, 
-                                 inWaker, pollFn, chuteFn, pwTaken, nextPoll, 
-                                 ppItem, pjLive, ppStage, h, dead, sti, smax, 
-                                 sq, sj, ww, rsq, bown, bwk, bi, bcur, bw, bsp, 
-                                 jq, jj, jwk, fj, dq, dj, oq, oop, omode, oj, 
-                                 yq, yop, yclaimed, tq, top, af, wf, wop, sf, 
-                                 sctx, xf, cop, kj, pp, pwk, np, nbp, nres, dp, 
-                                 pf, pctx, pq, pj, pd, nq >>
+                                 cdone, rv, rwb, rneed, stres, dsl, atomic, 
+                                 strong, ppPending, ppClosed, ppNotify, ppNC, 
+                                 ppBP, ppDepth, ppAlive, ppHeld, inItems, 
+                                 inClosed, inWaker, pollFn, chuteFn, pwTaken, 
+                                 nextPoll, ppItem, pjLive, ppStage, h, dead, 
+                                 sti, smax, sq, sj, ww, rsq, bown, bwk, bi, 
+                                 bcur, bw, bsp, jq, jj, jwk, fj, dq, dj, oq, 
+                                 oop, omode, oj, yq, yop, yclaimed, tq, top, 
+                                 af, wf, wop, sf, sctx, xf, cop, kj, pp, pwk, 
+                                 np, nbp, nres, dp, pf, pctx, pq, pj, pd, nq >>
 
 sb_reg(self) == /\ pc[self] = "sb_reg"
                 /\ wakeBlocked' = [wakeBlocked EXCEPT ![yq[self]] = Append(wakeBlocked[yq[self]], yop[self])]
@@ -4471,16 +4562,16 @@ sb_reg(self) == /\ pc[self] = "sb_reg"
                                 nextDW, ready, cwait, cnotif, sdres, jpanic, 
                                 sfst, slotSt, qrSent, qrWaker, dnState, 
                                 dnWaker, parkTok, barGen, myBar, cdone, rv, 
-                                rwb, rneed, dsl, atomic, strong, ppPending, 
-                                ppClosed, ppNotify, ppNC, ppBP, ppDepth, 
-                                ppAlive, ppHeld, inItems, inClosed, inWaker, 
-                                pollFn, chuteFn, pwTaken, nextPoll, ppItem, 
-                                pjLive, ppStage, h, stack, dead, sti, smax, rq, 
-                                sq, sj, ww, rsq, bown, bwk, bi, bcur, bw, bsp, 
-                                jq, jj, jwk, fj, dq, dj, oq, oop, omode, oj, 
-                                yq, yop, yclaimed, tq, top, af, wf, wop, sf, 
-                                sctx, xf, cop, kj, pp, pwk, np, nbp, nres, dp, 
-                                pf, pctx, pq, pj, pd, nq >>
+                                rwb, rneed, stres, dsl, atomic, strong, 
+                                ppPending, ppClosed, ppNotify, ppNC, ppBP, 
+                                ppDepth, ppAlive, ppHeld, inItems, inClosed, 
+                                inWaker, pollFn, chuteFn, pwTaken, nextPoll, 
+                                ppItem, pjLive, ppStage, h, stack, dead, sti, 
+                                smax, rq, sq, sj, ww, rsq, bown, bwk, bi, bcur, 
+                                bw, bsp, jq, jj, jwk, fj, dq, dj, oq, oop, 
+                                omode, oj, yq, yop, yclaimed, tq, top, af, wf, 
+                                wop, sf, sctx, xf, cop, kj, pp, pwk, np, nbp, 
+                                nres, dp, pf, pctx, pq, pj, pd, nq >>
 
 sb_push(self) == /\ pc[self] = "sb_push"
                  /\ jkind' = [jkind EXCEPT ![yop[self]] = "syncbg"]
@@ -4502,16 +4593,16 @@ sb_push(self) == /\ pc[self] = "sb_push"
                                  nextDW, ready, cwait, cnotif, cvHeld, sdres, 
                                  jpanic, sfst, slotSt, qrSent, qrWaker, 
                                  dnState, dnWaker, parkTok, barGen, myBar, 
-                                 cdone, rv, rwb, rneed, dsl, atomic, strong, 
-                                 ppPending, ppClosed, ppNotify, ppNC, ppBP, 
-                                 ppDepth, ppAlive, ppHeld, inItems, inClosed, 
-                                 inWaker, pollFn, chuteFn, pwTaken, nextPoll, 
-                                 ppItem, pjLive, ppStage, h, dead, sti, smax, 
-                                 sq, sj, ww, rsq, bown, bwk, bi, bcur, bw, bsp, 
-                                 jq, jj, jwk, fj, dq, dj, oq, oop, omode, oj, 
-                                 yq, yop, yclaimed, tq, top, af, wf, wop, sf, 
-                                 sctx, xf, cop, kj, pp, pwk, np, nbp, nres, dp, 
-                                 pf, pctx, pq, pj, pd, nq >>
+                                 cdone, rv, rwb, rneed, stres, dsl, atomic, 
+                                 strong, ppPending, ppClosed, ppNotify, ppNC, 
+                                 ppBP, ppDepth, ppAlive, ppHeld, inItems, 
+                                 inClosed, inWaker, pollFn, chuteFn, pwTaken, 
+                                 nextPoll, ppItem, pjLive, ppStage, h, dead, 
+                                 sti, smax, sq, sj, ww, rsq, bown, bwk, bi, 
+                                 bcur, bw, bsp, jq, jj, jwk, fj, dq, dj, oq, 
+                                 oop, omode, oj, yq, yop, yclaimed, tq, top, 
+                                 af, wf, wop, sf, sctx, xf, cop, kj, pp, pwk, 
+                                 np, nbp, nres, dp, pf, pctx, pq, pj, pd, nq >>
 
 sb_lock(self) == /\ pc[self] = "sb_lock"
                  /\ IF yclaimed[self] /\ Unw(yop[self])
@@ -4528,16 +4619,16 @@ sb_lock(self) == /\ pc[self] = "sb_lock"
                                  nextDW, ready, cwait, cnotif, cvHeld, sdres, 
                                  jpanic, sfst, slotSt, qrSent, qrWaker, 
                                  dnState, dnWaker, parkTok, barGen, myBar, 
-                                 cdone, rv, rwb, rneed, dsl, atomic, strong, 
-                                 ppPending, ppClosed, ppNotify, ppNC, ppBP, 
-                                 ppDepth, ppAlive, ppHeld, inItems, inClosed, 
-                                 inWaker, pollFn, chuteFn, pwTaken, nextPoll, 
-                                 ppItem, pjLive, ppStage, h, stack, dead, sti, 
-                                 smax, rq, sq, sj, ww, rsq, bown, bwk, bi, 
-                                 bcur, bw, bsp, jq, jj, jwk, fj, dq, dj, oq, 
-                                 oop, omode, oj, yq, yop, tq, top, af, wf, wop, 
-                                 sf, sctx, xf, cop, kj, pp, pwk, np, nbp, nres, 
-                                 dp, pf, pctx, pq, pj, pd, nq >>
+                                 cdone, rv, rwb, rneed, stres, dsl, atomic, 
+                                 strong, ppPending, ppClosed, ppNotify, ppNC, 
+                                 ppBP, ppDepth, ppAlive, ppHeld, inItems, 
+                                 inClosed, inWaker, pollFn, chuteFn, pwTaken, 
+                                 nextPoll, ppItem, pjLive, ppStage, h, stack, 
+                                 dead, sti, smax, rq, sq, sj, ww, rsq, bown, 
+                                 bwk, bi, bcur, bw, bsp, jq, jj, jwk, fj, dq, 
+                                 dj, oq, oop, omode, oj, yq, yop, tq, top, af, 
+                                 wf, wop, sf, sctx, xf, cop, kj, pp, pwk, np, 
+                                 nbp, nres, dp, pf, pctx, pq, pj, pd, nq >>
 
 z_sb_lock2(self) == /\ pc[self] = "z_sb_lock2"
                     /\ IF ready[yop[self]]
@@ -4565,12 +4656,12 @@ z_sb_lock2(self) == /\ pc[self] = "z_sb_lock2"
                                     dblW1, dblW2, nextDW, ready, sdres, jpanic, 
                                     sfst, slotSt, qrSent, qrWaker, dnState, 
                                     dnWaker, parkTok, barGen, myBar, cdone, rv, 
-                                    rwb, rneed, dsl, atomic, strong, ppPending, 
-                                    ppClosed, ppNotify, ppNC, ppBP, ppDepth, 
-                                    ppAlive, ppHeld, inItems, inClosed, 
-                                    inWaker, pollFn, chuteFn, pwTaken, 
-                                    nextPoll, ppItem, pjLive, ppStage, h, 
-                                    stack, dead, sti, smax, rq, sq, sj, ww, 
+                                    rwb, rneed, stres, dsl, atomic, strong, 
+                                    ppPending, ppClosed, ppNotify, ppNC, ppBP, 
+                                    ppDepth, ppAlive, ppHeld, inItems, 
+                                    inClosed, inWaker, pollFn, chuteFn, 
+                                    pwTaken, nextPoll, ppItem, pjLive, ppStage, 
+                                    h, stack, dead, sti, smax, rq, sq, sj, ww, 
                                     rsq, bown, bwk, bi, bcur, bw, bsp, jq, jj, 
                                     jwk, fj, dq, dj, oq, oop, omode, oj, yq, 
                                     yop, tq, top, af, wf, wop, sf, sctx, xf, 
@@ -4593,16 +4684,16 @@ sb_claim(self) == /\ pc[self] = "sb_claim"
                                   ready, cwait, cnotif, cvHeld, sdres, jpanic, 
                                   sfst, slotSt, qrSent, qrWaker, dnState, 
                                   dnWaker, parkTok, barGen, myBar, cdone, rv, 
-                                  rwb, rneed, dsl, atomic, strong, ppPending, 
-                                  ppClosed, ppNotify, ppNC, ppBP, ppDepth, 
-                                  ppAlive, ppHeld, inItems, inClosed, inWaker, 
-                                  pollFn, chuteFn, pwTaken, nextPoll, ppItem, 
-                                  pjLive, ppStage, h, stack, dead, sti, smax, 
-                                  rq, sq, sj, ww, rsq, bown, bwk, bi, bcur, bw, 
-                                  bsp, jq, jj, jwk, fj, dq, dj, oq, oop, omode, 
-                                  oj, yq, yop, tq, top, af, wf, wop, sf, sctx, 
-                                  xf, cop, kj, pp, pwk, np, nbp, nres, dp, pf, 
-                                  pctx, pq, pj, pd, nq >>
+                                  rwb, rneed, stres, dsl, atomic, strong, 
+                                  ppPending, ppClosed, ppNotify, ppNC, ppBP, 
+                                  ppDepth, ppAlive, ppHeld, inItems, inClosed, 
+                                  inWaker, pollFn, chuteFn, pwTaken, nextPoll, 
+                                  ppItem, pjLive, ppStage, h, stack, dead, sti, 
+                                  smax, rq, sq, sj, ww, rsq, bown, bwk, bi, 
+                                  bcur, bw, bsp, jq, jj, jwk, fj, dq, dj, oq, 
+                                  oop, omode, oj, yq, yop, tq, top, af, wf, 
+                                  wop, sf, sctx, xf, cop, kj, pp, pwk, np, nbp, 
+                                  nres, dp, pf, pctx, pq, pj, pd, nq >>
 
 sb_chk(self) == /\ pc[self] = "sb_chk"
                 /\ IF ~ready[yop[self]]
@@ -4628,16 +4719,16 @@ sb_chk(self) == /\ pc[self] = "sb_chk"
                                 dblW2, nextDW, ready, cwait, cnotif, cvHeld, 
                                 sdres, jpanic, sfst, slotSt, qrSent, qrWaker, 
                                 dnState, dnWaker, parkTok, barGen, myBar, 
-                                cdone, rv, rwb, rneed, dsl, atomic, strong, 
-                                ppPending, ppClosed, ppNotify, ppNC, ppBP, 
-                                ppDepth, ppAlive, ppHeld, inItems, inClosed, 
-                                inWaker, pollFn, chuteFn, pwTaken, nextPoll, 
-                                ppItem, pjLive, ppStage, h, dead, sti, smax, 
-                                rq, sq, sj, ww, rsq, bown, bwk, bi, bcur, bw, 
-                                bsp, jq, jj, jwk, fj, dq, dj, yq, yop, 
-                                yclaimed, tq, top, af, wf, wop, sf, sctx, xf, 
-                                cop, kj, pp, pwk, np, nbp, nres, dp, pf, pctx, 
-                                pq, pj, pd, nq >>
+                                cdone, rv, rwb, rneed, stres, dsl, atomic, 
+                                strong, ppPending, ppClosed, ppNotify, ppNC, 
+                                ppBP, ppDepth, ppAlive, ppHeld, inItems, 
+                                inClosed, inWaker, pollFn, chuteFn, pwTaken, 
+                                nextPoll, ppItem, pjLive, ppStage, h, dead, 
+                                sti, smax, rq, sq, sj, ww, rsq, bown, bwk, bi, 
+                                bcur, bw, bsp, jq, jj, jwk, fj, dq, dj, yq, 
+                                yop, yclaimed, tq, top, af, wf, wop, sf, sctx, 
+                                xf, cop, kj, pp, pwk, np, nbp, nres, dp, pf, 
+                                pctx, pq, pj, pd, nq >>
 
 sb_idle(self) == /\ pc[self] = "sb_idle"
                  /\ qstate' = [qstate EXCEPT ![yq[self]] = "Idle"]
@@ -4655,16 +4746,16 @@ sb_idle(self) == /\ pc[self] = "sb_idle"
                                  nextDW, ready, cwait, cnotif, cvHeld, sdres, 
                                  jpanic, sfst, slotSt, qrSent, qrWaker, 
                                  dnState, dnWaker, parkTok, barGen, myBar, 
-                                 cdone, rv, rwb, rneed, dsl, atomic, strong, 
-                                 ppPending, ppClosed, ppNotify, ppNC, ppBP, 
-                                 ppDepth, ppAlive, ppHeld, inItems, inClosed, 
-                                 inWaker, pollFn, chuteFn, pwTaken, nextPoll, 
-                                 ppItem, pjLive, ppStage, h, dead, sti, smax, 
-                                 sq, sj, ww, rsq, bown, bwk, bi, bcur, bw, bsp, 
-                                 jq, jj, jwk, fj, dq, dj, oq, oop, omode, oj, 
-                                 yq, yop, yclaimed, tq, top, af, wf, wop, sf, 
-                                 sctx, xf, cop, kj, pp, pwk, np, nbp, nres, dp, 
-                                 pf, pctx, pq, pj, pd, nq >>
+                                 cdone, rv, rwb, rneed, stres, dsl, atomic, 
+                                 strong, ppPending, ppClosed, ppNotify, ppNC, 
+                                 ppBP, ppDepth, ppAlive, ppHeld, inItems, 
+                                 inClosed, inWaker, pollFn, chuteFn, pwTaken, 
+                                 nextPoll, ppItem, pjLive, ppStage, h, dead, 
+                                 sti, smax, sq, sj, ww, rsq, bown, bwk, bi, 
+                                 bcur, bw, bsp, jq, jj, jwk, fj, dq, dj, oq, 
+                                 oop, omode, oj, yq, yop, yclaimed, tq, top, 
+                                 af, wf, wop, sf, sctx, xf, cop, kj, pp, pwk, 
+                                 np, nbp, nres, dp, pf, pctx, pq, pj, pd, nq >>
 
 z_sb_chk(self) == /\ pc[self] = "z_sb_chk"
                   /\ IF rv[self] = 9
@@ -4690,16 +4781,16 @@ z_sb_chk(self) == /\ pc[self] = "z_sb_chk"
                                   dblW2, nextDW, ready, cwait, cnotif, sdres, 
                                   jpanic, sfst, slotSt, qrSent, qrWaker, 
                                   dnState, dnWaker, parkTok, barGen, myBar, 
-                                  cdone, rwb, rneed, dsl, atomic, strong, 
-                                  ppPending, ppClosed, ppNotify, ppNC, ppBP, 
-                                  ppDepth, ppAlive, ppHeld, inItems, inClosed, 
-                                  inWaker, pollFn, chuteFn, pwTaken, nextPoll, 
-                                  ppItem, pjLive, ppStage, h, dead, sti, smax, 
-                                  rq, sq, sj, ww, rsq, bown, bwk, bi, bcur, bw, 
-                                  bsp, jq, jj, jwk, fj, dq, dj, oq, oop, omode, 
-                                  oj, tq, top, af, wf, wop, sf, sctx, xf, cop, 
-                                  kj, pp, pwk, np, nbp, nres, dp, pf, pctx, pq, 
-                                  pj, pd, nq >>
+                                  cdone, rwb, rneed, stres, dsl, atomic, 
+                                  strong, ppPending, ppClosed, ppNotify, ppNC, 
+                                  ppBP, ppDepth, ppAlive, ppHeld, inItems, 
+                                  inClosed, inWaker, pollFn, chuteFn, pwTaken, 
+                                  nextPoll, ppItem, pjLive, ppStage, h, dead, 
+                                  sti, smax, rq, sq, sj, ww, rsq, bown, bwk, 
+                                  bi, bcur, bw, bsp, jq, jj, jwk, fj, dq, dj, 
+                                  oq, oop, omode, oj, tq, top, af, wf, wop, sf, 
+                                  sctx, xf, cop, kj, pp, pwk, np, nbp, nres, 
+                                  dp, pf, pctx, pq, pj, pd, nq >>
 
 sb_wait(self) == /\ pc[self] = "sb_wait"
                  /\ cnotif[yop[self]]
@@ -4737,9 +4828,9 @@ sb_wait(self) == /\ pc[self] = "sb_wait"
                                  dwSt, dwW, dblTaken, dblW1, dblW2, nextDW, 
                                  ready, sdres, jpanic, sfst, slotSt, qrSent, 
                                  qrWaker, dnState, dnWaker, parkTok, barGen, 
-                                 myBar, cdone, rv, rwb, rneed, dsl, atomic, 
-                                 strong, ppPending, ppClosed, ppNotify, ppNC, 
-                                 ppBP, ppDepth, ppAlive, ppHeld, inItems, 
+                                 myBar, cdone, rv, rwb, rneed, stres, dsl, 
+                                 atomic, strong, ppPending, ppClosed, ppNotify, 
+                                 ppNC, ppBP, ppDepth, ppAlive, ppHeld, inItems, 
                                  inClosed, inWaker, pollFn, chuteFn, pwTaken, 
                                  nextPoll, ppItem, pjLive, ppStage, stack, 
                                  dead, sti, smax, rq, sq, sj, ww, rsq, bown, 
@@ -4764,7 +4855,7 @@ sb_fin(self) == /\ pc[self] = "sb_fin"
                                 nextDW, ready, cwait, cnotif, cvHeld, sdres, 
                                 jpanic, sfst, slotSt, qrSent, qrWaker, dnState, 
                                 dnWaker, parkTok, barGen, myBar, cdone, rwb, 
-                                rneed, dsl, atomic, strong, ppPending, 
+                                rneed, stres, dsl, atomic, strong, ppPending, 
                                 ppClosed, ppNotify, ppNC, ppBP, ppDepth, 
                                 ppAlive, ppHeld, inItems, inClosed, inWaker, 
                                 pollFn, chuteFn, pwTaken, nextPoll, ppItem, 
@@ -4791,16 +4882,16 @@ sy_panic(self) == /\ pc[self] = "sy_panic"
                                   nextDW, ready, cwait, cnotif, cvHeld, sdres, 
                                   jpanic, sfst, slotSt, qrSent, qrWaker, 
                                   dnState, dnWaker, parkTok, barGen, myBar, 
-                                  cdone, rwb, rneed, dsl, atomic, strong, 
-                                  ppPending, ppClosed, ppNotify, ppNC, ppBP, 
-                                  ppDepth, ppAlive, ppHeld, inItems, inClosed, 
-                                  inWaker, pollFn, chuteFn, pwTaken, nextPoll, 
-                                  ppItem, pjLive, ppStage, h, dead, sti, smax, 
-                                  rq, sq, sj, ww, rsq, bown, bwk, bi, bcur, bw, 
-                                  bsp, jq, jj, jwk, fj, dq, dj, oq, oop, omode, 
-                                  oj, tq, top, af, wf, wop, sf, sctx, xf, cop, 
-                                  kj, pp, pwk, np, nbp, nres, dp, pf, pctx, pq, 
-                                  pj, pd, nq >>
+                                  cdone, rwb, rneed, stres, dsl, atomic, 
+                                  strong, ppPending, ppClosed, ppNotify, ppNC, 
+                                  ppBP, ppDepth, ppAlive, ppHeld, inItems, 
+                                  inClosed, inWaker, pollFn, chuteFn, pwTaken, 
+                                  nextPoll, ppItem, pjLive, ppStage, h, dead, 
+                                  sti, smax, rq, sq, sj, ww, rsq, bown, bwk, 
+                                  bi, bcur, bw, bsp, jq, jj, jwk, fj, dq, dj, 
+                                  oq, oop, omode, oj, tq, top, af, wf, wop, sf, 
+                                  sctx, xf, cop, kj, pp, pwk, np, nbp, nres, 
+                                  dp, pf, pctx, pq, pj, pd, nq >>
 
 Sync(self) == sy_decide(self) \/ z_si_chk(self) \/ si_idle(self)
                  \/ z_si_ret(self) \/ sy_unw(self) \/ sd_push(self)
@@ -4857,15 +4948,16 @@ ts_decide(self) == /\ pc[self] = "ts_decide"
                                    cwait, cnotif, cvHeld, sdres, jpanic, sfst, 
                                    slotSt, qrSent, qrWaker, dnState, dnWaker, 
                                    parkTok, barGen, myBar, cdone, rwb, rneed, 
-                                   dsl, atomic, strong, ppPending, ppClosed, 
-                                   ppNotify, ppNC, ppBP, ppDepth, ppAlive, 
-                                   ppHeld, inItems, inClosed, inWaker, pollFn, 
-                                   chuteFn, pwTaken, nextPoll, ppItem, pjLive, 
-                                   ppStage, h, dead, sti, smax, rq, sq, sj, ww, 
-                                   rsq, bown, bwk, bi, bcur, bw, bsp, fj, dq, 
-                                   dj, oq, oop, omode, oj, yq, yop, yclaimed, 
-                                   af, wf, wop, sf, sctx, xf, cop, kj, pp, pwk, 
-                                   np, nbp, nres, dp, pf, pctx, pq, pj, pd, nq >>
+                                   stres, dsl, atomic, strong, ppPending, 
+                                   ppClosed, ppNotify, ppNC, ppBP, ppDepth, 
+                                   ppAlive, ppHeld, inItems, inClosed, inWaker, 
+                                   pollFn, chuteFn, pwTaken, nextPoll, ppItem, 
+                                   pjLive, ppStage, h, dead, sti, smax, rq, sq, 
+                                   sj, ww, rsq, bown, bwk, bi, bcur, bw, bsp, 
+                                   fj, dq, dj, oq, oop, omode, oj, yq, yop, 
+                                   yclaimed, af, wf, wop, sf, sctx, xf, cop, 
+                                   kj, pp, pwk, np, nbp, nres, dp, pf, pctx, 
+                                   pq, pj, pd, nq >>
 
 z_ts_chk(self) == /\ pc[self] = "z_ts_chk"
                   /\ IF rv[self] = 9
@@ -4879,16 +4971,17 @@ z_ts_chk(self) == /\ pc[self] = "z_ts_chk"
                                   dblW2, nextDW, ready, cwait, cnotif, cvHeld, 
                                   sdres, jpanic, sfst, slotSt, qrSent, qrWaker, 
                                   dnState, dnWaker, parkTok, barGen, myBar, 
-                                  cdone, rv, rwb, rneed, dsl, atomic, strong, 
-                                  ppPending, ppClosed, ppNotify, ppNC, ppBP, 
-                                  ppDepth, ppAlive, ppHeld, inItems, inClosed, 
-                                  inWaker, pollFn, chuteFn, pwTaken, nextPoll, 
-                                  ppItem, pjLive, ppStage, h, stack, dead, sti, 
-                                  smax, rq, sq, sj, ww, rsq, bown, bwk, bi, 
-                                  bcur, bw, bsp, jq, jj, jwk, fj, dq, dj, oq, 
-                                  oop, omode, oj, yq, yop, yclaimed, tq, top, 
-                                  af, wf, wop, sf, sctx, xf, cop, kj, pp, pwk, 
-                                  np, nbp, nres, dp, pf, pctx, pq, pj, pd, nq >>
+                                  cdone, rv, rwb, rneed, stres, dsl, atomic, 
+                                  strong, ppPending, ppClosed, ppNotify, ppNC, 
+                                  ppBP, ppDepth, ppAlive, ppHeld, inItems, 
+                                  inClosed, inWaker, pollFn, chuteFn, pwTaken, 
+                                  nextPoll, ppItem, pjLive, ppStage, h, stack, 
+                                  dead, sti, smax, rq, sq, sj, ww, rsq, bown, 
+                                  bwk, bi, bcur, bw, bsp, jq, jj, jwk, fj, dq, 
+                                  dj, oq, oop, omode, oj, yq, yop, yclaimed, 
+                                  tq, top, af, wf, wop, sf, sctx, xf, cop, kj, 
+                                  pp, pwk, np, nbp, nres, dp, pf, pctx, pq, pj, 
+                                  pd, nq >>
 
 ts_idle(self) == /\ pc[self] = "ts_idle"
                  /\ qstate' = [qstate EXCEPT ![tq[self]] = "Idle"]
@@ -4906,16 +4999,16 @@ ts_idle(self) == /\ pc[self] = "ts_idle"
                                  nextDW, ready, cwait, cnotif, cvHeld, sdres, 
                                  jpanic, sfst, slotSt, qrSent, qrWaker, 
                                  dnState, dnWaker, parkTok, barGen, myBar, 
-                                 cdone, rv, rwb, rneed, dsl, atomic, strong, 
-                                 ppPending, ppClosed, ppNotify, ppNC, ppBP, 
-                                 ppDepth, ppAlive, ppHeld, inItems, inClosed, 
-                                 inWaker, pollFn, chuteFn, pwTaken, nextPoll, 
-                                 ppItem, pjLive, ppStage, h, dead, sti, smax, 
-                                 sq, sj, ww, rsq, bown, bwk, bi, bcur, bw, bsp, 
-                                 jq, jj, jwk, fj, dq, dj, oq, oop, omode, oj, 
-                                 yq, yop, yclaimed, tq, top, af, wf, wop, sf, 
-                                 sctx, xf, cop, kj, pp, pwk, np, nbp, nres, dp, 
-                                 pf, pctx, pq, pj, pd, nq >>
+                                 cdone, rv, rwb, rneed, stres, dsl, atomic, 
+                                 strong, ppPending, ppClosed, ppNotify, ppNC, 
+                                 ppBP, ppDepth, ppAlive, ppHeld, inItems, 
+                                 inClosed, inWaker, pollFn, chuteFn, pwTaken, 
+                                 nextPoll, ppItem, pjLive, ppStage, h, dead, 
+                                 sti, smax, sq, sj, ww, rsq, bown, bwk, bi, 
+                                 bcur, bw, bsp, jq, jj, jwk, fj, dq, dj, oq, 
+                                 oop, omode, oj, yq, yop, yclaimed, tq, top, 
+                                 af, wf, wop, sf, sctx, xf, cop, kj, pp, pwk, 
+                                 np, nbp, nres, dp, pf, pctx, pq, pj, pd, nq >>
 
 z_ts_ret(self) == /\ pc[self] = "z_ts_ret"
                   /\ rv' = [rv EXCEPT ![self] = 0]
@@ -4931,16 +5024,16 @@ z_ts_ret(self) == /\ pc[self] = "z_ts_ret"
                                   dblW2, nextDW, ready, cwait, cnotif, cvHeld, 
                                   sdres, jpanic, sfst, slotSt, qrSent, qrWaker, 
                                   dnState, dnWaker, parkTok, barGen, myBar, 
-                                  cdone, rwb, rneed, dsl, atomic, strong, 
-                                  ppPending, ppClosed, ppNotify, ppNC, ppBP, 
-                                  ppDepth, ppAlive, ppHeld, inItems, inClosed, 
-                                  inWaker, pollFn, chuteFn, pwTaken, nextPoll, 
-                                  ppItem, pjLive, ppStage, h, dead, sti, smax, 
-                                  rq, sq, sj, ww, rsq, bown, bwk, bi, bcur, bw, 
-                                  bsp, jq, jj, jwk, fj, dq, dj, oq, oop, omode, 
-                                  oj, yq, yop, yclaimed, af, wf, wop, sf, sctx, 
-                                  xf, cop, kj, pp, pwk, np, nbp, nres, dp, pf, 
-                                  pctx, pq, pj, pd, nq >>
+                                  cdone, rwb, rneed, stres, dsl, atomic, 
+                                  strong, ppPending, ppClosed, ppNotify, ppNC, 
+                                  ppBP, ppDepth, ppAlive, ppHeld, inItems, 
+                                  inClosed, inWaker, pollFn, chuteFn, pwTaken, 
+                                  nextPoll, ppItem, pjLive, ppStage, h, dead, 
+                                  sti, smax, rq, sq, sj, ww, rsq, bown, bwk, 
+                                  bi, bcur, bw, bsp, jq, jj, jwk, fj, dq, dj, 
+                                  oq, oop, omode, oj, yq, yop, yclaimed, af, 
+                                  wf, wop, sf, sctx, xf, cop, kj, pp, pwk, np, 
+                                  nbp, nres, dp, pf, pctx, pq, pj, pd, nq >>
 
 ts_panic(self) == /\ pc[self] = "ts_panic"
                   /\ qstate' = [qstate EXCEPT ![tq[self]] = "Panicked"]
@@ -4957,16 +5050,16 @@ ts_panic(self) == /\ pc[self] = "ts_panic"
                                   nextDW, ready, cwait, cnotif, cvHeld, sdres, 
                                   jpanic, sfst, slotSt, qrSent, qrWaker, 
                                   dnState, dnWaker, parkTok, barGen, myBar, 
-                                  cdone, rwb, rneed, dsl, atomic, strong, 
-                                  ppPending, ppClosed, ppNotify, ppNC, ppBP, 
-                                  ppDepth, ppAlive, ppHeld, inItems, inClosed, 
-                                  inWaker, pollFn, chuteFn, pwTaken, nextPoll, 
-                                  ppItem, pjLive, ppStage, h, dead, sti, smax, 
-                                  rq, sq, sj, ww, rsq, bown, bwk, bi, bcur, bw, 
-                                  bsp, jq, jj, jwk, fj, dq, dj, oq, oop, omode, 
-                                  oj, yq, yop, yclaimed, af, wf, wop, sf, sctx, 
-                                  xf, cop, kj, pp, pwk, np, nbp, nres, dp, pf, 
-                                  pctx, pq, pj, pd, nq >>
+                                  cdone, rwb, rneed, stres, dsl, atomic, 
+                                  strong, ppPending, ppClosed, ppNotify, ppNC, 
+                                  ppBP, ppDepth, ppAlive, ppHeld, inItems, 
+                                  inClosed, inWaker, pollFn, chuteFn, pwTaken, 
+                                  nextPoll, ppItem, pjLive, ppStage, h, dead, 
+                                  sti, smax, rq, sq, sj, ww, rsq, bown, bwk, 
+                                  bi, bcur, bw, bsp, jq, jj, jwk, fj, dq, dj, 
+                                  oq, oop, omode, oj, yq, yop, yclaimed, af, 
+                                  wf, wop, sf, sctx, xf, cop, kj, pp, pwk, np, 
+                                  nbp, nres, dp, pf, pctx, pq, pj, pd, nq >>
 
 TrySync(self) == ts_decide(self) \/ z_ts_chk(self) \/ ts_idle(self)
                     \/ z_ts_ret(self) \/ ts_panic(self)
@@ -5006,15 +5099,16 @@ z_aw_poll(self) == /\ pc[self] = "z_aw_poll"
                                    cwait, cnotif, cvHeld, sdres, jpanic, sfst, 
                                    slotSt, qrSent, qrWaker, dnState, dnWaker, 
                                    parkTok, barGen, myBar, cdone, rv, rwb, 
-                                   rneed, dsl, atomic, strong, ppPending, 
-                                   ppClosed, ppNotify, ppNC, ppBP, ppDepth, 
-                                   ppAlive, ppHeld, inItems, inClosed, inWaker, 
-                                   pollFn, chuteFn, pwTaken, nextPoll, ppItem, 
-                                   pjLive, ppStage, h, dead, sti, smax, rq, sq, 
-                                   sj, ww, rsq, bown, bwk, bi, bcur, bw, bsp, 
-                                   jq, jj, jwk, fj, dq, dj, oq, oop, omode, oj, 
-                                   yq, yop, yclaimed, tq, top, af, wf, wop, xf, 
-                                   cop, kj, pp, pwk, np, nbp, nres, dp, nq >>
+                                   rneed, stres, dsl, atomic, strong, 
+                                   ppPending, ppClosed, ppNotify, ppNC, ppBP, 
+                                   ppDepth, ppAlive, ppHeld, inItems, inClosed, 
+                                   inWaker, pollFn, chuteFn, pwTaken, nextPoll, 
+                                   ppItem, pjLive, ppStage, h, dead, sti, smax, 
+                                   rq, sq, sj, ww, rsq, bown, bwk, bi, bcur, 
+                                   bw, bsp, jq, jj, jwk, fj, dq, dj, oq, oop, 
+                                   omode, oj, yq, yop, yclaimed, tq, top, af, 
+                                   wf, wop, xf, cop, kj, pp, pwk, np, nbp, 
+                                   nres, dp, nq >>
 
 z_aw_after(self) == /\ pc[self] = "z_aw_after"
                     /\ IF rv[self] = 5
@@ -5036,17 +5130,17 @@ z_aw_after(self) == /\ pc[self] = "z_aw_after"
                                     cwait, cnotif, cvHeld, sdres, jpanic, sfst, 
                                     slotSt, qrSent, qrWaker, dnState, dnWaker, 
                                     parkTok, barGen, myBar, cdone, rv, rwb, 
-                                    rneed, dsl, atomic, strong, ppPending, 
-                                    ppClosed, ppNotify, ppNC, ppBP, ppDepth, 
-                                    ppAlive, ppHeld, inItems, inClosed, 
-                                    inWaker, pollFn, chuteFn, pwTaken, 
-                                    nextPoll, ppItem, pjLive, ppStage, dead, 
-                                    sti, smax, rq, sq, sj, ww, rsq, bown, bwk, 
-                                    bi, bcur, bw, bsp, jq, jj, jwk, fj, dq, dj, 
-                                    oq, oop, omode, oj, yq, yop, yclaimed, tq, 
-                                    top, wf, wop, sf, sctx, xf, cop, kj, pp, 
-                                    pwk, np, nbp, nres, dp, pf, pctx, pq, pj, 
-                                    pd, nq >>
+                                    rneed, stres, dsl, atomic, strong, 
+                                    ppPending, ppClosed, ppNotify, ppNC, ppBP, 
+                                    ppDepth, ppAlive, ppHeld, inItems, 
+                                    inClosed, inWaker, pollFn, chuteFn, 
+                                    pwTaken, nextPoll, ppItem, pjLive, ppStage, 
+                                    dead, sti, smax, rq, sq, sj, ww, rsq, bown, 
+                                    bwk, bi, bcur, bw, bsp, jq, jj, jwk, fj, 
+                                    dq, dj, oq, oop, omode, oj, yq, yop, 
+                                    yclaimed, tq, top, wf, wop, sf, sctx, xf, 
+                                    cop, kj, pp, pwk, np, nbp, nres, dp, pf, 
+                                    pctx, pq, pj, pd, nq >>
 
 aw_park(self) == /\ pc[self] = "aw_park"
                  /\ parkTok[self]
@@ -5060,16 +5154,16 @@ aw_park(self) == /\ pc[self] = "aw_park"
                                  dblW2, nextDW, ready, cwait, cnotif, cvHeld, 
                                  sdres, jpanic, sfst, slotSt, qrSent, qrWaker, 
                                  dnState, dnWaker, barGen, myBar, cdone, rv, 
-                                 rwb, rneed, dsl, atomic, strong, ppPending, 
-                                 ppClosed, ppNotify, ppNC, ppBP, ppDepth, 
-                                 ppAlive, ppHeld, inItems, inClosed, inWaker, 
-                                 pollFn, chuteFn, pwTaken, nextPoll, ppItem, 
-                                 pjLive, ppStage, h, stack, dead, sti, smax, 
-                                 rq, sq, sj, ww, rsq, bown, bwk, bi, bcur, bw, 
-                                 bsp, jq, jj, jwk, fj, dq, dj, oq, oop, omode, 
-                                 oj, yq, yop, yclaimed, tq, top, af, wf, wop, 
-                                 sf, sctx, xf, cop, kj, pp, pwk, np, nbp, nres, 
-                                 dp, pf, pctx, pq, pj, pd, nq >>
+                                 rwb, rneed, stres, dsl, atomic, strong, 
+                                 ppPending, ppClosed, ppNotify, ppNC, ppBP, 
+                                 ppDepth, ppAlive, ppHeld, inItems, inClosed, 
+                                 inWaker, pollFn, chuteFn, pwTaken, nextPoll, 
+                                 ppItem, pjLive, ppStage, h, stack, dead, sti, 
+                                 smax, rq, sq, sj, ww, rsq, bown, bwk, bi, 
+                                 bcur, bw, bsp, jq, jj, jwk, fj, dq, dj, oq, 
+                                 oop, omode, oj, yq, yop, yclaimed, tq, top, 
+                                 af, wf, wop, sf, sctx, xf, cop, kj, pp, pwk, 
+                                 np, nbp, nres, dp, pf, pctx, pq, pj, pd, nq >>
 
 Await(self) == z_aw_poll(self) \/ z_aw_after(self) \/ aw_park(self)
 
@@ -5111,7 +5205,7 @@ fs_take(self) == /\ pc[self] = "fs_take"
                                  nextDW, ready, cwait, cnotif, cvHeld, sdres, 
                                  jpanic, sfst, slotSt, qrSent, qrWaker, 
                                  dnState, dnWaker, parkTok, barGen, myBar, 
-                                 cdone, rwb, rneed, dsl, atomic, strong, 
+                                 cdone, rwb, rneed, stres, dsl, atomic, strong, 
                                  ppPending, ppClosed, ppNotify, ppNC, ppBP, 
                                  ppDepth, ppAlive, ppHeld, inItems, inClosed, 
                                  inWaker, pollFn, chuteFn, pwTaken, nextPoll, 
@@ -5139,17 +5233,17 @@ z_fs_after(self) == /\ pc[self] = "z_fs_after"
                                     cwait, cnotif, cvHeld, sdres, jpanic, sfst, 
                                     slotSt, qrSent, qrWaker, dnState, dnWaker, 
                                     parkTok, barGen, myBar, cdone, rv, rwb, 
-                                    rneed, dsl, atomic, strong, ppPending, 
-                                    ppClosed, ppNotify, ppNC, ppBP, ppDepth, 
-                                    ppAlive, ppHeld, inItems, inClosed, 
-                                    inWaker, pollFn, chuteFn, pwTaken, 
-                                    nextPoll, ppItem, pjLive, ppStage, dead, 
-                                    sti, smax, rq, sq, sj, ww, rsq, bown, bwk, 
-                                    bi, bcur, bw, bsp, jq, jj, jwk, fj, dq, dj, 
-                                    oq, oop, omode, oj, yq, yop, yclaimed, tq, 
-                                    top, af, sf, sctx, xf, cop, kj, pp, pwk, 
-                                    np, nbp, nres, dp, pf, pctx, pq, pj, pd, 
-                                    nq >>
+                                    rneed, stres, dsl, atomic, strong, 
+                                    ppPending, ppClosed, ppNotify, ppNC, ppBP, 
+                                    ppDepth, ppAlive, ppHeld, inItems, 
+                                    inClosed, inWaker, pollFn, chuteFn, 
+                                    pwTaken, nextPoll, ppItem, pjLive, ppStage, 
+                                    dead, sti, smax, rq, sq, sj, ww, rsq, bown, 
+                                    bwk, bi, bcur, bw, bsp, jq, jj, jwk, fj, 
+                                    dq, dj, oq, oop, omode, oj, yq, yop, 
+                                    yclaimed, tq, top, af, sf, sctx, xf, cop, 
+                                    kj, pp, pwk, np, nbp, nres, dp, pf, pctx, 
+                                    pq, pj, pd, nq >>
 
 WaitSync(self) == fs_take(self) \/ z_fs_after(self)
 
@@ -5222,15 +5316,15 @@ z_ps(self) == /\ pc[self] = "z_ps"
                               dwW, dblTaken, dblW1, dblW2, nextDW, ready, 
                               cwait, cnotif, cvHeld, sdres, jpanic, sfst, 
                               slotSt, qrSent, qrWaker, dnState, dnWaker, 
-                              parkTok, barGen, myBar, cdone, rwb, rneed, dsl, 
-                              atomic, strong, ppPending, ppClosed, ppNotify, 
-                              ppNC, ppBP, ppDepth, ppAlive, ppHeld, inItems, 
-                              inClosed, inWaker, pollFn, chuteFn, pwTaken, 
-                              nextPoll, ppItem, pjLive, ppStage, h, dead, sti, 
-                              smax, rq, sq, sj, ww, jq, jj, jwk, fj, dq, dj, 
-                              oq, oop, omode, oj, yq, yop, yclaimed, tq, top, 
-                              af, wf, wop, xf, cop, kj, pp, pwk, np, nbp, nres, 
-                              dp, nq >>
+                              parkTok, barGen, myBar, cdone, rwb, rneed, stres, 
+                              dsl, atomic, strong, ppPending, ppClosed, 
+                              ppNotify, ppNC, ppBP, ppDepth, ppAlive, ppHeld, 
+                              inItems, inClosed, inWaker, pollFn, chuteFn, 
+                              pwTaken, nextPoll, ppItem, pjLive, ppStage, h, 
+                              dead, sti, smax, rq, sq, sj, ww, jq, jj, jwk, fj, 
+                              dq, dj, oq, oop, omode, oj, yq, yop, yclaimed, 
+                              tq, top, af, wf, wop, xf, cop, kj, pp, pwk, np, 
+                              nbp, nres, dp, nq >>
 
 z_ps_q(self) == /\ pc[self] = "z_ps_q"
                 /\ IF rv[self] \in {2, 4}
@@ -5280,15 +5374,16 @@ z_ps_q(self) == /\ pc[self] = "z_ps_q"
                                 gthreads, gwhist, dwSt, dwW, dblTaken, dblW1, 
                                 dblW2, nextDW, ready, cwait, cnotif, cvHeld, 
                                 sdres, jpanic, slotSt, qrSent, dnWaker, 
-                                parkTok, barGen, myBar, cdone, rwb, rneed, dsl, 
-                                atomic, strong, ppPending, ppClosed, ppNotify, 
-                                ppNC, ppBP, ppDepth, ppAlive, ppHeld, inItems, 
-                                inClosed, inWaker, pollFn, chuteFn, pwTaken, 
-                                nextPoll, ppItem, pjLive, ppStage, dead, sti, 
-                                smax, rq, sq, sj, ww, jq, jj, jwk, fj, dq, dj, 
-                                oq, oop, omode, oj, yq, yop, yclaimed, tq, top, 
-                                af, wf, wop, xf, cop, kj, pp, pwk, np, nbp, 
-                                nres, dp, pf, pctx, pq, pj, pd, nq >>
+                                parkTok, barGen, myBar, cdone, rwb, rneed, 
+                                stres, dsl, atomic, strong, ppPending, 
+                                ppClosed, ppNotify, ppNC, ppBP, ppDepth, 
+                                ppAlive, ppHeld, inItems, inClosed, inWaker, 
+                                pollFn, chuteFn, pwTaken, nextPoll, ppItem, 
+                                pjLive, ppStage, dead, sti, smax, rq, sq, sj, 
+                                ww, jq, jj, jwk, fj, dq, dj, oq, oop, omode, 
+                                oj, yq, yop, yclaimed, tq, top, af, wf, wop, 
+                                xf, cop, kj, pp, pwk, np, nbp, nres, dp, pf, 
+                                pctx, pq, pj, pd, nq >>
 
 z_ps_f(self) == /\ pc[self] = "z_ps_f"
                 /\ IF rv[self] = 5
@@ -5333,15 +5428,16 @@ z_ps_f(self) == /\ pc[self] = "z_ps_f"
                                 dblW2, nextDW, ready, cwait, cnotif, cvHeld, 
                                 sdres, jpanic, slotSt, qrSent, qrWaker, 
                                 dnWaker, barGen, myBar, cdone, rv, rwb, rneed, 
-                                dsl, atomic, strong, ppPending, ppClosed, 
-                                ppNotify, ppNC, ppBP, ppDepth, ppAlive, ppHeld, 
-                                inItems, inClosed, inWaker, pollFn, chuteFn, 
-                                pwTaken, nextPoll, ppItem, pjLive, ppStage, h, 
-                                dead, sti, smax, rq, sq, sj, rsq, bown, bwk, 
-                                bi, bcur, bw, bsp, jq, jj, jwk, fj, dq, dj, oq, 
-                                oop, omode, oj, yq, yop, yclaimed, tq, top, af, 
-                                wf, wop, xf, cop, kj, pp, pwk, np, nbp, nres, 
-                                dp, pf, pctx, pq, pj, pd, nq >>
+                                stres, dsl, atomic, strong, ppPending, 
+                                ppClosed, ppNotify, ppNC, ppBP, ppDepth, 
+                                ppAlive, ppHeld, inItems, inClosed, inWaker, 
+                                pollFn, chuteFn, pwTaken, nextPoll, ppItem, 
+                                pjLive, ppStage, h, dead, sti, smax, rq, sq, 
+                                sj, rsq, bown, bwk, bi, bcur, bw, bsp, jq, jj, 
+                                jwk, fj, dq, dj, oq, oop, omode, oj, yq, yop, 
+                                yclaimed, tq, top, af, wf, wop, xf, cop, kj, 
+                                pp, pwk, np, nbp, nres, dp, pf, pctx, pq, pj, 
+                                pd, nq >>
 
 z_ps_s(self) == /\ pc[self] = "z_ps_s"
                 /\ /\ pctx' = [pctx EXCEPT ![self] = sctx[self]]
@@ -5366,16 +5462,16 @@ z_ps_s(self) == /\ pc[self] = "z_ps_s"
                                 dblW2, nextDW, ready, cwait, cnotif, cvHeld, 
                                 sdres, jpanic, sfst, slotSt, qrSent, qrWaker, 
                                 dnState, dnWaker, parkTok, barGen, myBar, 
-                                cdone, rv, rwb, rneed, dsl, atomic, strong, 
-                                ppPending, ppClosed, ppNotify, ppNC, ppBP, 
-                                ppDepth, ppAlive, ppHeld, inItems, inClosed, 
-                                inWaker, pollFn, chuteFn, pwTaken, nextPoll, 
-                                ppItem, pjLive, ppStage, h, dead, sti, smax, 
-                                rq, sq, sj, ww, rsq, bown, bwk, bi, bcur, bw, 
-                                bsp, jq, jj, jwk, fj, dq, dj, oq, oop, omode, 
-                                oj, yq, yop, yclaimed, tq, top, af, wf, wop, 
-                                sf, sctx, xf, cop, kj, pp, pwk, np, nbp, nres, 
-                                dp, nq >>
+                                cdone, rv, rwb, rneed, stres, dsl, atomic, 
+                                strong, ppPending, ppClosed, ppNotify, ppNC, 
+                                ppBP, ppDepth, ppAlive, ppHeld, inItems, 
+                                inClosed, inWaker, pollFn, chuteFn, pwTaken, 
+                                nextPoll, ppItem, pjLive, ppStage, h, dead, 
+                                sti, smax, rq, sq, sj, ww, rsq, bown, bwk, bi, 
+                                bcur, bw, bsp, jq, jj, jwk, fj, dq, dj, oq, 
+                                oop, omode, oj, yq, yop, yclaimed, tq, top, af, 
+                                wf, wop, sf, sctx, xf, cop, kj, pp, pwk, np, 
+                                nbp, nres, dp, nq >>
 
 z_ps_s2(self) == /\ pc[self] = "z_ps_s2"
                  /\ IF rv[self] = 5
@@ -5398,7 +5494,7 @@ z_ps_s2(self) == /\ pc[self] = "z_ps_s2"
                                  dblW2, nextDW, ready, cwait, cnotif, cvHeld, 
                                  sdres, jpanic, slotSt, qrSent, qrWaker, 
                                  dnState, dnWaker, parkTok, barGen, myBar, 
-                                 cdone, rwb, rneed, dsl, atomic, strong, 
+                                 cdone, rwb, rneed, stres, dsl, atomic, strong, 
                                  ppPending, ppClosed, ppNotify, ppNC, ppBP, 
                                  ppDepth, ppAlive, ppHeld, inItems, inClosed, 
                                  inWaker, pollFn, chuteFn, pwTaken, nextPoll, 
@@ -5424,16 +5520,16 @@ z_ps_panic(self) == /\ pc[self] = "z_ps_panic"
                                     cwait, cnotif, cvHeld, sdres, jpanic, sfst, 
                                     slotSt, qrSent, qrWaker, dnState, dnWaker, 
                                     parkTok, barGen, myBar, cdone, rwb, rneed, 
-                                    dsl, atomic, strong, ppPending, ppClosed, 
-                                    ppNotify, ppNC, ppBP, ppDepth, ppAlive, 
-                                    ppHeld, inItems, inClosed, inWaker, pollFn, 
-                                    chuteFn, pwTaken, nextPoll, ppItem, pjLive, 
-                                    ppStage, h, dead, sti, smax, rq, sq, sj, 
-                                    ww, rsq, bown, bwk, bi, bcur, bw, bsp, jq, 
-                                    jj, jwk, fj, dq, dj, oq, oop, omode, oj, 
-                                    yq, yop, yclaimed, tq, top, af, wf, wop, 
-                                    xf, cop, kj, pp, pwk, np, nbp, nres, dp, 
-                                    pf, pctx, pq, pj, pd, nq >>
+                                    stres, dsl, atomic, strong, ppPending, 
+                                    ppClosed, ppNotify, ppNC, ppBP, ppDepth, 
+                                    ppAlive, ppHeld, inItems, inClosed, 
+                                    inWaker, pollFn, chuteFn, pwTaken, 
+                                    nextPoll, ppItem, pjLive, ppStage, h, dead, 
+                                    sti, smax, rq, sq, sj, ww, rsq, bown, bwk, 
+                                    bi, bcur, bw, bsp, jq, jj, jwk, fj, dq, dj, 
+                                    oq, oop, omode, oj, yq, yop, yclaimed, tq, 
+                                    top, af, wf, wop, xf, cop, kj, pp, pwk, np, 
+                                    nbp, nres, dp, pf, pctx, pq, pj, pd, nq >>
 
 PollSync(self) == z_ps(self) \/ z_ps_q(self) \/ z_ps_f(self)
                      \/ z_ps_s(self) \/ z_ps_s2(self) \/ z_ps_panic(self)
@@ -5469,14 +5565,14 @@ z_df(self) == /\ pc[self] = "z_df"
                               gthreads, gwhist, dwSt, dwW, dblTaken, dblW1, 
                               dblW2, nextDW, ready, cwait, cnotif, cvHeld, 
                               sdres, jpanic, slotSt, qrSent, qrWaker, dnWaker, 
-                              parkTok, barGen, myBar, cdone, rwb, rneed, dsl, 
-                              atomic, strong, ppPending, ppClosed, ppNotify, 
-                              ppNC, ppBP, ppDepth, ppAlive, ppHeld, inItems, 
-                              inClosed, inWaker, pollFn, chuteFn, pwTaken, 
-                              nextPoll, ppItem, pjLive, ppStage, dead, sti, 
-                              smax, rq, sq, sj, rsq, bown, bwk, bi, bcur, bw, 
-                              bsp, jq, jj, jwk, fj, dq, dj, oq, oop, omode, oj, 
-                              yq, yop, yclaimed, tq, top, af, wf, wop, sf, 
+                              parkTok, barGen, myBar, cdone, rwb, rneed, stres, 
+                              dsl, atomic, strong, ppPending, ppClosed, 
+                              ppNotify, ppNC, ppBP, ppDepth, ppAlive, ppHeld, 
+                              inItems, inClosed, inWaker, pollFn, chuteFn, 
+                              pwTaken, nextPoll, ppItem, pjLive, ppStage, dead, 
+                              sti, smax, rq, sq, sj, rsq, bown, bwk, bi, bcur, 
+                              bw, bsp, jq, jj, jwk, fj, dq, dj, oq, oop, omode, 
+                              oj, yq, yop, yclaimed, tq, top, af, wf, wop, sf, 
                               sctx, cop, kj, pp, pwk, np, nbp, nres, dp, pf, 
                               pctx, pq, pj, pd, nq >>
 
@@ -5493,16 +5589,16 @@ z_df2(self) == /\ pc[self] = "z_df2"
                                dblW2, nextDW, ready, cwait, cnotif, cvHeld, 
                                sdres, jpanic, sfst, slotSt, qrSent, qrWaker, 
                                dnState, dnWaker, parkTok, barGen, myBar, cdone, 
-                               rwb, rneed, dsl, atomic, strong, ppPending, 
-                               ppClosed, ppNotify, ppNC, ppBP, ppDepth, 
-                               ppAlive, ppHeld, inItems, inClosed, inWaker, 
-                               pollFn, chuteFn, pwTaken, nextPoll, ppItem, 
-                               pjLive, ppStage, h, dead, sti, smax, rq, sq, sj, 
-                               ww, rsq, bown, bwk, bi, bcur, bw, bsp, jq, jj, 
-                               jwk, fj, dq, dj, oq, oop, omode, oj, yq, yop, 
-                               yclaimed, tq, top, af, wf, wop, sf, sctx, cop, 
-                               kj, pp, pwk, np, nbp, nres, dp, pf, pctx, pq, 
-                               pj, pd, nq >>
+                               rwb, rneed, stres, dsl, atomic, strong, 
+                               ppPending, ppClosed, ppNotify, ppNC, ppBP, 
+                               ppDepth, ppAlive, ppHeld, inItems, inClosed, 
+                               inWaker, pollFn, chuteFn, pwTaken, nextPoll, 
+                               ppItem, pjLive, ppStage, h, dead, sti, smax, rq, 
+                               sq, sj, ww, rsq, bown, bwk, bi, bcur, bw, bsp, 
+                               jq, jj, jwk, fj, dq, dj, oq, oop, omode, oj, yq, 
+                               yop, yclaimed, tq, top, af, wf, wop, sf, sctx, 
+                               cop, kj, pp, pwk, np, nbp, nres, dp, pf, pctx, 
+                               pq, pj, pd, nq >>
 
 DropFuture(self) == z_df(self) \/ z_df2(self)
 
@@ -5529,15 +5625,15 @@ z_pcr1(self) == /\ pc[self] = "z_pcr1"
                                 nextDW, ready, cwait, cnotif, cvHeld, sdres, 
                                 jpanic, sfst, slotSt, qrSent, qrWaker, dnState, 
                                 dnWaker, parkTok, barGen, myBar, cdone, rv, 
-                                rwb, rneed, dsl, atomic, ppPending, ppClosed, 
-                                ppNotify, ppNC, ppBP, ppDepth, ppHeld, inItems, 
-                                inClosed, inWaker, chuteFn, pwTaken, ppItem, 
-                                ppStage, h, dead, sti, smax, rq, ww, rsq, bown, 
-                                bwk, bi, bcur, bw, bsp, jq, jj, jwk, fj, dq, 
-                                dj, oq, oop, omode, oj, yq, yop, yclaimed, tq, 
-                                top, af, wf, wop, sf, sctx, xf, cop, kj, pp, 
-                                pwk, np, nbp, nres, dp, pf, pctx, pq, pj, pd, 
-                                nq >>
+                                rwb, rneed, stres, dsl, atomic, ppPending, 
+                                ppClosed, ppNotify, ppNC, ppBP, ppDepth, 
+                                ppHeld, inItems, inClosed, inWaker, chuteFn, 
+                                pwTaken, ppItem, ppStage, h, dead, sti, smax, 
+                                rq, ww, rsq, bown, bwk, bi, bcur, bw, bsp, jq, 
+                                jj, jwk, fj, dq, dj, oq, oop, omode, oj, yq, 
+                                yop, yclaimed, tq, top, af, wf, wop, sf, sctx, 
+                                xf, cop, kj, pp, pwk, np, nbp, nres, dp, pf, 
+                                pctx, pq, pj, pd, nq >>
 
 z_pcr2(self) == /\ pc[self] = "z_pcr2"
                 /\ strong' = [strong EXCEPT ![O(cop[self])] = strong[O(cop[self])] - 1]
@@ -5559,16 +5655,16 @@ z_pcr2(self) == /\ pc[self] = "z_pcr2"
                                 dblW2, nextDW, ready, cwait, cnotif, cvHeld, 
                                 sdres, jpanic, sfst, slotSt, qrSent, qrWaker, 
                                 dnState, dnWaker, parkTok, barGen, myBar, 
-                                cdone, rv, rwb, rneed, dsl, atomic, ppPending, 
-                                ppClosed, ppNotify, ppNC, ppBP, ppDepth, 
-                                ppAlive, ppHeld, inItems, inClosed, inWaker, 
-                                pollFn, chuteFn, pwTaken, nextPoll, ppItem, 
-                                pjLive, ppStage, h, dead, sti, smax, rq, sq, 
-                                sj, ww, rsq, bown, bwk, bi, bcur, bw, bsp, jq, 
-                                jj, jwk, fj, dq, dj, oq, oop, omode, oj, tq, 
-                                top, af, wf, wop, sf, sctx, xf, cop, kj, pp, 
-                                pwk, np, nbp, nres, dp, pf, pctx, pq, pj, pd, 
-                                nq >>
+                                cdone, rv, rwb, rneed, stres, dsl, atomic, 
+                                ppPending, ppClosed, ppNotify, ppNC, ppBP, 
+                                ppDepth, ppAlive, ppHeld, inItems, inClosed, 
+                                inWaker, pollFn, chuteFn, pwTaken, nextPoll, 
+                                ppItem, pjLive, ppStage, h, dead, sti, smax, 
+                                rq, sq, sj, ww, rsq, bown, bwk, bi, bcur, bw, 
+                                bsp, jq, jj, jwk, fj, dq, dj, oq, oop, omode, 
+                                oj, tq, top, af, wf, wop, sf, sctx, xf, cop, 
+                                kj, pp, pwk, np, nbp, nres, dp, pf, pctx, pq, 
+                                pj, pd, nq >>
 
 z_pcr3(self) == /\ pc[self] = "z_pcr3"
                 /\ pc' = [pc EXCEPT ![self] = Head(stack[self]).pc]
@@ -5582,16 +5678,16 @@ z_pcr3(self) == /\ pc[self] = "z_pcr3"
                                 dblW2, nextDW, ready, cwait, cnotif, cvHeld, 
                                 sdres, jpanic, sfst, slotSt, qrSent, qrWaker, 
                                 dnState, dnWaker, parkTok, barGen, myBar, 
-                                cdone, rv, rwb, rneed, dsl, atomic, strong, 
-                                ppPending, ppClosed, ppNotify, ppNC, ppBP, 
-                                ppDepth, ppAlive, ppHeld, inItems, inClosed, 
-                                inWaker, pollFn, chuteFn, pwTaken, nextPoll, 
-                                ppItem, pjLive, ppStage, h, dead, sti, smax, 
-                                rq, sq, sj, ww, rsq, bown, bwk, bi, bcur, bw, 
-                                bsp, jq, jj, jwk, fj, dq, dj, oq, oop, omode, 
-                                oj, yq, yop, yclaimed, tq, top, af, wf, wop, 
-                                sf, sctx, xf, kj, pp, pwk, np, nbp, nres, dp, 
-                                pf, pctx, pq, pj, pd, nq >>
+                                cdone, rv, rwb, rneed, stres, dsl, atomic, 
+                                strong, ppPending, ppClosed, ppNotify, ppNC, 
+                                ppBP, ppDepth, ppAlive, ppHeld, inItems, 
+                                inClosed, inWaker, pollFn, chuteFn, pwTaken, 
+                                nextPoll, ppItem, pjLive, ppStage, h, dead, 
+                                sti, smax, rq, sq, sj, ww, rsq, bown, bwk, bi, 
+                                bcur, bw, bsp, jq, jj, jwk, fj, dq, dj, oq, 
+                                oop, omode, oj, yq, yop, yclaimed, tq, top, af, 
+                                wf, wop, sf, sctx, xf, kj, pp, pwk, np, nbp, 
+                                nres, dp, pf, pctx, pq, pj, pd, nq >>
 
 PipeCreate(self) == z_pcr1(self) \/ z_pcr2(self) \/ z_pcr3(self)
 
@@ -5608,12 +5704,12 @@ z_pp_entry(self) == /\ pc[self] = "z_pp_entry"
                                     cwait, cnotif, cvHeld, sdres, jpanic, sfst, 
                                     slotSt, qrSent, qrWaker, dnState, dnWaker, 
                                     parkTok, barGen, myBar, cdone, rv, rwb, 
-                                    rneed, dsl, atomic, strong, ppPending, 
-                                    ppClosed, ppNotify, ppNC, ppBP, ppDepth, 
-                                    ppAlive, ppHeld, inItems, inClosed, 
-                                    inWaker, pollFn, chuteFn, pwTaken, 
-                                    nextPoll, ppItem, pjLive, ppStage, h, 
-                                    stack, dead, sti, smax, rq, sq, sj, ww, 
+                                    rneed, stres, dsl, atomic, strong, 
+                                    ppPending, ppClosed, ppNotify, ppNC, ppBP, 
+                                    ppDepth, ppAlive, ppHeld, inItems, 
+                                    inClosed, inWaker, pollFn, chuteFn, 
+                                    pwTaken, nextPoll, ppItem, pjLive, ppStage, 
+                                    h, stack, dead, sti, smax, rq, sq, sj, ww, 
                                     rsq, bown, bwk, bi, bcur, bw, bsp, jq, jj, 
                                     jwk, fj, dq, dj, oq, oop, omode, oj, yq, 
                                     yop, yclaimed, tq, top, af, wf, wop, sf, 
@@ -5646,13 +5742,13 @@ pp_fn(self) == /\ pc[self] = "pp_fn"
                                dblW2, nextDW, ready, cwait, cnotif, cvHeld, 
                                sdres, jpanic, sfst, slotSt, qrSent, qrWaker, 
                                dnState, dnWaker, parkTok, barGen, myBar, cdone, 
-                               rwb, rneed, dsl, atomic, strong, ppPending, 
-                               ppClosed, ppNotify, ppNC, ppBP, ppDepth, 
-                               ppAlive, inItems, inClosed, inWaker, pollFn, 
-                               chuteFn, pwTaken, nextPoll, ppItem, pjLive, 
-                               ppStage, h, dead, sti, smax, rq, sq, sj, ww, 
-                               rsq, bown, bwk, bi, bcur, bw, bsp, jq, jj, jwk, 
-                               fj, dq, dj, oq, oop, omode, oj, yq, yop, 
+                               rwb, rneed, stres, dsl, atomic, strong, 
+                               ppPending, ppClosed, ppNotify, ppNC, ppBP, 
+                               ppDepth, ppAlive, inItems, inClosed, inWaker, 
+                               pollFn, chuteFn, pwTaken, nextPoll, ppItem, 
+                               pjLive, ppStage, h, dead, sti, smax, rq, sq, sj, 
+                               ww, rsq, bown, bwk, bi, bcur, bw, bsp, jq, jj, 
+                               jwk, fj, dq, dj, oq, oop, omode, oj, yq, yop, 
                                yclaimed, tq, top, af, wf, wop, sf, sctx, xf, 
                                cop, np, nbp, nres, dp, pf, pctx, pq, pj, pd, 
                                nq >>
@@ -5679,15 +5775,16 @@ pp_bp(self) == /\ pc[self] = "pp_bp"
                                dblW2, nextDW, ready, cwait, cnotif, cvHeld, 
                                sdres, jpanic, sfst, slotSt, qrSent, qrWaker, 
                                dnState, dnWaker, parkTok, barGen, myBar, cdone, 
-                               rwb, rneed, dsl, atomic, strong, ppPending, 
-                               ppClosed, ppNotify, ppNC, ppDepth, ppAlive, 
-                               inItems, inClosed, inWaker, pollFn, chuteFn, 
-                               pwTaken, nextPoll, ppItem, pjLive, ppStage, h, 
-                               dead, sti, smax, rq, sq, sj, ww, rsq, bown, bwk, 
-                               bi, bcur, bw, bsp, jq, jj, jwk, fj, dq, dj, oq, 
-                               oop, omode, oj, yq, yop, yclaimed, tq, top, af, 
-                               wf, wop, sf, sctx, xf, cop, np, nbp, nres, dp, 
-                               pf, pctx, pq, pj, pd, nq >>
+                               rwb, rneed, stres, dsl, atomic, strong, 
+                               ppPending, ppClosed, ppNotify, ppNC, ppDepth, 
+                               ppAlive, inItems, inClosed, inWaker, pollFn, 
+                               chuteFn, pwTaken, nextPoll, ppItem, pjLive, 
+                               ppStage, h, dead, sti, smax, rq, sq, sj, ww, 
+                               rsq, bown, bwk, bi, bcur, bw, bsp, jq, jj, jwk, 
+                               fj, dq, dj, oq, oop, omode, oj, yq, yop, 
+                               yclaimed, tq, top, af, wf, wop, sf, sctx, xf, 
+                               cop, np, nbp, nres, dp, pf, pctx, pq, pj, pd, 
+                               nq >>
 
 pp_clear(self) == /\ pc[self] = "pp_clear"
                   /\ IF FixD5 /\ ppClosed[pp[self]]
@@ -5705,16 +5802,16 @@ pp_clear(self) == /\ pc[self] = "pp_clear"
                                   dblW2, nextDW, ready, cwait, cnotif, cvHeld, 
                                   sdres, jpanic, sfst, slotSt, qrSent, qrWaker, 
                                   dnState, dnWaker, parkTok, barGen, myBar, 
-                                  cdone, rv, rwb, rneed, dsl, atomic, strong, 
-                                  ppPending, ppClosed, ppNotify, ppBP, ppDepth, 
-                                  ppAlive, inItems, inClosed, inWaker, pollFn, 
-                                  chuteFn, pwTaken, nextPoll, ppItem, pjLive, 
-                                  ppStage, h, stack, dead, sti, smax, rq, sq, 
-                                  sj, ww, rsq, bown, bwk, bi, bcur, bw, bsp, 
-                                  jq, jj, jwk, fj, dq, dj, oq, oop, omode, oj, 
-                                  yq, yop, yclaimed, tq, top, af, wf, wop, sf, 
-                                  sctx, xf, cop, kj, pp, pwk, np, nbp, nres, 
-                                  dp, pf, pctx, pq, pj, pd, nq >>
+                                  cdone, rv, rwb, rneed, stres, dsl, atomic, 
+                                  strong, ppPending, ppClosed, ppNotify, ppBP, 
+                                  ppDepth, ppAlive, inItems, inClosed, inWaker, 
+                                  pollFn, chuteFn, pwTaken, nextPoll, ppItem, 
+                                  pjLive, ppStage, h, stack, dead, sti, smax, 
+                                  rq, sq, sj, ww, rsq, bown, bwk, bi, bcur, bw, 
+                                  bsp, jq, jj, jwk, fj, dq, dj, oq, oop, omode, 
+                                  oj, yq, yop, yclaimed, tq, top, af, wf, wop, 
+                                  sf, sctx, xf, cop, kj, pp, pwk, np, nbp, 
+                                  nres, dp, pf, pctx, pq, pj, pd, nq >>
 
 pp_in(self) == /\ pc[self] = "pp_in"
                /\ IF inItems[pp[self]] # << >>
@@ -5736,16 +5833,16 @@ pp_in(self) == /\ pc[self] = "pp_in"
                                dblW2, nextDW, ready, cwait, cnotif, cvHeld, 
                                sdres, jpanic, sfst, slotSt, qrSent, qrWaker, 
                                dnState, dnWaker, parkTok, barGen, myBar, cdone, 
-                               rv, rwb, rneed, dsl, atomic, strong, ppPending, 
-                               ppClosed, ppNotify, ppNC, ppBP, ppDepth, 
-                               ppAlive, ppHeld, inClosed, inWaker, pollFn, 
-                               chuteFn, pwTaken, nextPoll, pjLive, ppStage, 
-                               stack, dead, sti, smax, rq, sq, sj, ww, rsq, 
-                               bown, bwk, bi, bcur, bw, bsp, jq, jj, jwk, fj, 
-                               dq, dj, oq, oop, omode, oj, yq, yop, yclaimed, 
-                               tq, top, af, wf, wop, sf, sctx, xf, cop, kj, pp, 
-                               pwk, np, nbp, nres, dp, pf, pctx, pq, pj, pd, 
-                               nq >>
+                               rv, rwb, rneed, stres, dsl, atomic, strong, 
+                               ppPending, ppClosed, ppNotify, ppNC, ppBP, 
+                               ppDepth, ppAlive, ppHeld, inClosed, inWaker, 
+                               pollFn, chuteFn, pwTaken, nextPoll, pjLive, 
+                               ppStage, stack, dead, sti, smax, rq, sq, sj, ww, 
+                               rsq, bown, bwk, bi, bcur, bw, bsp, jq, jj, jwk, 
+                               fj, dq, dj, oq, oop, omode, oj, yq, yop, 
+                               yclaimed, tq, top, af, wf, wop, sf, sctx, xf, 
+                               cop, kj, pp, pwk, np, nbp, nres, dp, pf, pctx, 
+                               pq, pj, pd, nq >>
 
 pp_in2(self) == /\ pc[self] = "pp_in2"
                 /\ inWaker' = [inWaker EXCEPT ![pp[self]] = PW(kj[self])]
@@ -5768,16 +5865,16 @@ pp_in2(self) == /\ pc[self] = "pp_in2"
                                 dblW2, nextDW, ready, cwait, cnotif, cvHeld, 
                                 sdres, jpanic, sfst, slotSt, qrSent, qrWaker, 
                                 dnState, dnWaker, parkTok, barGen, myBar, 
-                                cdone, rv, rwb, rneed, dsl, atomic, strong, 
-                                ppPending, ppClosed, ppNotify, ppNC, ppBP, 
-                                ppDepth, ppAlive, ppHeld, inClosed, pollFn, 
-                                chuteFn, pwTaken, nextPoll, pjLive, ppStage, 
-                                stack, dead, sti, smax, rq, sq, sj, ww, rsq, 
-                                bown, bwk, bi, bcur, bw, bsp, jq, jj, jwk, fj, 
-                                dq, dj, oq, oop, omode, oj, yq, yop, yclaimed, 
-                                tq, top, af, wf, wop, sf, sctx, xf, cop, kj, 
-                                pp, pwk, np, nbp, nres, dp, pf, pctx, pq, pj, 
-                                pd, nq >>
+                                cdone, rv, rwb, rneed, stres, dsl, atomic, 
+                                strong, ppPending, ppClosed, ppNotify, ppNC, 
+                                ppBP, ppDepth, ppAlive, ppHeld, inClosed, 
+                                pollFn, chuteFn, pwTaken, nextPoll, pjLive, 
+                                ppStage, stack, dead, sti, smax, rq, sq, sj, 
+                                ww, rsq, bown, bwk, bi, bcur, bw, bsp, jq, jj, 
+                                jwk, fj, dq, dj, oq, oop, omode, oj, yq, yop, 
+                                yclaimed, tq, top, af, wf, wop, sf, sctx, xf, 
+                                cop, kj, pp, pwk, np, nbp, nres, dp, pf, pctx, 
+                                pq, pj, pd, nq >>
 
 pp_reg(self) == /\ pc[self] = "pp_reg"
                 /\ IF FixD5 /\ ppClosed[pp[self]]
@@ -5800,7 +5897,7 @@ pp_reg(self) == /\ pc[self] = "pp_reg"
                                 dblW2, nextDW, ready, cwait, cnotif, cvHeld, 
                                 sdres, jpanic, sfst, slotSt, qrSent, qrWaker, 
                                 dnState, dnWaker, parkTok, barGen, myBar, 
-                                cdone, rwb, rneed, dsl, atomic, strong, 
+                                cdone, rwb, rneed, stres, dsl, atomic, strong, 
                                 ppPending, ppClosed, ppNotify, ppBP, ppDepth, 
                                 ppAlive, inItems, inClosed, inWaker, pollFn, 
                                 chuteFn, pwTaken, nextPoll, ppItem, pjLive, 
@@ -5825,16 +5922,16 @@ pp_end(self) == /\ pc[self] = "pp_end"
                                 dblW2, nextDW, ready, cwait, cnotif, cvHeld, 
                                 sdres, jpanic, sfst, slotSt, qrSent, qrWaker, 
                                 dnState, dnWaker, barGen, myBar, cdone, rv, 
-                                rwb, rneed, dsl, atomic, strong, ppPending, 
-                                ppNC, ppBP, ppDepth, ppAlive, inItems, 
-                                inClosed, inWaker, pollFn, chuteFn, pwTaken, 
-                                nextPoll, ppItem, pjLive, ppStage, h, stack, 
-                                dead, sti, smax, rq, sq, sj, ww, rsq, bown, 
-                                bwk, bi, bcur, bw, bsp, jq, jj, jwk, fj, dq, 
-                                dj, oq, oop, omode, oj, yq, yop, yclaimed, tq, 
-                                top, af, wf, wop, sf, sctx, xf, cop, kj, pp, 
-                                pwk, np, nbp, nres, dp, pf, pctx, pq, pj, pd, 
-                                nq >>
+                                rwb, rneed, stres, dsl, atomic, strong, 
+                                ppPending, ppNC, ppBP, ppDepth, ppAlive, 
+                                inItems, inClosed, inWaker, pollFn, chuteFn, 
+                                pwTaken, nextPoll, ppItem, pjLive, ppStage, h, 
+                                stack, dead, sti, smax, rq, sq, sj, ww, rsq, 
+                                bown, bwk, bi, bcur, bw, bsp, jq, jj, jwk, fj, 
+                                dq, dj, oq, oop, omode, oj, yq, yop, yclaimed, 
+                                tq, top, af, wf, wop, sf, sctx, xf, cop, kj, 
+                                pp, pwk, np, nbp, nres, dp, pf, pctx, pq, pj, 
+                                pd, nq >>
 
 pp_closed(self) == /\ pc[self] = "pp_closed"
                    /\ parkTok' = Unpark(parkTok, TaskOf(ppNotify[pp[self]]))
@@ -5849,17 +5946,17 @@ pp_closed(self) == /\ pc[self] = "pp_closed"
                                    dblTaken, dblW1, dblW2, nextDW, ready, 
                                    cwait, cnotif, cvHeld, sdres, jpanic, sfst, 
                                    slotSt, qrSent, qrWaker, dnState, dnWaker, 
-                                   barGen, myBar, cdone, rv, rwb, rneed, dsl, 
-                                   atomic, strong, ppPending, ppClosed, ppNC, 
-                                   ppBP, ppDepth, ppAlive, inItems, inClosed, 
-                                   inWaker, pollFn, chuteFn, pwTaken, nextPoll, 
-                                   ppItem, pjLive, ppStage, h, stack, dead, 
-                                   sti, smax, rq, sq, sj, ww, rsq, bown, bwk, 
-                                   bi, bcur, bw, bsp, jq, jj, jwk, fj, dq, dj, 
-                                   oq, oop, omode, oj, yq, yop, yclaimed, tq, 
-                                   top, af, wf, wop, sf, sctx, xf, cop, kj, pp, 
-                                   pwk, np, nbp, nres, dp, pf, pctx, pq, pj, 
-                                   pd, nq >>
+                                   barGen, myBar, cdone, rv, rwb, rneed, stres, 
+                                   dsl, atomic, strong, ppPending, ppClosed, 
+                                   ppNC, ppBP, ppDepth, ppAlive, inItems, 
+                                   inClosed, inWaker, pollFn, chuteFn, pwTaken, 
+                                   nextPoll, ppItem, pjLive, ppStage, h, stack, 
+                                   dead, sti, smax, rq, sq, sj, ww, rsq, bown, 
+                                   bwk, bi, bcur, bw, bsp, jq, jj, jwk, fj, dq, 
+                                   dj, oq, oop, omode, oj, yq, yop, yclaimed, 
+                                   tq, top, af, wf, wop, sf, sctx, xf, cop, kj, 
+                                   pp, pwk, np, nbp, nres, dp, pf, pctx, pq, 
+                                   pj, pd, nq >>
 
 pp_proc(self) == /\ pc[self] = "pp_proc"
                  /\ h' = ObsProcStart(h, self, pp[self], ppItem[kj[self]])
@@ -5872,16 +5969,17 @@ pp_proc(self) == /\ pc[self] = "pp_proc"
                                  dblW2, nextDW, ready, cwait, cnotif, cvHeld, 
                                  sdres, jpanic, sfst, slotSt, qrSent, qrWaker, 
                                  dnState, dnWaker, parkTok, barGen, myBar, 
-                                 cdone, rv, rwb, rneed, dsl, atomic, strong, 
-                                 ppPending, ppClosed, ppNotify, ppNC, ppBP, 
-                                 ppDepth, ppAlive, ppHeld, inItems, inClosed, 
-                                 inWaker, pollFn, chuteFn, pwTaken, nextPoll, 
-                                 ppItem, pjLive, ppStage, stack, dead, sti, 
-                                 smax, rq, sq, sj, ww, rsq, bown, bwk, bi, 
-                                 bcur, bw, bsp, jq, jj, jwk, fj, dq, dj, oq, 
-                                 oop, omode, oj, yq, yop, yclaimed, tq, top, 
-                                 af, wf, wop, sf, sctx, xf, cop, kj, pp, pwk, 
-                                 np, nbp, nres, dp, pf, pctx, pq, pj, pd, nq >>
+                                 cdone, rv, rwb, rneed, stres, dsl, atomic, 
+                                 strong, ppPending, ppClosed, ppNotify, ppNC, 
+                                 ppBP, ppDepth, ppAlive, ppHeld, inItems, 
+                                 inClosed, inWaker, pollFn, chuteFn, pwTaken, 
+                                 nextPoll, ppItem, pjLive, ppStage, stack, 
+                                 dead, sti, smax, rq, sq, sj, ww, rsq, bown, 
+                                 bwk, bi, bcur, bw, bsp, jq, jj, jwk, fj, dq, 
+                                 dj, oq, oop, omode, oj, yq, yop, yclaimed, tq, 
+                                 top, af, wf, wop, sf, sctx, xf, cop, kj, pp, 
+                                 pwk, np, nbp, nres, dp, pf, pctx, pq, pj, pd, 
+                                 nq >>
 
 pp_body(self) == /\ pc[self] = "pp_body"
                  /\ IF OpTab[PipeOp(pp[self])].g # 0 /\ OpTab[PipeOp(pp[self])].g \notin gfired
@@ -5914,7 +6012,7 @@ pp_body(self) == /\ pc[self] = "pp_body"
                                  ready, cwait, cnotif, cvHeld, sdres, jpanic, 
                                  sfst, slotSt, qrSent, qrWaker, dnState, 
                                  dnWaker, parkTok, barGen, myBar, cdone, rwb, 
-                                 rneed, dsl, atomic, strong, ppPending, 
+                                 rneed, stres, dsl, atomic, strong, ppPending, 
                                  ppClosed, ppNotify, ppNC, ppBP, ppDepth, 
                                  ppAlive, ppHeld, inItems, inClosed, inWaker, 
                                  pollFn, chuteFn, pwTaken, nextPoll, ppItem, 
@@ -5939,17 +6037,17 @@ pp_resumed(self) == /\ pc[self] = "pp_resumed"
                                     cwait, cnotif, cvHeld, sdres, jpanic, sfst, 
                                     slotSt, qrSent, qrWaker, dnState, dnWaker, 
                                     parkTok, barGen, myBar, cdone, rv, rwb, 
-                                    rneed, dsl, atomic, strong, ppPending, 
-                                    ppClosed, ppNotify, ppNC, ppBP, ppDepth, 
-                                    ppAlive, ppHeld, inItems, inClosed, 
-                                    inWaker, pollFn, chuteFn, pwTaken, 
-                                    nextPoll, ppItem, pjLive, stack, dead, sti, 
-                                    smax, rq, sq, sj, ww, rsq, bown, bwk, bi, 
-                                    bcur, bw, bsp, jq, jj, jwk, fj, dq, dj, oq, 
-                                    oop, omode, oj, yq, yop, yclaimed, tq, top, 
-                                    af, wf, wop, sf, sctx, xf, cop, kj, pp, 
-                                    pwk, np, nbp, nres, dp, pf, pctx, pq, pj, 
-                                    pd, nq >>
+                                    rneed, stres, dsl, atomic, strong, 
+                                    ppPending, ppClosed, ppNotify, ppNC, ppBP, 
+                                    ppDepth, ppAlive, ppHeld, inItems, 
+                                    inClosed, inWaker, pollFn, chuteFn, 
+                                    pwTaken, nextPoll, ppItem, pjLive, stack, 
+                                    dead, sti, smax, rq, sq, sj, ww, rsq, bown, 
+                                    bwk, bi, bcur, bw, bsp, jq, jj, jwk, fj, 
+                                    dq, dj, oq, oop, omode, oj, yq, yop, 
+                                    yclaimed, tq, top, af, wf, wop, sf, sctx, 
+                                    xf, cop, kj, pp, pwk, np, nbp, nres, dp, 
+                                    pf, pctx, pq, pj, pd, nq >>
 
 pp_push(self) == /\ pc[self] = "pp_push"
                  /\ ppPending' = [ppPending EXCEPT ![pp[self]] = Append(ppPending[pp[self]], 10 * ppItem[kj[self]])]
@@ -5964,16 +6062,16 @@ pp_push(self) == /\ pc[self] = "pp_push"
                                  dblW2, nextDW, ready, cwait, cnotif, cvHeld, 
                                  sdres, jpanic, sfst, slotSt, qrSent, qrWaker, 
                                  dnState, dnWaker, barGen, myBar, cdone, rv, 
-                                 rwb, rneed, dsl, atomic, strong, ppClosed, 
-                                 ppNC, ppBP, ppDepth, ppAlive, ppHeld, inItems, 
-                                 inClosed, inWaker, pollFn, chuteFn, pwTaken, 
-                                 nextPoll, ppItem, pjLive, ppStage, h, stack, 
-                                 dead, sti, smax, rq, sq, sj, ww, rsq, bown, 
-                                 bwk, bi, bcur, bw, bsp, jq, jj, jwk, fj, dq, 
-                                 dj, oq, oop, omode, oj, yq, yop, yclaimed, tq, 
-                                 top, af, wf, wop, sf, sctx, xf, cop, kj, pp, 
-                                 pwk, np, nbp, nres, dp, pf, pctx, pq, pj, pd, 
-                                 nq >>
+                                 rwb, rneed, stres, dsl, atomic, strong, 
+                                 ppClosed, ppNC, ppBP, ppDepth, ppAlive, 
+                                 ppHeld, inItems, inClosed, inWaker, pollFn, 
+                                 chuteFn, pwTaken, nextPoll, ppItem, pjLive, 
+                                 ppStage, h, stack, dead, sti, smax, rq, sq, 
+                                 sj, ww, rsq, bown, bwk, bi, bcur, bw, bsp, jq, 
+                                 jj, jwk, fj, dq, dj, oq, oop, omode, oj, yq, 
+                                 yop, yclaimed, tq, top, af, wf, wop, sf, sctx, 
+                                 xf, cop, kj, pp, pwk, np, nbp, nres, dp, pf, 
+                                 pctx, pq, pj, pd, nq >>
 
 pi_in(self) == /\ pc[self] = "pi_in"
                /\ IF inItems[pp[self]] # << >>
@@ -5995,16 +6093,16 @@ pi_in(self) == /\ pc[self] = "pi_in"
                                dblW2, nextDW, ready, cwait, cnotif, cvHeld, 
                                sdres, jpanic, sfst, slotSt, qrSent, qrWaker, 
                                dnState, dnWaker, parkTok, barGen, myBar, cdone, 
-                               rv, rwb, rneed, dsl, atomic, strong, ppPending, 
-                               ppClosed, ppNotify, ppNC, ppBP, ppDepth, 
-                               ppAlive, ppHeld, inClosed, inWaker, pollFn, 
-                               chuteFn, pwTaken, nextPoll, pjLive, ppStage, 
-                               stack, dead, sti, smax, rq, sq, sj, ww, rsq, 
-                               bown, bwk, bi, bcur, bw, bsp, jq, jj, jwk, fj, 
-                               dq, dj, oq, oop, omode, oj, yq, yop, yclaimed, 
-                               tq, top, af, wf, wop, sf, sctx, xf, cop, kj, pp, 
-                               pwk, np, nbp, nres, dp, pf, pctx, pq, pj, pd, 
-                               nq >>
+                               rv, rwb, rneed, stres, dsl, atomic, strong, 
+                               ppPending, ppClosed, ppNotify, ppNC, ppBP, 
+                               ppDepth, ppAlive, ppHeld, inClosed, inWaker, 
+                               pollFn, chuteFn, pwTaken, nextPoll, pjLive, 
+                               ppStage, stack, dead, sti, smax, rq, sq, sj, ww, 
+                               rsq, bown, bwk, bi, bcur, bw, bsp, jq, jj, jwk, 
+                               fj, dq, dj, oq, oop, omode, oj, yq, yop, 
+                               yclaimed, tq, top, af, wf, wop, sf, sctx, xf, 
+                               cop, kj, pp, pwk, np, nbp, nres, dp, pf, pctx, 
+                               pq, pj, pd, nq >>
 
 pi_in2(self) == /\ pc[self] = "pi_in2"
                 /\ inWaker' = [inWaker EXCEPT ![pp[self]] = PW(kj[self])]
@@ -6033,7 +6131,7 @@ pi_in2(self) == /\ pc[self] = "pi_in2"
                                 dblW2, nextDW, ready, cwait, cnotif, cvHeld, 
                                 sdres, jpanic, sfst, slotSt, qrSent, qrWaker, 
                                 dnState, dnWaker, parkTok, barGen, myBar, 
-                                cdone, rwb, rneed, dsl, atomic, strong, 
+                                cdone, rwb, rneed, stres, dsl, atomic, strong, 
                                 ppPending, ppClosed, ppNotify, ppNC, ppBP, 
                                 ppDepth, ppAlive, ppHeld, inClosed, pollFn, 
                                 chuteFn, pwTaken, nextPoll, pjLive, ppStage, 
@@ -6064,16 +6162,16 @@ pp_dealloc(self) == /\ pc[self] = "pp_dealloc"
                                     cwait, cnotif, cvHeld, sdres, jpanic, sfst, 
                                     slotSt, qrSent, qrWaker, dnState, dnWaker, 
                                     parkTok, barGen, myBar, cdone, rwb, rneed, 
-                                    dsl, atomic, strong, ppPending, ppClosed, 
-                                    ppNotify, ppNC, ppBP, ppDepth, ppAlive, 
-                                    ppHeld, inItems, inClosed, inWaker, 
-                                    chuteFn, pwTaken, nextPoll, ppItem, pjLive, 
-                                    ppStage, dead, sti, smax, rq, sq, sj, ww, 
-                                    rsq, bown, bwk, bi, bcur, bw, bsp, jq, jj, 
-                                    jwk, fj, dq, dj, oq, oop, omode, oj, yq, 
-                                    yop, yclaimed, tq, top, af, wf, wop, sf, 
-                                    sctx, xf, cop, np, nbp, nres, dp, pf, pctx, 
-                                    pq, pj, pd, nq >>
+                                    stres, dsl, atomic, strong, ppPending, 
+                                    ppClosed, ppNotify, ppNC, ppBP, ppDepth, 
+                                    ppAlive, ppHeld, inItems, inClosed, 
+                                    inWaker, chuteFn, pwTaken, nextPoll, 
+                                    ppItem, pjLive, ppStage, dead, sti, smax, 
+                                    rq, sq, sj, ww, rsq, bown, bwk, bi, bcur, 
+                                    bw, bsp, jq, jj, jwk, fj, dq, dj, oq, oop, 
+                                    omode, oj, yq, yop, yclaimed, tq, top, af, 
+                                    wf, wop, sf, sctx, xf, cop, np, nbp, nres, 
+                                    dp, pf, pctx, pq, pj, pd, nq >>
 
 PipePoll(self) == z_pp_entry(self) \/ pp_fn(self) \/ pp_bp(self)
                      \/ pp_clear(self) \/ pp_in(self) \/ pp_in2(self)
@@ -6115,7 +6213,7 @@ cn_poll(self) == /\ pc[self] = "cn_poll"
                                  dblW2, nextDW, ready, cwait, cnotif, cvHeld, 
                                  sdres, jpanic, sfst, slotSt, qrSent, qrWaker, 
                                  dnState, dnWaker, parkTok, barGen, myBar, 
-                                 cdone, rwb, rneed, dsl, atomic, strong, 
+                                 cdone, rwb, rneed, stres, dsl, atomic, strong, 
                                  ppClosed, ppNC, ppDepth, ppAlive, ppHeld, 
                                  inItems, inClosed, inWaker, pollFn, chuteFn, 
                                  pwTaken, nextPoll, ppItem, pjLive, ppStage, h, 
@@ -6144,16 +6242,17 @@ z_cn_after(self) == /\ pc[self] = "z_cn_after"
                                     cwait, cnotif, cvHeld, sdres, jpanic, sfst, 
                                     slotSt, qrSent, qrWaker, dnState, dnWaker, 
                                     parkTok, barGen, myBar, cdone, rv, rwb, 
-                                    rneed, dsl, atomic, strong, ppPending, 
-                                    ppClosed, ppNotify, ppNC, ppBP, ppDepth, 
-                                    ppAlive, ppHeld, inItems, inClosed, 
-                                    inWaker, pollFn, chuteFn, pwTaken, 
-                                    nextPoll, ppItem, pjLive, ppStage, dead, 
-                                    sti, smax, rq, sq, sj, ww, rsq, bown, bwk, 
-                                    bi, bcur, bw, bsp, jq, jj, jwk, fj, dq, dj, 
-                                    oq, oop, omode, oj, yq, yop, yclaimed, tq, 
-                                    top, af, wf, wop, sf, sctx, xf, cop, kj, 
-                                    pp, pwk, dp, pf, pctx, pq, pj, pd, nq >>
+                                    rneed, stres, dsl, atomic, strong, 
+                                    ppPending, ppClosed, ppNotify, ppNC, ppBP, 
+                                    ppDepth, ppAlive, ppHeld, inItems, 
+                                    inClosed, inWaker, pollFn, chuteFn, 
+                                    pwTaken, nextPoll, ppItem, pjLive, ppStage, 
+                                    dead, sti, smax, rq, sq, sj, ww, rsq, bown, 
+                                    bwk, bi, bcur, bw, bsp, jq, jj, jwk, fj, 
+                                    dq, dj, oq, oop, omode, oj, yq, yop, 
+                                    yclaimed, tq, top, af, wf, wop, sf, sctx, 
+                                    xf, cop, kj, pp, pwk, dp, pf, pctx, pq, pj, 
+                                    pd, nq >>
 
 cn_park(self) == /\ pc[self] = "cn_park"
                  /\ parkTok[self]
@@ -6167,16 +6266,16 @@ cn_park(self) == /\ pc[self] = "cn_park"
                                  dblW2, nextDW, ready, cwait, cnotif, cvHeld, 
                                  sdres, jpanic, sfst, slotSt, qrSent, qrWaker, 
                                  dnState, dnWaker, barGen, myBar, cdone, rv, 
-                                 rwb, rneed, dsl, atomic, strong, ppPending, 
-                                 ppClosed, ppNotify, ppNC, ppBP, ppDepth, 
-                                 ppAlive, ppHeld, inItems, inClosed, inWaker, 
-                                 pollFn, chuteFn, pwTaken, nextPoll, ppItem, 
-                                 pjLive, ppStage, h, stack, dead, sti, smax, 
-                                 rq, sq, sj, ww, rsq, bown, bwk, bi, bcur, bw, 
-                                 bsp, jq, jj, jwk, fj, dq, dj, oq, oop, omode, 
-                                 oj, yq, yop, yclaimed, tq, top, af, wf, wop, 
-                                 sf, sctx, xf, cop, kj, pp, pwk, np, nbp, nres, 
-                                 dp, pf, pctx, pq, pj, pd, nq >>
+                                 rwb, rneed, stres, dsl, atomic, strong, 
+                                 ppPending, ppClosed, ppNotify, ppNC, ppBP, 
+                                 ppDepth, ppAlive, ppHeld, inItems, inClosed, 
+                                 inWaker, pollFn, chuteFn, pwTaken, nextPoll, 
+                                 ppItem, pjLive, ppStage, h, stack, dead, sti, 
+                                 smax, rq, sq, sj, ww, rsq, bown, bwk, bi, 
+                                 bcur, bw, bsp, jq, jj, jwk, fj, dq, dj, oq, 
+                                 oop, omode, oj, yq, yop, yclaimed, tq, top, 
+                                 af, wf, wop, sf, sctx, xf, cop, kj, pp, pwk, 
+                                 np, nbp, nres, dp, pf, pctx, pq, pj, pd, nq >>
 
 PipeNext(self) == cn_poll(self) \/ z_cn_after(self) \/ cn_park(self)
 
@@ -6201,15 +6300,16 @@ ps_drop(self) == /\ pc[self] = "ps_drop"
                                  dblW2, nextDW, ready, cwait, cnotif, cvHeld, 
                                  sdres, jpanic, sfst, slotSt, qrSent, qrWaker, 
                                  dnState, dnWaker, parkTok, barGen, myBar, 
-                                 cdone, rv, rwb, rneed, dsl, strong, ppNotify, 
-                                 ppNC, ppBP, ppDepth, ppAlive, ppHeld, inItems, 
-                                 inClosed, inWaker, pollFn, chuteFn, pwTaken, 
-                                 nextPoll, ppItem, pjLive, ppStage, h, dead, 
-                                 sti, smax, rq, sq, sj, rsq, bown, bwk, bi, 
-                                 bcur, bw, bsp, jq, jj, jwk, fj, dq, dj, oq, 
-                                 oop, omode, oj, yq, yop, yclaimed, tq, top, 
-                                 af, wf, wop, sf, sctx, xf, cop, kj, pp, pwk, 
-                                 np, nbp, nres, dp, pf, pctx, pq, pj, pd, nq >>
+                                 cdone, rv, rwb, rneed, stres, dsl, strong, 
+                                 ppNotify, ppNC, ppBP, ppDepth, ppAlive, 
+                                 ppHeld, inItems, inClosed, inWaker, pollFn, 
+                                 chuteFn, pwTaken, nextPoll, ppItem, pjLive, 
+                                 ppStage, h, dead, sti, smax, rq, sq, sj, rsq, 
+                                 bown, bwk, bi, bcur, bw, bsp, jq, jj, jwk, fj, 
+                                 dq, dj, oq, oop, omode, oj, yq, yop, yclaimed, 
+                                 tq, top, af, wf, wop, sf, sctx, xf, cop, kj, 
+                                 pp, pwk, np, nbp, nres, dp, pf, pctx, pq, pj, 
+                                 pd, nq >>
 
 z_ps2(self) == /\ pc[self] = "z_ps2"
                /\ ppNC' = [ppNC EXCEPT ![dp[self]] = NoW]
@@ -6230,7 +6330,7 @@ z_ps2(self) == /\ pc[self] = "z_ps2"
                                ready, cwait, cnotif, cvHeld, sdres, jpanic, 
                                sfst, slotSt, qrSent, qrWaker, dnState, dnWaker, 
                                parkTok, barGen, myBar, cdone, rv, rwb, rneed, 
-                               dsl, atomic, strong, ppPending, ppClosed, 
+                               stres, dsl, atomic, strong, ppPending, ppClosed, 
                                ppNotify, ppBP, ppDepth, ppAlive, ppHeld, 
                                inItems, inClosed, inWaker, pollFn, chuteFn, 
                                pwTaken, nextPoll, ppItem, pjLive, ppStage, h, 
@@ -6253,15 +6353,16 @@ z_ps3(self) == /\ pc[self] = "z_ps3"
                                dblW2, nextDW, ready, cwait, cnotif, cvHeld, 
                                sdres, jpanic, sfst, slotSt, qrSent, qrWaker, 
                                dnState, dnWaker, parkTok, barGen, myBar, cdone, 
-                               rwb, rneed, dsl, strong, ppPending, ppClosed, 
-                               ppNotify, ppNC, ppBP, ppDepth, ppHeld, inItems, 
-                               inClosed, inWaker, pollFn, chuteFn, pwTaken, 
-                               nextPoll, ppItem, pjLive, ppStage, h, stack, 
-                               dead, sti, smax, rq, sq, sj, ww, rsq, bown, bwk, 
-                               bi, bcur, bw, bsp, jq, jj, jwk, fj, dq, dj, oq, 
-                               oop, omode, oj, yq, yop, yclaimed, tq, top, af, 
-                               wf, wop, sf, sctx, xf, cop, kj, pp, pwk, np, 
-                               nbp, nres, dp, pf, pctx, pq, pj, pd, nq >>
+                               rwb, rneed, stres, dsl, strong, ppPending, 
+                               ppClosed, ppNotify, ppNC, ppBP, ppDepth, ppHeld, 
+                               inItems, inClosed, inWaker, pollFn, chuteFn, 
+                               pwTaken, nextPoll, ppItem, pjLive, ppStage, h, 
+                               stack, dead, sti, smax, rq, sq, sj, ww, rsq, 
+                               bown, bwk, bi, bcur, bw, bsp, jq, jj, jwk, fj, 
+                               dq, dj, oq, oop, omode, oj, yq, yop, yclaimed, 
+                               tq, top, af, wf, wop, sf, sctx, xf, cop, kj, pp, 
+                               pwk, np, nbp, nres, dp, pf, pctx, pq, pj, pd, 
+                               nq >>
 
 z_ps_gc(self) == /\ pc[self] = "z_ps_gc"
                  /\ IF pollFn[dp[self]] /\ ~CtxAlive(dp[self])
@@ -6280,16 +6381,16 @@ z_ps_gc(self) == /\ pc[self] = "z_ps_gc"
                                  dblW2, nextDW, ready, cwait, cnotif, cvHeld, 
                                  sdres, jpanic, sfst, slotSt, qrSent, qrWaker, 
                                  dnState, dnWaker, parkTok, barGen, myBar, 
-                                 cdone, rv, rwb, rneed, dsl, atomic, strong, 
-                                 ppPending, ppClosed, ppNotify, ppNC, ppBP, 
-                                 ppDepth, ppAlive, ppHeld, inItems, inClosed, 
-                                 inWaker, chuteFn, pwTaken, nextPoll, ppItem, 
-                                 pjLive, ppStage, dead, sti, smax, rq, sq, sj, 
-                                 ww, rsq, bown, bwk, bi, bcur, bw, bsp, jq, jj, 
-                                 jwk, fj, dq, dj, oq, oop, omode, oj, yq, yop, 
-                                 yclaimed, tq, top, af, wf, wop, sf, sctx, xf, 
-                                 cop, kj, pp, pwk, np, nbp, nres, pf, pctx, pq, 
-                                 pj, pd, nq >>
+                                 cdone, rv, rwb, rneed, stres, dsl, atomic, 
+                                 strong, ppPending, ppClosed, ppNotify, ppNC, 
+                                 ppBP, ppDepth, ppAlive, ppHeld, inItems, 
+                                 inClosed, inWaker, chuteFn, pwTaken, nextPoll, 
+                                 ppItem, pjLive, ppStage, dead, sti, smax, rq, 
+                                 sq, sj, ww, rsq, bown, bwk, bi, bcur, bw, bsp, 
+                                 jq, jj, jwk, fj, dq, dj, oq, oop, omode, oj, 
+                                 yq, yop, yclaimed, tq, top, af, wf, wop, sf, 
+                                 sctx, xf, cop, kj, pp, pwk, np, nbp, nres, pf, 
+                                 pctx, pq, pj, pd, nq >>
 
 PipeDrop(self) == ps_drop(self) \/ z_ps2(self) \/ z_ps3(self)
                      \/ z_ps_gc(self)
@@ -6305,16 +6406,17 @@ ds_max(self) == /\ pc[self] = "ds_max"
                                 dblW2, nextDW, ready, cwait, cnotif, cvHeld, 
                                 sdres, jpanic, sfst, slotSt, qrSent, qrWaker, 
                                 dnState, dnWaker, parkTok, barGen, myBar, 
-                                cdone, rv, rwb, rneed, dsl, atomic, strong, 
-                                ppPending, ppClosed, ppNotify, ppNC, ppBP, 
-                                ppDepth, ppAlive, ppHeld, inItems, inClosed, 
-                                inWaker, pollFn, chuteFn, pwTaken, nextPoll, 
-                                ppItem, pjLive, ppStage, h, stack, dead, sti, 
-                                smax, rq, sq, sj, ww, rsq, bown, bwk, bi, bcur, 
-                                bw, bsp, jq, jj, jwk, fj, dq, dj, oq, oop, 
-                                omode, oj, yq, yop, yclaimed, tq, top, af, wf, 
-                                wop, sf, sctx, xf, cop, kj, pp, pwk, np, nbp, 
-                                nres, dp, pf, pctx, pq, pj, pd, nq >>
+                                cdone, rv, rwb, rneed, stres, dsl, atomic, 
+                                strong, ppPending, ppClosed, ppNotify, ppNC, 
+                                ppBP, ppDepth, ppAlive, ppHeld, inItems, 
+                                inClosed, inWaker, pollFn, chuteFn, pwTaken, 
+                                nextPoll, ppItem, pjLive, ppStage, h, stack, 
+                                dead, sti, smax, rq, sq, sj, ww, rsq, bown, 
+                                bwk, bi, bcur, bw, bsp, jq, jj, jwk, fj, dq, 
+                                dj, oq, oop, omode, oj, yq, yop, yclaimed, tq, 
+                                top, af, wf, wop, sf, sctx, xf, cop, kj, pp, 
+                                pwk, np, nbp, nres, dp, pf, pctx, pq, pj, pd, 
+                                nq >>
 
 ds_pop(self) == /\ pc[self] = "ds_pop"
                 /\ thrHeld = ""
@@ -6335,15 +6437,16 @@ ds_pop(self) == /\ pc[self] = "ds_pop"
                                 cwait, cnotif, cvHeld, sdres, jpanic, sfst, 
                                 slotSt, qrSent, qrWaker, dnState, dnWaker, 
                                 parkTok, barGen, myBar, cdone, rwb, rneed, 
-                                atomic, strong, ppPending, ppClosed, ppNotify, 
-                                ppNC, ppBP, ppDepth, ppAlive, ppHeld, inItems, 
-                                inClosed, inWaker, pollFn, chuteFn, pwTaken, 
-                                nextPoll, ppItem, pjLive, ppStage, h, dead, 
-                                sti, smax, rq, sq, sj, ww, rsq, bown, bwk, bi, 
-                                bcur, bw, bsp, jq, jj, jwk, fj, dq, dj, oq, 
-                                oop, omode, oj, yq, yop, yclaimed, tq, top, af, 
-                                wf, wop, sf, sctx, xf, cop, kj, pp, pwk, np, 
-                                nbp, nres, dp, pf, pctx, pq, pj, pd, nq >>
+                                stres, atomic, strong, ppPending, ppClosed, 
+                                ppNotify, ppNC, ppBP, ppDepth, ppAlive, ppHeld, 
+                                inItems, inClosed, inWaker, pollFn, chuteFn, 
+                                pwTaken, nextPoll, ppItem, pjLive, ppStage, h, 
+                                dead, sti, smax, rq, sq, sj, ww, rsq, bown, 
+                                bwk, bi, bcur, bw, bsp, jq, jj, jwk, fj, dq, 
+                                dj, oq, oop, omode, oj, yq, yop, yclaimed, tq, 
+                                top, af, wf, wop, sf, sctx, xf, cop, kj, pp, 
+                                pwk, np, nbp, nres, dp, pf, pctx, pq, pj, pd, 
+                                nq >>
 
 ds_join(self) == /\ pc[self] = "ds_join"
                  /\ pfin[Head(dsl[self])]
@@ -6363,16 +6466,16 @@ ds_join(self) == /\ pc[self] = "ds_join"
                                  dblW2, nextDW, ready, cwait, cnotif, cvHeld, 
                                  sdres, jpanic, sfst, slotSt, qrSent, qrWaker, 
                                  dnState, dnWaker, parkTok, barGen, myBar, 
-                                 cdone, rwb, rneed, atomic, strong, ppPending, 
-                                 ppClosed, ppNotify, ppNC, ppBP, ppDepth, 
-                                 ppAlive, ppHeld, inItems, inClosed, inWaker, 
-                                 pollFn, chuteFn, pwTaken, nextPoll, ppItem, 
-                                 pjLive, ppStage, dead, sti, smax, rq, sq, sj, 
-                                 ww, rsq, bown, bwk, bi, bcur, bw, bsp, jq, jj, 
-                                 jwk, fj, dq, dj, oq, oop, omode, oj, yq, yop, 
-                                 yclaimed, tq, top, af, wf, wop, sf, sctx, xf, 
-                                 cop, kj, pp, pwk, np, nbp, nres, dp, pf, pctx, 
-                                 pq, pj, pd, nq >>
+                                 cdone, rwb, rneed, stres, atomic, strong, 
+                                 ppPending, ppClosed, ppNotify, ppNC, ppBP, 
+                                 ppDepth, ppAlive, ppHeld, inItems, inClosed, 
+                                 inWaker, pollFn, chuteFn, pwTaken, nextPoll, 
+                                 ppItem, pjLive, ppStage, dead, sti, smax, rq, 
+                                 sq, sj, ww, rsq, bown, bwk, bi, bcur, bw, bsp, 
+                                 jq, jj, jwk, fj, dq, dj, oq, oop, omode, oj, 
+                                 yq, yop, yclaimed, tq, top, af, wf, wop, sf, 
+                                 sctx, xf, cop, kj, pp, pwk, np, nbp, nres, dp, 
+                                 pf, pctx, pq, pj, pd, nq >>
 
 Despawn(self) == ds_max(self) \/ ds_pop(self) \/ ds_join(self)
 
@@ -6444,14 +6547,14 @@ pf_decide(self) == /\ pc[self] = "pf_decide"
                                    cwait, cnotif, cvHeld, sdres, jpanic, sfst, 
                                    slotSt, qrSent, qrWaker, dnState, dnWaker, 
                                    parkTok, barGen, myBar, cdone, rwb, rneed, 
-                                   dsl, atomic, strong, ppPending, ppClosed, 
-                                   ppNotify, ppNC, ppBP, ppDepth, ppAlive, 
-                                   ppHeld, inItems, inClosed, inWaker, pollFn, 
-                                   chuteFn, pwTaken, nextPoll, ppItem, pjLive, 
-                                   ppStage, h, dead, sti, smax, rq, sq, sj, ww, 
-                                   rsq, bown, bwk, bi, bcur, bw, bsp, jq, jj, 
-                                   jwk, fj, dq, dj, oq, oop, omode, oj, yq, 
-                                   yop, yclaimed, tq, top, af, wf, wop, sf, 
+                                   stres, dsl, atomic, strong, ppPending, 
+                                   ppClosed, ppNotify, ppNC, ppBP, ppDepth, 
+                                   ppAlive, ppHeld, inItems, inClosed, inWaker, 
+                                   pollFn, chuteFn, pwTaken, nextPoll, ppItem, 
+                                   pjLive, ppStage, h, dead, sti, smax, rq, sq, 
+                                   sj, ww, rsq, bown, bwk, bi, bcur, bw, bsp, 
+                                   jq, jj, jwk, fj, dq, dj, oq, oop, omode, oj, 
+                                   yq, yop, yclaimed, tq, top, af, wf, wop, sf, 
                                    sctx, xf, cop, kj, pp, pwk, np, nbp, nres, 
                                    dp, nq >>
 
@@ -6474,7 +6577,7 @@ dq_res(self) == /\ pc[self] = "dq_res"
                                 nextDW, ready, cwait, cnotif, cvHeld, sdres, 
                                 jpanic, sfst, slotSt, qrSent, qrWaker, dnState, 
                                 dnWaker, parkTok, barGen, myBar, cdone, rwb, 
-                                rneed, dsl, atomic, strong, ppPending, 
+                                rneed, stres, dsl, atomic, strong, ppPending, 
                                 ppClosed, ppNotify, ppNC, ppBP, ppDepth, 
                                 ppAlive, ppHeld, inItems, inClosed, inWaker, 
                                 pollFn, chuteFn, pwTaken, nextPoll, ppItem, 
@@ -6512,15 +6615,16 @@ dq_deq(self) == /\ pc[self] = "dq_deq"
                                 ready, cwait, cnotif, cvHeld, sdres, jpanic, 
                                 sfst, slotSt, qrSent, qrWaker, dnState, 
                                 dnWaker, parkTok, barGen, myBar, cdone, rv, 
-                                rwb, rneed, dsl, atomic, strong, ppPending, 
-                                ppClosed, ppNotify, ppNC, ppBP, ppDepth, 
-                                ppAlive, ppHeld, inItems, inClosed, inWaker, 
-                                pollFn, chuteFn, pwTaken, nextPoll, ppItem, 
-                                pjLive, ppStage, h, dead, sti, smax, rq, sq, 
-                                sj, ww, rsq, bown, bwk, bi, bcur, bw, bsp, fj, 
-                                dq, dj, oq, oop, omode, oj, yq, yop, yclaimed, 
-                                tq, top, af, wf, wop, sf, sctx, xf, cop, kj, 
-                                pp, pwk, np, nbp, nres, dp, pf, pctx, pq, nq >>
+                                rwb, rneed, stres, dsl, atomic, strong, 
+                                ppPending, ppClosed, ppNotify, ppNC, ppBP, 
+                                ppDepth, ppAlive, ppHeld, inItems, inClosed, 
+                                inWaker, pollFn, chuteFn, pwTaken, nextPoll, 
+                                ppItem, pjLive, ppStage, h, dead, sti, smax, 
+                                rq, sq, sj, ww, rsq, bown, bwk, bi, bcur, bw, 
+                                bsp, fj, dq, dj, oq, oop, omode, oj, yq, yop, 
+                                yclaimed, tq, top, af, wf, wop, sf, sctx, xf, 
+                                cop, kj, pp, pwk, np, nbp, nres, dp, pf, pctx, 
+                                pq, nq >>
 
 z_dq_after(self) == /\ pc[self] = "z_dq_after"
                     /\ IF rv[self] = 5
@@ -6554,17 +6658,17 @@ z_dq_after(self) == /\ pc[self] = "z_dq_after"
                                     cwait, cnotif, cvHeld, sdres, jpanic, sfst, 
                                     slotSt, qrSent, qrWaker, dnState, dnWaker, 
                                     parkTok, barGen, myBar, cdone, rv, rwb, 
-                                    rneed, dsl, atomic, strong, ppPending, 
-                                    ppClosed, ppNotify, ppNC, ppBP, ppDepth, 
-                                    ppAlive, ppHeld, inItems, inClosed, 
-                                    inWaker, pollFn, chuteFn, pwTaken, 
-                                    nextPoll, ppItem, pjLive, ppStage, h, dead, 
-                                    sti, smax, rq, sq, sj, ww, rsq, bown, bwk, 
-                                    bi, bcur, bw, bsp, jq, jj, jwk, dq, dj, oq, 
-                                    oop, omode, oj, yq, yop, yclaimed, tq, top, 
-                                    af, wf, wop, sf, sctx, xf, cop, kj, pp, 
-                                    pwk, np, nbp, nres, dp, pf, pctx, pq, pj, 
-                                    pd, nq >>
+                                    rneed, stres, dsl, atomic, strong, 
+                                    ppPending, ppClosed, ppNotify, ppNC, ppBP, 
+                                    ppDepth, ppAlive, ppHeld, inItems, 
+                                    inClosed, inWaker, pollFn, chuteFn, 
+                                    pwTaken, nextPoll, ppItem, pjLive, ppStage, 
+                                    h, dead, sti, smax, rq, sq, sj, ww, rsq, 
+                                    bown, bwk, bi, bcur, bw, bsp, jq, jj, jwk, 
+                                    dq, dj, oq, oop, omode, oj, yq, yop, 
+                                    yclaimed, tq, top, af, wf, wop, sf, sctx, 
+                                    xf, cop, kj, pp, pwk, np, nbp, nres, dp, 
+                                    pf, pctx, pq, pj, pd, nq >>
 
 dq_requeue(self) == /\ pc[self] = "dq_requeue"
                     /\ jobs' = [jobs EXCEPT ![pq[self]] = << pj[self] >> \o jobs[pq[self]]]
@@ -6578,12 +6682,12 @@ dq_requeue(self) == /\ pc[self] = "dq_requeue"
                                     cwait, cnotif, cvHeld, sdres, jpanic, sfst, 
                                     slotSt, qrSent, qrWaker, dnState, dnWaker, 
                                     parkTok, barGen, myBar, cdone, rv, rwb, 
-                                    rneed, dsl, atomic, strong, ppPending, 
-                                    ppClosed, ppNotify, ppNC, ppBP, ppDepth, 
-                                    ppAlive, ppHeld, inItems, inClosed, 
-                                    inWaker, pollFn, chuteFn, pwTaken, 
-                                    nextPoll, ppItem, pjLive, ppStage, h, 
-                                    stack, dead, sti, smax, rq, sq, sj, ww, 
+                                    rneed, stres, dsl, atomic, strong, 
+                                    ppPending, ppClosed, ppNotify, ppNC, ppBP, 
+                                    ppDepth, ppAlive, ppHeld, inItems, 
+                                    inClosed, inWaker, pollFn, chuteFn, 
+                                    pwTaken, nextPoll, ppItem, pjLive, ppStage, 
+                                    h, stack, dead, sti, smax, rq, sq, sj, ww, 
                                     rsq, bown, bwk, bi, bcur, bw, bsp, jq, jj, 
                                     jwk, fj, dq, dj, oq, oop, omode, oj, yq, 
                                     yop, yclaimed, tq, top, af, wf, wop, sf, 
@@ -6609,7 +6713,7 @@ dq_res2(self) == /\ pc[self] = "dq_res2"
                                  nextDW, ready, cwait, cnotif, cvHeld, sdres, 
                                  jpanic, sfst, slotSt, qrSent, qrWaker, 
                                  dnState, dnWaker, parkTok, barGen, myBar, 
-                                 cdone, rwb, rneed, dsl, atomic, strong, 
+                                 cdone, rwb, rneed, stres, dsl, atomic, strong, 
                                  ppPending, ppClosed, ppNotify, ppNC, ppBP, 
                                  ppDepth, ppAlive, ppHeld, inItems, inClosed, 
                                  inWaker, pollFn, chuteFn, pwTaken, nextPoll, 
@@ -6632,7 +6736,7 @@ dq_waitwake(self) == /\ pc[self] = "dq_waitwake"
                                      ready, cwait, cnotif, cvHeld, sdres, 
                                      jpanic, sfst, slotSt, qrSent, qrWaker, 
                                      dnState, dnWaker, parkTok, barGen, myBar, 
-                                     cdone, rv, rwb, rneed, dsl, atomic, 
+                                     cdone, rv, rwb, rneed, stres, dsl, atomic, 
                                      strong, ppPending, ppClosed, ppNotify, 
                                      ppNC, ppBP, ppDepth, ppAlive, ppHeld, 
                                      inItems, inClosed, inWaker, pollFn, 
@@ -6666,16 +6770,16 @@ dq_ww1(self) == /\ pc[self] = "dq_ww1"
                                 nextDW, ready, cwait, cnotif, cvHeld, sdres, 
                                 jpanic, sfst, slotSt, qrSent, qrWaker, dnState, 
                                 dnWaker, parkTok, barGen, myBar, cdone, rv, 
-                                rwb, rneed, dsl, atomic, strong, ppPending, 
-                                ppClosed, ppNotify, ppNC, ppBP, ppDepth, 
-                                ppAlive, ppHeld, inItems, inClosed, inWaker, 
-                                pollFn, chuteFn, pwTaken, nextPoll, ppItem, 
-                                pjLive, ppStage, h, dead, sti, smax, rq, sq, 
-                                sj, rsq, bown, bwk, bi, bcur, bw, bsp, jq, jj, 
-                                jwk, fj, dq, dj, oq, oop, omode, oj, yq, yop, 
-                                yclaimed, tq, top, af, wf, wop, sf, sctx, xf, 
-                                cop, kj, pp, pwk, np, nbp, nres, dp, pf, pctx, 
-                                pq, pj, pd, nq >>
+                                rwb, rneed, stres, dsl, atomic, strong, 
+                                ppPending, ppClosed, ppNotify, ppNC, ppBP, 
+                                ppDepth, ppAlive, ppHeld, inItems, inClosed, 
+                                inWaker, pollFn, chuteFn, pwTaken, nextPoll, 
+                                ppItem, pjLive, ppStage, h, dead, sti, smax, 
+                                rq, sq, sj, rsq, bown, bwk, bi, bcur, bw, bsp, 
+                                jq, jj, jwk, fj, dq, dj, oq, oop, omode, oj, 
+                                yq, yop, yclaimed, tq, top, af, wf, wop, sf, 
+                                sctx, xf, cop, kj, pp, pwk, np, nbp, nres, dp, 
+                                pf, pctx, pq, pj, pd, nq >>
 
 z_dq_ready(self) == /\ pc[self] = "z_dq_ready"
                     /\ pc' = [pc EXCEPT ![self] = Head(stack[self]).pc]
@@ -6694,16 +6798,17 @@ z_dq_ready(self) == /\ pc[self] = "z_dq_ready"
                                     cwait, cnotif, cvHeld, sdres, jpanic, sfst, 
                                     slotSt, qrSent, qrWaker, dnState, dnWaker, 
                                     parkTok, barGen, myBar, cdone, rv, rwb, 
-                                    rneed, dsl, atomic, strong, ppPending, 
-                                    ppClosed, ppNotify, ppNC, ppBP, ppDepth, 
-                                    ppAlive, ppHeld, inItems, inClosed, 
-                                    inWaker, pollFn, chuteFn, pwTaken, 
-                                    nextPoll, ppItem, pjLive, ppStage, h, dead, 
-                                    sti, smax, rq, sq, sj, ww, rsq, bown, bwk, 
-                                    bi, bcur, bw, bsp, jq, jj, jwk, fj, dq, dj, 
-                                    oq, oop, omode, oj, yq, yop, yclaimed, tq, 
-                                    top, af, wf, wop, sf, sctx, xf, cop, kj, 
-                                    pp, pwk, np, nbp, nres, dp, nq >>
+                                    rneed, stres, dsl, atomic, strong, 
+                                    ppPending, ppClosed, ppNotify, ppNC, ppBP, 
+                                    ppDepth, ppAlive, ppHeld, inItems, 
+                                    inClosed, inWaker, pollFn, chuteFn, 
+                                    pwTaken, nextPoll, ppItem, pjLive, ppStage, 
+                                    h, dead, sti, smax, rq, sq, sj, ww, rsq, 
+                                    bown, bwk, bi, bcur, bw, bsp, jq, jj, jwk, 
+                                    fj, dq, dj, oq, oop, omode, oj, yq, yop, 
+                                    yclaimed, tq, top, af, wf, wop, sf, sctx, 
+                                    xf, cop, kj, pp, pwk, np, nbp, nres, dp, 
+                                    nq >>
 
 dq_setwaker(self) == /\ pc[self] = "dq_setwaker"
                      /\ fwaker' = [fwaker EXCEPT ![pf[self]] = pctx[self]]
@@ -6717,7 +6822,7 @@ dq_setwaker(self) == /\ pc[self] = "dq_setwaker"
                                      ready, cwait, cnotif, cvHeld, sdres, 
                                      jpanic, sfst, slotSt, qrSent, qrWaker, 
                                      dnState, dnWaker, parkTok, barGen, myBar, 
-                                     cdone, rv, rwb, rneed, dsl, atomic, 
+                                     cdone, rv, rwb, rneed, stres, dsl, atomic, 
                                      strong, ppPending, ppClosed, ppNotify, 
                                      ppNC, ppBP, ppDepth, ppAlive, ppHeld, 
                                      inItems, inClosed, inWaker, pollFn, 
@@ -6743,17 +6848,18 @@ dq_waitpoll(self) == /\ pc[self] = "dq_waitpoll"
                                      cnotif, cvHeld, sdres, jpanic, sfst, 
                                      slotSt, qrSent, qrWaker, dnState, dnWaker, 
                                      parkTok, barGen, myBar, cdone, rv, rwb, 
-                                     rneed, dsl, atomic, strong, ppPending, 
-                                     ppClosed, ppNotify, ppNC, ppBP, ppDepth, 
-                                     ppAlive, ppHeld, inItems, inClosed, 
-                                     inWaker, pollFn, chuteFn, pwTaken, 
-                                     nextPoll, ppItem, pjLive, ppStage, h, 
-                                     stack, dead, sti, smax, rq, sq, sj, ww, 
-                                     rsq, bown, bwk, bi, bcur, bw, bsp, jq, jj, 
-                                     jwk, fj, dq, dj, oq, oop, omode, oj, yq, 
-                                     yop, yclaimed, tq, top, af, wf, wop, sf, 
-                                     sctx, xf, cop, kj, pp, pwk, np, nbp, nres, 
-                                     dp, pf, pctx, pq, pj, pd, nq >>
+                                     rneed, stres, dsl, atomic, strong, 
+                                     ppPending, ppClosed, ppNotify, ppNC, ppBP, 
+                                     ppDepth, ppAlive, ppHeld, inItems, 
+                                     inClosed, inWaker, pollFn, chuteFn, 
+                                     pwTaken, nextPoll, ppItem, pjLive, 
+                                     ppStage, h, stack, dead, sti, smax, rq, 
+                                     sq, sj, ww, rsq, bown, bwk, bi, bcur, bw, 
+                                     bsp, jq, jj, jwk, fj, dq, dj, oq, oop, 
+                                     omode, oj, yq, yop, yclaimed, tq, top, af, 
+                                     wf, wop, sf, sctx, xf, cop, kj, pp, pwk, 
+                                     np, nbp, nres, dp, pf, pctx, pq, pj, pd, 
+                                     nq >>
 
 dq_ww2(self) == /\ pc[self] = "dq_ww2"
                 /\ dblW1' = [dblW1 EXCEPT ![pd[self]] = WQ(pq[self])]
@@ -6778,15 +6884,16 @@ dq_ww2(self) == /\ pc[self] = "dq_ww2"
                                 cwait, cnotif, cvHeld, sdres, jpanic, sfst, 
                                 slotSt, qrSent, qrWaker, dnState, dnWaker, 
                                 parkTok, barGen, myBar, cdone, rv, rwb, rneed, 
-                                dsl, atomic, strong, ppPending, ppClosed, 
-                                ppNotify, ppNC, ppBP, ppDepth, ppAlive, ppHeld, 
-                                inItems, inClosed, inWaker, pollFn, chuteFn, 
-                                pwTaken, nextPoll, ppItem, pjLive, ppStage, h, 
-                                dead, sti, smax, rq, sq, sj, rsq, bown, bwk, 
-                                bi, bcur, bw, bsp, jq, jj, jwk, fj, dq, dj, oq, 
-                                oop, omode, oj, yq, yop, yclaimed, tq, top, af, 
-                                wf, wop, sf, sctx, xf, cop, kj, pp, pwk, np, 
-                                nbp, nres, dp, pf, pctx, pq, pj, pd, nq >>
+                                stres, dsl, atomic, strong, ppPending, 
+                                ppClosed, ppNotify, ppNC, ppBP, ppDepth, 
+                                ppAlive, ppHeld, inItems, inClosed, inWaker, 
+                                pollFn, chuteFn, pwTaken, nextPoll, ppItem, 
+                                pjLive, ppStage, h, dead, sti, smax, rq, sq, 
+                                sj, rsq, bown, bwk, bi, bcur, bw, bsp, jq, jj, 
+                                jwk, fj, dq, dj, oq, oop, omode, oj, yq, yop, 
+                                yclaimed, tq, top, af, wf, wop, sf, sctx, xf, 
+                                cop, kj, pp, pwk, np, nbp, nres, dp, pf, pctx, 
+                                pq, pj, pd, nq >>
 
 z_dq_pending(self) == /\ pc[self] = "z_dq_pending"
                       /\ rv' = [rv EXCEPT ![self] = 5]
@@ -6806,8 +6913,8 @@ z_dq_pending(self) == /\ pc[self] = "z_dq_pending"
                                       nextDW, ready, cwait, cnotif, cvHeld, 
                                       sdres, jpanic, sfst, slotSt, qrSent, 
                                       qrWaker, dnState, dnWaker, parkTok, 
-                                      barGen, myBar, cdone, rwb, rneed, dsl, 
-                                      atomic, strong, ppPending, ppClosed, 
+                                      barGen, myBar, cdone, rwb, rneed, stres, 
+                                      dsl, atomic, strong, ppPending, ppClosed, 
                                       ppNotify, ppNC, ppBP, ppDepth, ppAlive, 
                                       ppHeld, inItems, inClosed, inWaker, 
                                       pollFn, chuteFn, pwTaken, nextPoll, 
@@ -6830,12 +6937,12 @@ dq_empty_w(self) == /\ pc[self] = "dq_empty_w"
                                     cwait, cnotif, cvHeld, sdres, jpanic, sfst, 
                                     slotSt, qrSent, qrWaker, dnState, dnWaker, 
                                     parkTok, barGen, myBar, cdone, rv, rwb, 
-                                    rneed, dsl, atomic, strong, ppPending, 
-                                    ppClosed, ppNotify, ppNC, ppBP, ppDepth, 
-                                    ppAlive, ppHeld, inItems, inClosed, 
-                                    inWaker, pollFn, chuteFn, pwTaken, 
-                                    nextPoll, ppItem, pjLive, ppStage, h, 
-                                    stack, dead, sti, smax, rq, sq, sj, ww, 
+                                    rneed, stres, dsl, atomic, strong, 
+                                    ppPending, ppClosed, ppNotify, ppNC, ppBP, 
+                                    ppDepth, ppAlive, ppHeld, inItems, 
+                                    inClosed, inWaker, pollFn, chuteFn, 
+                                    pwTaken, nextPoll, ppItem, pjLive, ppStage, 
+                                    h, stack, dead, sti, smax, rq, sq, sj, ww, 
                                     rsq, bown, bwk, bi, bcur, bw, bsp, jq, jj, 
                                     jwk, fj, dq, dj, oq, oop, omode, oj, yq, 
                                     yop, yclaimed, tq, top, af, wf, wop, sf, 
@@ -6860,16 +6967,16 @@ dq_empty_idle(self) == /\ pc[self] = "dq_empty_idle"
                                        cvHeld, sdres, jpanic, sfst, slotSt, 
                                        qrSent, qrWaker, dnState, dnWaker, 
                                        parkTok, barGen, myBar, cdone, rv, rwb, 
-                                       rneed, dsl, atomic, strong, ppPending, 
-                                       ppClosed, ppNotify, ppNC, ppBP, ppDepth, 
-                                       ppAlive, ppHeld, inItems, inClosed, 
-                                       inWaker, pollFn, chuteFn, pwTaken, 
-                                       nextPoll, ppItem, pjLive, ppStage, h, 
-                                       dead, sti, smax, sq, sj, ww, rsq, bown, 
-                                       bwk, bi, bcur, bw, bsp, jq, jj, jwk, fj, 
-                                       dq, dj, oq, oop, omode, oj, yq, yop, 
-                                       yclaimed, tq, top, af, wf, wop, sf, 
-                                       sctx, xf, cop, kj, pp, pwk, np, nbp, 
+                                       rneed, stres, dsl, atomic, strong, 
+                                       ppPending, ppClosed, ppNotify, ppNC, 
+                                       ppBP, ppDepth, ppAlive, ppHeld, inItems, 
+                                       inClosed, inWaker, pollFn, chuteFn, 
+                                       pwTaken, nextPoll, ppItem, pjLive, 
+                                       ppStage, h, dead, sti, smax, sq, sj, ww, 
+                                       rsq, bown, bwk, bi, bcur, bw, bsp, jq, 
+                                       jj, jwk, fj, dq, dj, oq, oop, omode, oj, 
+                                       yq, yop, yclaimed, tq, top, af, wf, wop, 
+                                       sf, sctx, xf, cop, kj, pp, pwk, np, nbp, 
                                        nres, dp, pf, pctx, pq, pj, pd, nq >>
 
 dq_idle(self) == /\ pc[self] = "dq_idle"
@@ -6888,16 +6995,16 @@ dq_idle(self) == /\ pc[self] = "dq_idle"
                                  nextDW, ready, cwait, cnotif, cvHeld, sdres, 
                                  jpanic, sfst, slotSt, qrSent, qrWaker, 
                                  dnState, dnWaker, parkTok, barGen, myBar, 
-                                 cdone, rv, rwb, rneed, dsl, atomic, strong, 
-                                 ppPending, ppClosed, ppNotify, ppNC, ppBP, 
-                                 ppDepth, ppAlive, ppHeld, inItems, inClosed, 
-                                 inWaker, pollFn, chuteFn, pwTaken, nextPoll, 
-                                 ppItem, pjLive, ppStage, h, dead, sti, smax, 
-                                 sq, sj, ww, rsq, bown, bwk, bi, bcur, bw, bsp, 
-                                 jq, jj, jwk, fj, dq, dj, oq, oop, omode, oj, 
-                                 yq, yop, yclaimed, tq, top, af, wf, wop, sf, 
-                                 sctx, xf, cop, kj, pp, pwk, np, nbp, nres, dp, 
-                                 pf, pctx, pq, pj, pd, nq >>
+                                 cdone, rv, rwb, rneed, stres, dsl, atomic, 
+                                 strong, ppPending, ppClosed, ppNotify, ppNC, 
+                                 ppBP, ppDepth, ppAlive, ppHeld, inItems, 
+                                 inClosed, inWaker, pollFn, chuteFn, pwTaken, 
+                                 nextPoll, ppItem, pjLive, ppStage, h, dead, 
+                                 sti, smax, sq, sj, ww, rsq, bown, bwk, bi, 
+                                 bcur, bw, bsp, jq, jj, jwk, fj, dq, dj, oq, 
+                                 oop, omode, oj, yq, yop, yclaimed, tq, top, 
+                                 af, wf, wop, sf, sctx, xf, cop, kj, pp, pwk, 
+                                 np, nbp, nres, dp, pf, pctx, pq, pj, pd, nq >>
 
 dq_panic(self) == /\ pc[self] = "dq_panic"
                   /\ qstate' = [qstate EXCEPT ![pq[self]] = "Panicked"]
@@ -6917,16 +7024,16 @@ dq_panic(self) == /\ pc[self] = "dq_panic"
                                   nextDW, ready, cwait, cnotif, cvHeld, sdres, 
                                   jpanic, sfst, slotSt, qrSent, qrWaker, 
                                   dnState, dnWaker, parkTok, barGen, myBar, 
-                                  cdone, rwb, rneed, dsl, atomic, strong, 
-                                  ppPending, ppClosed, ppNotify, ppNC, ppBP, 
-                                  ppDepth, ppAlive, ppHeld, inItems, inClosed, 
-                                  inWaker, pollFn, chuteFn, pwTaken, nextPoll, 
-                                  ppItem, pjLive, ppStage, h, dead, sti, smax, 
-                                  rq, sq, sj, ww, rsq, bown, bwk, bi, bcur, bw, 
-                                  bsp, jq, jj, jwk, fj, dq, dj, oq, oop, omode, 
-                                  oj, yq, yop, yclaimed, tq, top, af, wf, wop, 
-                                  sf, sctx, xf, cop, kj, pp, pwk, np, nbp, 
-                                  nres, dp, nq >>
+                                  cdone, rwb, rneed, stres, dsl, atomic, 
+                                  strong, ppPending, ppClosed, ppNotify, ppNC, 
+                                  ppBP, ppDepth, ppAlive, ppHeld, inItems, 
+                                  inClosed, inWaker, pollFn, chuteFn, pwTaken, 
+                                  nextPoll, ppItem, pjLive, ppStage, h, dead, 
+                                  sti, smax, rq, sq, sj, ww, rsq, bown, bwk, 
+                                  bi, bcur, bw, bsp, jq, jj, jwk, fj, dq, dj, 
+                                  oq, oop, omode, oj, yq, yop, yclaimed, tq, 
+                                  top, af, wf, wop, sf, sctx, xf, cop, kj, pp, 
+                                  pwk, np, nbp, nres, dp, nq >>
 
 PollFuture(self) == pf_decide(self) \/ dq_res(self) \/ dq_deq(self)
                        \/ z_dq_after(self) \/ dq_requeue(self)
@@ -6964,15 +7071,16 @@ c_start(self) == /\ pc[self] = "c_start"
                                  dblW2, nextDW, ready, cwait, cnotif, cvHeld, 
                                  sdres, jpanic, sfst, slotSt, qrSent, qrWaker, 
                                  dnState, dnWaker, parkTok, barGen, myBar, 
-                                 cdone, rv, rwb, rneed, dsl, atomic, strong, 
-                                 ppPending, ppClosed, ppNotify, ppNC, ppBP, 
-                                 ppDepth, ppAlive, ppHeld, inItems, inClosed, 
-                                 inWaker, pollFn, chuteFn, pwTaken, nextPoll, 
-                                 ppItem, pjLive, ppStage, h, dead, sti, smax, 
-                                 rq, sq, sj, ww, jq, jj, jwk, fj, dq, dj, oq, 
-                                 oop, omode, oj, yq, yop, yclaimed, tq, top, 
-                                 af, wf, wop, sf, sctx, xf, cop, kj, pp, pwk, 
-                                 np, nbp, nres, dp, pf, pctx, pq, pj, pd, nq >>
+                                 cdone, rv, rwb, rneed, stres, dsl, atomic, 
+                                 strong, ppPending, ppClosed, ppNotify, ppNC, 
+                                 ppBP, ppDepth, ppAlive, ppHeld, inItems, 
+                                 inClosed, inWaker, pollFn, chuteFn, pwTaken, 
+                                 nextPoll, ppItem, pjLive, ppStage, h, dead, 
+                                 sti, smax, rq, sq, sj, ww, jq, jj, jwk, fj, 
+                                 dq, dj, oq, oop, omode, oj, yq, yop, yclaimed, 
+                                 tq, top, af, wf, wop, sf, sctx, xf, cop, kj, 
+                                 pp, pwk, np, nbp, nres, dp, pf, pctx, pq, pj, 
+                                 pd, nq >>
 
 z_c_exit(self) == /\ pc[self] = "z_c_exit"
                   /\ h' = ObsExit(h, self, 0, 0)
@@ -6986,16 +7094,16 @@ z_c_exit(self) == /\ pc[self] = "z_c_exit"
                                   dblW2, nextDW, ready, cwait, cnotif, cvHeld, 
                                   sdres, jpanic, sfst, slotSt, qrSent, qrWaker, 
                                   dnState, dnWaker, parkTok, barGen, myBar, rv, 
-                                  rwb, rneed, dsl, atomic, strong, ppPending, 
-                                  ppClosed, ppNotify, ppNC, ppBP, ppDepth, 
-                                  ppAlive, ppHeld, inItems, inClosed, inWaker, 
-                                  pollFn, chuteFn, pwTaken, nextPoll, ppItem, 
-                                  pjLive, ppStage, stack, dead, sti, smax, rq, 
-                                  sq, sj, ww, rsq, bown, bwk, bi, bcur, bw, 
-                                  bsp, jq, jj, jwk, fj, dq, dj, oq, oop, omode, 
-                                  oj, yq, yop, yclaimed, tq, top, af, wf, wop, 
-                                  sf, sctx, xf, cop, kj, pp, pwk, np, nbp, 
-                                  nres, dp, pf, pctx, pq, pj, pd, nq >>
+                                  rwb, rneed, stres, dsl, atomic, strong, 
+                                  ppPending, ppClosed, ppNotify, ppNC, ppBP, 
+                                  ppDepth, ppAlive, ppHeld, inItems, inClosed, 
+                                  inWaker, pollFn, chuteFn, pwTaken, nextPoll, 
+                                  ppItem, pjLive, ppStage, stack, dead, sti, 
+                                  smax, rq, sq, sj, ww, rsq, bown, bwk, bi, 
+                                  bcur, bw, bsp, jq, jj, jwk, fj, dq, dj, oq, 
+                                  oop, omode, oj, yq, yop, yclaimed, tq, top, 
+                                  af, wf, wop, sf, sctx, xf, cop, kj, pp, pwk, 
+                                  np, nbp, nres, dp, pf, pctx, pq, pj, pd, nq >>
 
 caller(self) == c_start(self) \/ z_c_exit(self)
 
@@ -7017,16 +7125,17 @@ pt_recv(self) == /\ pc[self] = "pt_recv"
                                  nextDW, ready, cwait, cnotif, cvHeld, sdres, 
                                  jpanic, sfst, slotSt, qrSent, qrWaker, 
                                  dnState, dnWaker, parkTok, barGen, myBar, 
-                                 cdone, rv, rwb, rneed, dsl, atomic, strong, 
-                                 ppPending, ppClosed, ppNotify, ppNC, ppBP, 
-                                 ppDepth, ppAlive, ppHeld, inItems, inClosed, 
-                                 inWaker, pollFn, chuteFn, pwTaken, nextPoll, 
-                                 ppItem, pjLive, ppStage, stack, dead, sti, 
-                                 smax, rq, sq, sj, ww, rsq, bown, bwk, bi, 
-                                 bcur, bw, bsp, jq, jj, jwk, fj, dq, dj, oq, 
-                                 oop, omode, oj, yq, yop, yclaimed, tq, top, 
-                                 af, wf, wop, sf, sctx, xf, cop, kj, pp, pwk, 
-                                 np, nbp, nres, dp, pf, pctx, pq, pj, pd, nq >>
+                                 cdone, rv, rwb, rneed, stres, dsl, atomic, 
+                                 strong, ppPending, ppClosed, ppNotify, ppNC, 
+                                 ppBP, ppDepth, ppAlive, ppHeld, inItems, 
+                                 inClosed, inWaker, pollFn, chuteFn, pwTaken, 
+                                 nextPoll, ppItem, pjLive, ppStage, stack, 
+                                 dead, sti, smax, rq, sq, sj, ww, rsq, bown, 
+                                 bwk, bi, bcur, bw, bsp, jq, jj, jwk, fj, dq, 
+                                 dj, oq, oop, omode, oj, yq, yop, yclaimed, tq, 
+                                 top, af, wf, wop, sf, sctx, xf, cop, kj, pp, 
+                                 pwk, np, nbp, nres, dp, pf, pctx, pq, pj, pd, 
+                                 nq >>
 
 pt_next(self) == /\ pc[self] = "pt_next"
                  /\ LET r == NTR(schedule) IN
@@ -7046,9 +7155,9 @@ pt_next(self) == /\ pc[self] = "pt_next"
                                  dblW1, dblW2, nextDW, ready, cwait, cnotif, 
                                  cvHeld, sdres, jpanic, sfst, slotSt, qrSent, 
                                  qrWaker, dnState, dnWaker, parkTok, barGen, 
-                                 myBar, cdone, rv, rwb, rneed, dsl, atomic, 
-                                 strong, ppPending, ppClosed, ppNotify, ppNC, 
-                                 ppBP, ppDepth, ppAlive, ppHeld, inItems, 
+                                 myBar, cdone, rv, rwb, rneed, stres, dsl, 
+                                 atomic, strong, ppPending, ppClosed, ppNotify, 
+                                 ppNC, ppBP, ppDepth, ppAlive, ppHeld, inItems, 
                                  inClosed, inWaker, pollFn, chuteFn, pwTaken, 
                                  nextPoll, ppItem, pjLive, ppStage, h, stack, 
                                  dead, sti, smax, rq, sq, sj, ww, rsq, bown, 
@@ -7080,16 +7189,16 @@ pt_after(self) == /\ pc[self] = "pt_after"
                                   ready, cwait, cnotif, cvHeld, sdres, jpanic, 
                                   sfst, slotSt, qrSent, qrWaker, dnState, 
                                   dnWaker, parkTok, barGen, myBar, cdone, rv, 
-                                  rwb, rneed, dsl, atomic, strong, ppPending, 
-                                  ppClosed, ppNotify, ppNC, ppBP, ppDepth, 
-                                  ppAlive, ppHeld, inItems, inClosed, inWaker, 
-                                  pollFn, chuteFn, pwTaken, nextPoll, ppItem, 
-                                  pjLive, ppStage, h, dead, sti, smax, rq, sq, 
-                                  sj, ww, rsq, bown, bwk, bi, bcur, bw, bsp, 
-                                  jq, jj, jwk, fj, oq, oop, omode, oj, yq, yop, 
-                                  yclaimed, tq, top, af, wf, wop, sf, sctx, xf, 
-                                  cop, kj, pp, pwk, np, nbp, nres, dp, pf, 
-                                  pctx, pq, pj, pd, nq >>
+                                  rwb, rneed, stres, dsl, atomic, strong, 
+                                  ppPending, ppClosed, ppNotify, ppNC, ppBP, 
+                                  ppDepth, ppAlive, ppHeld, inItems, inClosed, 
+                                  inWaker, pollFn, chuteFn, pwTaken, nextPoll, 
+                                  ppItem, pjLive, ppStage, h, dead, sti, smax, 
+                                  rq, sq, sj, ww, rsq, bown, bwk, bi, bcur, bw, 
+                                  bsp, jq, jj, jwk, fj, oq, oop, omode, oj, yq, 
+                                  yop, yclaimed, tq, top, af, wf, wop, sf, 
+                                  sctx, xf, cop, kj, pp, pwk, np, nbp, nres, 
+                                  dp, pf, pctx, pq, pj, pd, nq >>
 
 z_pt_chk(self) == /\ pc[self] = "z_pt_chk"
                   /\ IF rv[self] = 9
@@ -7106,16 +7215,17 @@ z_pt_chk(self) == /\ pc[self] = "z_pt_chk"
                                   nextDW, ready, cwait, cnotif, cvHeld, sdres, 
                                   jpanic, sfst, slotSt, qrSent, qrWaker, 
                                   dnState, dnWaker, parkTok, barGen, myBar, 
-                                  cdone, rv, rwb, rneed, dsl, atomic, strong, 
-                                  ppPending, ppClosed, ppNotify, ppNC, ppBP, 
-                                  ppDepth, ppAlive, ppHeld, inItems, inClosed, 
-                                  inWaker, pollFn, chuteFn, pwTaken, nextPoll, 
-                                  ppItem, pjLive, ppStage, stack, dead, sti, 
-                                  smax, rq, sq, sj, ww, rsq, bown, bwk, bi, 
-                                  bcur, bw, bsp, jq, jj, jwk, fj, dq, dj, oq, 
-                                  oop, omode, oj, yq, yop, yclaimed, tq, top, 
-                                  af, wf, wop, sf, sctx, xf, cop, kj, pp, pwk, 
-                                  np, nbp, nres, dp, pf, pctx, pq, pj, pd, nq >>
+                                  cdone, rv, rwb, rneed, stres, dsl, atomic, 
+                                  strong, ppPending, ppClosed, ppNotify, ppNC, 
+                                  ppBP, ppDepth, ppAlive, ppHeld, inItems, 
+                                  inClosed, inWaker, pollFn, chuteFn, pwTaken, 
+                                  nextPoll, ppItem, pjLive, ppStage, stack, 
+                                  dead, sti, smax, rq, sq, sj, ww, rsq, bown, 
+                                  bwk, bi, bcur, bw, bsp, jq, jj, jwk, fj, dq, 
+                                  dj, oq, oop, omode, oj, yq, yop, yclaimed, 
+                                  tq, top, af, wf, wop, sf, sctx, xf, cop, kj, 
+                                  pp, pwk, np, nbp, nres, dp, pf, pctx, pq, pj, 
+                                  pd, nq >>
 
 z_pt_done(self) == /\ pc[self] = "z_pt_done"
                    /\ TRUE
@@ -7129,16 +7239,17 @@ z_pt_done(self) == /\ pc[self] = "z_pt_done"
                                    cwait, cnotif, cvHeld, sdres, jpanic, sfst, 
                                    slotSt, qrSent, qrWaker, dnState, dnWaker, 
                                    parkTok, barGen, myBar, cdone, rv, rwb, 
-                                   rneed, dsl, atomic, strong, ppPending, 
-                                   ppClosed, ppNotify, ppNC, ppBP, ppDepth, 
-                                   ppAlive, ppHeld, inItems, inClosed, inWaker, 
-                                   pollFn, chuteFn, pwTaken, nextPoll, ppItem, 
-                                   pjLive, ppStage, h, stack, dead, sti, smax, 
-                                   rq, sq, sj, ww, rsq, bown, bwk, bi, bcur, 
-                                   bw, bsp, jq, jj, jwk, fj, dq, dj, oq, oop, 
-                                   omode, oj, yq, yop, yclaimed, tq, top, af, 
-                                   wf, wop, sf, sctx, xf, cop, kj, pp, pwk, np, 
-                                   nbp, nres, dp, pf, pctx, pq, pj, pd, nq >>
+                                   rneed, stres, dsl, atomic, strong, 
+                                   ppPending, ppClosed, ppNotify, ppNC, ppBP, 
+                                   ppDepth, ppAlive, ppHeld, inItems, inClosed, 
+                                   inWaker, pollFn, chuteFn, pwTaken, nextPoll, 
+                                   ppItem, pjLive, ppStage, h, stack, dead, 
+                                   sti, smax, rq, sq, sj, ww, rsq, bown, bwk, 
+                                   bi, bcur, bw, bsp, jq, jj, jwk, fj, dq, dj, 
+                                   oq, oop, omode, oj, yq, yop, yclaimed, tq, 
+                                   top, af, wf, wop, sf, sctx, xf, cop, kj, pp, 
+                                   pwk, np, nbp, nres, dp, pf, pctx, pq, pj, 
+                                   pd, nq >>
 
 pool(self) == pt_recv(self) \/ pt_next(self) \/ pt_after(self)
                  \/ z_pt_chk(self) \/ z_pt_done(self)
